@@ -18,12 +18,27 @@ the former counterexample is now a regression theorem and `findSpan_spec`, `eval
 `U[p] < U[count]` (a necessary hypothesis: a spline whose parameter domain is a single point has no
 non-empty span at all, see the `#guard` at the end).
 
-NOT proved: knot insertion (Boehm), refinement, degree elevation, Bezier decomposition, split,
-reverse of B-splines, derivatives (A2.3/A4.2), interpolation and the conic constructions: the oracle
-of harness/props/c13.py checks them on the real code against exact rationals.
+Session 3 (sections 1 (surgery kernels), 2b, 2c, 6b - 6i; helper lemmas in EzdxfVerif/Lemmas/Curve*.lean): the generic
+`Bezier` class of any degree (point, first and second derivative = `Polynomial.derivative`, reverse, transform),
+`basis_vector` collocation, `split_bezier` (de Casteljau, any degree), `insert_knot` (Boehm's identity for the Cox - de Boor pieces, induction on the degree), `knot_refinement`,
+rational `insert_knot` (homogeneous coordinates), `reverse` (pieces for every u; equality under interior
+multiplicity <= degree via continuity at knots), `split_bspline` (both halves), first derivative of the basis
+functions (A2.3 = `Polynomial.derivative` of the Cox - de Boor polynomials, The NURBS Book (2.7)), of the curve (A3.2) and
+of the rational curve (A4.2, quotient rule), weight scaling, Bezier knots => Bernstein form, `bezier_to_bspline`.
+
+NOT proved: degree elevation (A5.9), `bezier_decomposition` (A5.6), derivatives of order >= 2 (A2.3 is modelled for
+every order and tied by correspondence), interpolation and the conic constructions: the oracle of
+harness/props/c13.py checks them on the real code against exact rationals.
 -/
 import EzdxfVerif.Model.Curve
 import EzdxfVerif.Gen.CurveKernels
+import EzdxfVerif.Lemmas.CurveInsert
+import EzdxfVerif.Lemmas.CurveBezier
+import EzdxfVerif.Lemmas.CurveReverse
+import EzdxfVerif.Lemmas.CurveDeriv
+import EzdxfVerif.Lemmas.CurveSplit
+import EzdxfVerif.Lemmas.CurveBezierDeriv
+import EzdxfVerif.Lemmas.CurvePoly
 import Mathlib.Tactic.Ring
 import Mathlib.Tactic.FieldSimp
 import Mathlib.Tactic.Linarith
@@ -56,6 +71,25 @@ theorem bulge_radius_kernel (dist b sx sy ex ey : Rat) (hb : b ≠ 0)
   simp only [signedBulgeRadiusPy, bulgeRadiusSq]
   rw [← hd]; field_simp; ring
 
+
+/-- the kernels of the curve SURGERY code as translated on this run equal the model: Boehm's `new_point` of
+    `insert_knot` and of `_insert_knot_rational` (`a = (t − U[i])/(U[i+p] − U[i])`, `P[i−1]·(1−a) + P[i]·a`), the
+    de Casteljau level of `split_bezier`, `quadratic_to_cubic_bezier`, and the weights of `pts[i]` in the first and
+    second derivative of the generic `Bezier` class -/
+theorem surgery_kernels_match_source (knots : List Rat) (cps : List V3) (p i : Nat) (t : Rat) (a b s0 c e : V3)
+    (r : List V3) (n0 j : Nat) :
+    insNewPoint knots cps p t i
+      = (if kget knots (i + p) - kget knots i = 0 then none
+         else some (insNewPointPy (kget knots i) (kget knots (i + p)) t (cps.getD (i - 1) V3.zero) (cps.getD i V3.zero))) ∧
+    insNewPointRatPy (kget knots i) (kget knots (i + p)) t a b = insNewPointPy (kget knots i) (kget knots (i + p)) t a b ∧
+    lerpStep t (a :: b :: r) = lerpPy a b t :: lerpStep t (b :: r) ∧
+    quadToCubic ⟨s0, c, e⟩ = ⟨s0, quadC1Py s0 c e, quadC2Py s0 c e, e⟩ ∧
+    bezD1Coeff n0 t j = bezD1CoeffPy j n0 t (bernstein n0 j t) ∧
+    bezD2Coeff n0 t j = bezD2CoeffPy j n0 t (bernstein n0 j t) := by
+  refine ⟨?_, rfl, rfl, rfl, ?_, ?_⟩
+  · simp only [insNewPoint, insNewPointPy]
+  · simp only [bezD1Coeff, bezD1CoeffPy]
+  · simp only [bezD2Coeff, bezD2CoeffPy]
 
 /-! ## 2. Bezier curves -/
 
@@ -104,6 +138,201 @@ theorem bezier_endpoints (c : Bez4) (d : Bez3) :
     simp only [Bez4.point, Bez4.tangent, bez4PointK, bez4TangentK, Bez3.point, Bez3.tangent, bez3PointK, bez3TangentK,
       V3.add, V3.scale, V3.sub] <;> ring
 
+
+/-! ## 2b. `curvetools.split_bezier`: de Casteljau subdivision, ANY degree -/
+
+/-- both point lists returned by `split_bezier(points, t)` have the degree of the input and reproduce the curve
+    (Bernstein form = `Bezier.point`, for cubic/quadratic = `Bezier4P/Bezier3P.point`): the first one is the curve over
+    `[0, t]`, the second one the curve over `[t, 1]` RUN BACKWARDS (the code collects `points[n]` of every de Casteljau
+    level, so it starts in the end point; quirk kept).  Polynomial identity: any number of control points ≥ 2, any `s`,
+    and any `t` the code accepts. -/
+theorem split_bezier_preserves (pts : List V3) (t s : Rat) (L R : List V3)
+    (h : splitBezier pts t = .ok (L, R)) :
+    L.length = pts.length ∧ R.length = pts.length ∧
+    bernsteinCurve L s = bernsteinCurve pts (t * s) ∧
+    bernsteinCurve R s = bernsteinCurve pts (1 - (1 - t) * s) := by
+  unfold splitBezier at h
+  split at h
+  · exact absurd h (by simp)
+  · rename_i hlen
+    split at h
+    · exact absurd h (by simp)
+    · simp only [Except.ok.injEq] at h
+      have hL : L = (splitBezierAux t pts.length pts).1 := by rw [h]
+      have hR : R = (splitBezierAux t pts.length pts).2 := by rw [h]
+      have key : ∀ (π : V3 → Rat), π V3.zero = 0 → (∀ a b, π (a.add b) = π a + π b) → (∀ a s, π (a.scale s) = π a * s) →
+          L.length = pts.length ∧ R.length = pts.length ∧
+          π (bernsteinCurve L s) = π (bernsteinCurve pts (t * s)) ∧
+          π (bernsteinCurve R s) = π (bernsteinCurve pts (1 - (1 - t) * s)) := by
+        intro π hz ha hs
+        obtain ⟨h1, h2, h3⟩ := Lemmas.Curve.splitBezierAux_spec π ha hs t pts.length pts rfl
+        rw [← hL] at h1 h3
+        rw [← hR] at h2 h3
+        refine ⟨h1, h2, ?_, ?_⟩
+        · rw [Lemmas.Curve.bernsteinCurve_proj π hz ha hs L (by omega), Lemmas.Curve.bernsteinCurve_proj π hz ha hs pts (by omega),
+            h1, ← Lemmas.Curve.bz_left]
+          exact Lemmas.Curve.bz_congr _ _ _ _ (fun i hi => (h3 i (by omega)).1)
+        · rw [Lemmas.Curve.bernsteinCurve_proj π hz ha hs R (by omega), Lemmas.Curve.bernsteinCurve_proj π hz ha hs pts (by omega),
+            h2, ← Lemmas.Curve.bz_right]
+          exact Lemmas.Curve.bz_congr _ _ _ _ (fun i hi => (h3 i (by omega)).2)
+      obtain ⟨kx1, kx2, kx3, kx4⟩ := key V3.x rfl (fun _ _ => rfl) (fun _ _ => rfl)
+      obtain ⟨_, _, ky3, ky4⟩ := key V3.y rfl (fun _ _ => rfl) (fun _ _ => rfl)
+      obtain ⟨_, _, kz3, kz4⟩ := key V3.z rfl (fun _ _ => rfl) (fun _ _ => rfl)
+      exact ⟨kx1, kx2, v3ext kx3 ky3 kz3, v3ext kx4 ky4 kz4⟩
+
+/-- … for cubic curves in terms of the class `Bezier4P` (offset trick and kernels included): the two `Bezier4P` built
+    from the lists of `split_bezier` evaluate to the points of the original curve -/
+theorem split_bezier_cubic (c : Bez4) (t s : Rat) (l0 l1 l2 l3 r0 r1 r2 r3 : V3)
+    (h : splitBezier [c.p0, c.p1, c.p2, c.p3] t = .ok ([l0, l1, l2, l3], [r0, r1, r2, r3])) :
+    (Bez4.mk l0 l1 l2 l3).point s = c.point (t * s) ∧ (Bez4.mk r0 r1 r2 r3).point s = c.point (1 - (1 - t) * s) := by
+  obtain ⟨_, _, h3, h4⟩ := split_bezier_preserves _ t s _ _ h
+  have d : Bez3 := ⟨V3.zero, V3.zero, V3.zero⟩
+  rw [(bezier_point_bernstein ⟨l0, l1, l2, l3⟩ d s).1, (bezier_point_bernstein ⟨r0, r1, r2, r3⟩ d s).1,
+    (bezier_point_bernstein c d (t * s)).1, (bezier_point_bernstein c d (1 - (1 - t) * s)).1]
+  exact ⟨h3, h4⟩
+
+/-! ## 2c. the generic `Bezier` class (any degree): point and first derivative -/
+
+/-- **generic Bézier curve** (`bezier.py`, two or more definition points, every degree): whenever `Bezier.derivative(t)`
+    returns `(point, d1, d2)`, with `t'` the parameter after the snapping `1 - t < 5e-6 → 1`:
+    `point` is what `Bezier.point(t)` returns, the Bernstein form at `t'`, and for every coordinate `π` (x, y, z)
+    `π point = Pπ(t')`, `π d1 = Pπ'(t')` where `Pπ = Σ_i π(P_i)·C(n,i)·X^i·(1−X)^(n−i) ∈ ℚ[X]` and `Pπ'` is
+    `Polynomial.derivative` — in all three branches of the code: the closed formulas `n(P_1 − P_0)`, `n(P_n − P_{n−1})` at
+    `t' = 0`, `t' = 1` and the weighted sum `Σ (i − n t)/(t(1−t))·B_{i,n}(t)·P_i` between -/
+theorem generic_bezier_derivative (pts : List V3) (t : Rat) (hn : 2 ≤ pts.length) (pt d1 d2 : V3)
+    (h : bezierDerivative pts t = some (pt, d1, d2))
+    (π : V3 → Rat) (hz : π V3.zero = 0) (ha : ∀ a b, π (a.add b) = π a + π b) (hs : ∀ a s, π (a.scale s) = π a * s) :
+    bezierPoint pts t = some pt ∧ pt = bernsteinCurve pts (bezSnap t) ∧
+    π pt = (Lemmas.Curve.polySum π (pts.length - 1) 0 pts).eval (bezSnap t) ∧
+    π d1 = (Polynomial.derivative (Lemmas.Curve.polySum π (pts.length - 1) 0 pts)).eval (bezSnap t) := by
+  have hsub : ∀ a b : V3, π (a.sub b) = π a - π b := by
+    intro a b
+    have e : a.sub b = a.add (b.scale (-1)) := by apply v3ext <;> simp [V3.sub, V3.add, V3.scale] <;> ring
+    rw [e, ha, hs]; ring
+  have hpt : π (bernsteinCurve pts (bezSnap t)) = (Lemmas.Curve.polySum π (pts.length - 1) 0 pts).eval (bezSnap t) := by
+    rw [Lemmas.Curve.polySum_eval π hz ha hs]
+    simp only [bernsteinCurve, Lemmas.Curve.bernsteinSum_eq_curveSum]
+  have hder := Lemmas.Curve.polySum_deriv_eval π hz ha hs (pts.length - 1) (bezSnap t) pts 0
+  unfold bezierDerivative at h
+  simp only [bezierPoint]
+  split at h
+  · exact absurd h (by simp)
+  rename_i hr
+  rw [if_neg hr]
+  simp only at h
+  split at h
+  · -- t' = 0
+    rename_i h0
+    simp only [Option.some.injEq, Prod.mk.injEq] at h
+    obtain ⟨rfl, rfl, _⟩ := h
+    refine ⟨rfl, rfl, hpt, ?_⟩
+    rw [hder, h0, Lemmas.Curve.curveSum_proj π hz ha hs]
+    simp only [Nat.zero_add]
+    rw [Lemmas.Curve.wsum_two pts.length _ 0 1 (by omega) (by omega) (by omega) (fun j hj c1 c2 => by
+      rw [Lemmas.Curve.bernPoly_deriv_zero _ j (by omega), if_neg c1, if_neg c2]; simp)]
+    rw [Lemmas.Curve.bernPoly_deriv_zero _ 0 (by omega), Lemmas.Curve.bernPoly_deriv_zero _ 1 (by omega)]
+    simp only [if_true, hs, hsub]
+    simp
+    ring
+  · split at h
+    · -- t' = 1
+      rename_i h0 h1
+      simp only [Option.some.injEq, Prod.mk.injEq] at h
+      obtain ⟨rfl, rfl, _⟩ := h
+      refine ⟨rfl, rfl, hpt, ?_⟩
+      rw [hder, h1, Lemmas.Curve.curveSum_proj π hz ha hs]
+      simp only [Nat.zero_add]
+      rw [Lemmas.Curve.wsum_two pts.length _ (pts.length - 1) (pts.length - 1 - 1) (by omega) (by omega) (by omega)
+        (fun j hj c1 c2 => by
+          rw [Lemmas.Curve.bernPoly_deriv_one _ j (by omega), if_neg c1, if_neg (by omega)]; simp)]
+      rw [Lemmas.Curve.bernPoly_deriv_one _ _ (le_refl _), Lemmas.Curve.bernPoly_deriv_one _ (pts.length - 1 - 1) (by omega)]
+      rw [if_pos rfl, if_neg (by omega), if_pos (by omega)]
+      simp only [hs, hsub]
+      ring
+    · -- 0 < t' < 1
+      rename_i h0 h1
+      simp only [Option.some.injEq, Prod.mk.injEq] at h
+      obtain ⟨rfl, rfl, _⟩ := h
+      refine ⟨rfl, rfl, hpt, ?_⟩
+      rw [hder]
+      congr 1
+      apply Lemmas.Curve.curveSum_congr
+      intro i _ hi
+      exact (Lemmas.Curve.bernPoly_deriv_eval _ i (by omega) _ h0 h1).symm
+
+/-- … and the SECOND derivative between the ends (`0 < t' < 1`): `π d2 = Pπ''(t')`, i.e. the weights
+    `((i − n t)² − n t² − i(1 − 2t))/(t²(1−t)²)` of the code are `B''_{i,n}/B_{i,n}`.  (The closed formulas for `d2` at
+    `t' = 0, 1` are corresponded (X12) but not proved.) -/
+theorem generic_bezier_second_derivative (pts : List V3) (t : Rat) (pt d1 d2 : V3)
+    (h : bezierDerivative pts t = some (pt, d1, d2)) (h0 : bezSnap t ≠ 0) (h1 : bezSnap t ≠ 1)
+    (π : V3 → Rat) (hz : π V3.zero = 0) (ha : ∀ a b, π (a.add b) = π a + π b) (hs : ∀ a s, π (a.scale s) = π a * s) :
+    π d2 = (Polynomial.derivative (Polynomial.derivative (Lemmas.Curve.polySum π (pts.length - 1) 0 pts))).eval (bezSnap t) := by
+  have hder := Lemmas.Curve.polySum_deriv2_eval π hz ha hs (pts.length - 1) (bezSnap t) pts 0
+  unfold bezierDerivative at h
+  split at h
+  · exact absurd h (by simp)
+  simp only at h
+  rw [if_neg h0, if_neg h1] at h
+  simp only [Option.some.injEq, Prod.mk.injEq] at h
+  obtain ⟨_, _, rfl⟩ := h
+  rw [hder]
+  congr 1
+  apply Lemmas.Curve.curveSum_congr
+  intro i _ hi
+  exact (Lemmas.Curve.bernPoly_deriv2_eval _ i (by omega) _ h0 h1).symm
+
+/-- **generic Bézier curve, any degree**: `Bezier.reverse()` (`reversed(control_points)`) runs the same curve backwards, and
+    `Bezier.transform(m)` (`m.transform_vertices(control_points)`) commutes with evaluation for every affine map
+    (`Σ_i B_{i,n} = 1`) — in the Bernstein form that `Bezier.point` evaluates -/
+theorem generic_bezier_reverse_affine (pts : List V3) (hn : 1 ≤ pts.length) (t : Rat) (m : Affine) :
+    bernsteinCurve pts.reverse t = bernsteinCurve pts (1 - t) ∧
+    bernsteinCurve (pts.map m.apply) t = m.apply (bernsteinCurve pts t) := by
+  constructor
+  · simp only [bernsteinCurve, Lemmas.Curve.bernsteinSum_eq_curveSum, List.length_reverse]
+    apply Lemmas.Curve.curveSum_reverse
+    intro i hi
+    have := Lemmas.Curve.bernstein_symm (pts.length - 1) i (by omega) (1 - t)
+    have e : 1 - (1 - t) = t := by ring
+    rw [e] at this
+    have e2 : pts.length - 1 - i = pts.length - 1 - i := rfl
+    rw [← this]
+  · have hlin : ∀ (n : Nat) (a b c f : Nat → Rat) (c1 c2 c3 c4 : Rat),
+        Lemmas.Curve.wsum n (fun j => (a j * c1 + b j * c2 + c j * c3 + c4) * f j)
+          = c1 * Lemmas.Curve.wsum n (fun j => a j * f j) + c2 * Lemmas.Curve.wsum n (fun j => b j * f j)
+            + c3 * Lemmas.Curve.wsum n (fun j => c j * f j) + c4 * Lemmas.Curve.wsum n f := by
+      intro n a b c f c1 c2 c3 c4
+      induction n with
+      | zero => simp [Lemmas.Curve.wsum]
+      | succ n ih => simp only [Lemmas.Curve.wsum, ih]; ring
+    have hone : Lemmas.Curve.wsum pts.length (fun j => bernstein (pts.length - 1) j t) = 1 := by
+      have := Lemmas.Curve.bz_one (pts.length - 1) t
+      simp only [Lemmas.Curve.bz, mul_one] at this
+      have e : pts.length - 1 + 1 = pts.length := by omega
+      rw [e] at this
+      exact this
+    have hget : ∀ j, j < pts.length → (pts.map m.apply).getD j V3.zero = m.apply (pts.getD j V3.zero) := by
+      intro j hj
+      simp only [List.getD_eq_getElem?_getD, List.getElem?_map, List.getElem?_eq_getElem hj]
+      rfl
+    have key : ∀ (π : V3 → Rat) (c1 c2 c3 c4 : Rat), π V3.zero = 0 → (∀ a b, π (a.add b) = π a + π b) →
+        (∀ a s, π (a.scale s) = π a * s) → (∀ v, π (m.apply v) = v.x * c1 + v.y * c2 + v.z * c3 + c4) →
+        π (bernsteinCurve (pts.map m.apply) t) = π (m.apply (bernsteinCurve pts t)) := by
+      intro π c1 c2 c3 c4 hz ha hs hπ
+      rw [hπ]
+      simp only [bernsteinCurve, Lemmas.Curve.bernsteinSum_eq_curveSum, List.length_map]
+      rw [Lemmas.Curve.curveSum_proj π hz ha hs, Lemmas.Curve.curveSum_proj V3.x rfl (fun _ _ => rfl) (fun _ _ => rfl),
+        Lemmas.Curve.curveSum_proj V3.y rfl (fun _ _ => rfl) (fun _ _ => rfl),
+        Lemmas.Curve.curveSum_proj V3.z rfl (fun _ _ => rfl) (fun _ _ => rfl), List.length_map]
+      rw [Lemmas.Curve.wsum_congr pts.length _ (fun j => ((pts.getD j V3.zero).x * c1 + (pts.getD j V3.zero).y * c2
+          + (pts.getD j V3.zero).z * c3 + c4) * bernstein (pts.length - 1) j t)
+        (fun j hj => by rw [hget j hj, hπ, Nat.zero_add])]
+      rw [hlin, hone]
+      simp only [Nat.zero_add]
+      ring
+    apply v3ext
+    · exact key V3.x m.m0 m.m4 m.m8 m.m12 rfl (fun _ _ => rfl) (fun _ _ => rfl) (fun _ => rfl)
+    · exact key V3.y m.m1 m.m5 m.m9 m.m13 rfl (fun _ _ => rfl) (fun _ _ => rfl) (fun _ => rfl)
+    · exact key V3.z m.m2 m.m6 m.m10 m.m14 rfl (fun _ _ => rfl) (fun _ _ => rfl) (fun _ => rfl)
 
 /-! ## 3. knot span search (`Basis.find_span`) -/
 
@@ -795,14 +1024,2568 @@ theorem bspline_affine (knots : List Rat) (cps : List V3) (order : Nat) (u : Rat
   rw [← List.map_drop]
   exact combine_affine m N _ (by simp only [List.length_drop]; omega) hsum
 
-/- NOT proved (tier 2 of DESIGN.md, oracle only):
+/-- `BSpline.transform` of a RATIONAL spline (control points mapped, weights kept): commutes with evaluation for every
+    affine map wherever the weight function `Σ N_i w_i` does not vanish (always, for positive weights): the weighted basis
+    values sum to 1 -/
+theorem bspline_affine_rational (knots weights : List Rat) (cps : List V3) (order : Nat) (u : Rat) (m : Affine)
+    (hsort : nondecreasing knots = true) (ho : 1 ≤ order) (hoc : order ≤ cps.length)
+    (hl : knots.length = order + cps.length) (hw : weights ≠ [])
+    (hdom : kget knots (order - 1) < kget knots cps.length)
+    (hlo : kget knots (order - 1) ≤ u) (hhi : u ≤ kget knots cps.length)
+    (hnz : ∀ (s : Nat) (N : List Rat), findSpan knots order cps.length u = (s : Int) → basisFuncs knots order s u = some N →
+      (List.zipWith (· * ·) N ((weights.drop (s + 1 - order)).take order)).sum ≠ 0) :
+    evalPoint knots weights (cps.map m.apply) order u = (evalPoint knots weights cps order u).map m.apply := by
+  obtain ⟨s, hfs, hs1, hs2, hs3, _, _⟩ := findSpan_spec knots order cps.length u hsort ho hoc hl hdom hlo hhi
+  obtain ⟨N, hN⟩ := basis_total knots order s u hsort (by omega) hs3
+  have hlen := basis_length knots order s u N ho hN
+  have hs0 := hnz s N hfs hN
+  have hne : weights.isEmpty = false := by cases weights <;> simp_all
+  simp only [evalPoint, List.length_map, hfs]
+  show (basisFuncsW knots weights order s u).map _ = ((basisFuncsW knots weights order s u).map _).map _
+  simp only [basisFuncsW, hN, Option.map_some, hne, Bool.false_eq_true, if_false, Option.some.injEq]
+  rw [← List.map_drop]
+  have hsum := (span_weighting_rational weights order s N [] hs0).1
+  have hwl : (spanWeighting weights order s N).length ≤ (cps.drop (s + 1 - order)).length := by
+    simp only [spanWeighting, if_neg hs0, List.length_map, List.length_zipWith, List.length_drop]
+    omega
+  exact combine_affine m _ _ hwl hsum
 
-   theorem insert_knot_preserves … (h : insertKnot knots cps order t = .ok (cps', knots')) :
-       ∀ u, kget knots (order-1) ≤ u → u < kget knots cps.length →
-         evalPoint knots' [] cps' order u = evalPoint knots [] cps order u        -- Boehm
+/-! ## 6b. knot insertion (Boehm): `BSpline.insert_knot` does not change the curve -/
 
-   and the analogous statements for knot_refinement, degree_elevation, bezier_decomposition, split
-   and reverse of B-splines; derivatives (A2.3, A4.2). -/
+/-- what `find_span(t)` returned when `insert_knot` went on (`k >= p`) for a `t` below the domain end: the knot
+    interval of `t` (both search branches) -/
+private theorem findSpan_result_lt (knots : List Rat) (order count : Nat) (t : Rat) (k : Nat)
+    (hs : nondecreasing knots = true) (ho : 1 ≤ order) (hoc : order ≤ count)
+    (hl : knots.length = order + count) (ht : t < kget knots count)
+    (hf : findSpan knots order count t = (k : Int)) (hpk : order - 1 ≤ k) :
+    k < count ∧ kget knots k ≤ t ∧ t < kget knots (k + 1) := by
+  unfold findSpan at hf
+  simp only at hf
+  rw [if_neg (not_le.mpr ht)] at hf
+  split at hf
+  · obtain ⟨h1, h2, h3, h4⟩ := bisectRight_spec knots t (order - 1) count hs (by omega) (by omega)
+    generalize bisectRight knots t (order - 1) count = r at *
+    have hr : r = k + 1 := by omega
+    subst hr
+    refine ⟨by omega, h3 k hpk (by omega), ?_⟩
+    by_cases hrc : k + 1 < count
+    · exact h4 (k + 1) (le_refl _) hrc
+    · have : k + 1 = count := by omega
+      rw [this]; exact ht
+  · obtain ⟨h1, h2, h3⟩ := linearSearch_spec knots t count 0
+    generalize linearSearch knots t count 0 = r at *
+    have hr : r = k + 1 := by omega
+    subst hr
+    have hrc : k + 1 ≤ count := by
+      by_contra hcon
+      have hc := h2 count (by omega) (by omega)
+      exact absurd hc (not_le.mpr ht)
+    refine ⟨by omega, h2 k (by omega) (by omega), ?_⟩
+    by_cases hrc' : k + 1 < count
+    · by_contra hcon
+      exact h3 ⟨not_lt.mp hcon, hrc'⟩
+    · have : k + 1 = count := by omega
+      rw [this]; exact ht
+
+/-- … and up to the domain end (the special case `t = U[count]` answers with the last non-empty span) -/
+private theorem findSpan_result (knots : List Rat) (order count : Nat) (t : Rat) (k : Nat)
+    (hs : nondecreasing knots = true) (ho : 1 ≤ order) (hoc : order ≤ count)
+    (hl : knots.length = order + count) (hdom : kget knots (order - 1) < kget knots count)
+    (ht : t ≤ kget knots count)
+    (hf : findSpan knots order count t = (k : Int)) (hpk : order - 1 ≤ k) :
+    k < count ∧ kget knots k ≤ t ∧ t ≤ kget knots (k + 1) ∧ kget knots k < kget knots (k + 1) := by
+  rcases lt_or_eq_of_le ht with ht | ht
+  · have key := findSpan_result_lt knots order count t k hs ho hoc hl ht hf hpk
+    exact ⟨key.1, key.2.1, le_of_lt key.2.2, lt_of_le_of_lt key.2.1 key.2.2⟩
+  · obtain ⟨s, hfs, h1, h2, h3, h4⟩ := findSpan_domain_end knots order count t hs ho hoc hl hdom (by rw [ht])
+    have : s = k := by rw [hfs] at hf; exact_mod_cast hf
+    subst this
+    exact ⟨h2, by rw [ht, ← h4]; exact le_of_lt h3, by rw [ht, h4], h3⟩
+
+/-- the shape of a successful `insert_knot` -/
+private theorem insertKnot_ok (knots : List Rat) (cps : List V3) (order : Nat) (t : Rat) (cps' : List V3)
+    (knots' : List Rat) (h : insertKnot knots cps order t = .ok (cps', knots')) :
+    ∃ (k : Nat) (qs : List V3), findSpan knots order cps.length t = (k : Int) ∧ order - 1 ≤ k ∧
+      (List.range' (k + 1 - (order - 1)) (order - 1)).mapM (insNewPoint knots cps (order - 1) t) = some qs ∧
+      cps' = cps.take (k + 1 - (order - 1)) ++ qs ++ cps.drop k ∧
+      knots' = knots.take (k + 1) ++ t :: knots.drop (k + 1) := by
+  unfold insertKnot at h
+  simp only at h
+  split at h
+  · exact absurd h (by simp)
+  · split at h
+    · rename_i k hk
+      split at h
+      · exact absurd h (by simp)
+      · rename_i hkp
+        split at h
+        · exact absurd h (by simp)
+        · rename_i qs hq
+          simp only [Except.ok.injEq, Prod.mk.injEq] at h
+          exact ⟨k, qs, hk, by omega, hq, h.1.symm, h.2.symm⟩
+    · exact absurd h (by simp)
+
+/-- **Boehm's knot insertion** as coded in `BSpline.insert_knot` (non rational branch): whenever it returns for a `t`
+    up to the end of the domain (`t = U[count] < max_t` included), the result is again a well-formed spline (nondecreasing knots, `len(knots) = order +
+    count`, one more control point, same domain) and `Evaluator.point` gives the SAME point for every `u` in the
+    domain `[U[p], U[count])` — every degree, every nondecreasing knot vector (clamped or not, any multiplicities,
+    `t` may be an existing knot), every control polygon.
+    Hypothesis `t <= U[count]`: for `U[count] < t < max_t` (possible for unclamped knots only) `find_span` answers with
+    the evaluation span of the domain end and `knots.insert(k + 1, t)` puts `t` in front of smaller knots; see
+    reports/C13.md, Session 3. -/
+theorem insert_knot_preserves (knots : List Rat) (cps : List V3) (order : Nat) (t u : Rat)
+    (cps' : List V3) (knots' : List Rat)
+    (hsort : nondecreasing knots = true) (ho : 1 ≤ order) (hoc : order ≤ cps.length)
+    (hl : knots.length = order + cps.length)
+    (ht : t ≤ kget knots cps.length)
+    (h : insertKnot knots cps order t = .ok (cps', knots'))
+    (hlo : kget knots (order - 1) ≤ u) (hhi : u < kget knots cps.length) :
+    nondecreasing knots' = true ∧ cps'.length = cps.length + 1 ∧ knots'.length = order + cps'.length ∧
+    kget knots' (order - 1) = kget knots (order - 1) ∧ kget knots' cps'.length = kget knots cps.length ∧
+    evalPoint knots' [] cps' order u = evalPoint knots [] cps order u := by
+  obtain ⟨k, qs, hfs, hpk, hq, rfl, rfl⟩ := insertKnot_ok knots cps order t cps' knots' h
+  obtain ⟨hkc, hkt, htk, hk⟩ := findSpan_result knots order cps.length t k hsort ho hoc hl (lt_of_le_of_lt hlo hhi) ht hfs hpk
+  obtain ⟨hQl, hQv⟩ := Lemmas.Curve.insert_cps_getD knots cps (order - 1) t k qs hkc hpk hq
+  have hKl := Lemmas.Curve.length_insert knots k t (by omega)
+  have hKg := Lemmas.Curve.kget_insert knots k t (by omega)
+  -- monotone knot function
+  have hmono : ∀ a b, a ≤ b → b ≤ order - 1 + cps.length → kget knots a ≤ kget knots b :=
+    fun a b hab hb => nd_mono knots hsort a b hab (by omega)
+  have hm' := Lemmas.Curve.insK_mono (kget knots) k t (order - 1 + cps.length) hmono (by omega) hkt htk
+  have hsort' : nondecreasing (knots.take (k + 1) ++ t :: knots.drop (k + 1)) = true := by
+    apply Lemmas.Curve.nd_of_step
+    intro i hi
+    rw [hKg, hKg]
+    exact hm' i (i + 1) (by omega) (by omega)
+  have hdlo : kget (knots.take (k + 1) ++ t :: knots.drop (k + 1)) (order - 1) = kget knots (order - 1) := by
+    rw [hKg, Lemmas.Curve.insK_le _ _ _ hpk]
+  have hdhi : kget (knots.take (k + 1) ++ t :: knots.drop (k + 1))
+      (cps.take (k + 1 - (order - 1)) ++ qs ++ cps.drop k).length = kget knots cps.length := by
+    rw [hKg, hQl, Lemmas.Curve.insK_gt _ _ _ (by omega : k + 2 ≤ cps.length + 1)]
+    rfl
+  refine ⟨hsort', hQl, by omega, hdlo, hdhi, ?_⟩
+  -- the new spline at u
+  have hK' : kget (knots.take (k + 1) ++ t :: knots.drop (k + 1)) = Lemmas.Curve.insK (kget knots) k t := funext hKg
+  generalize cps.take (k + 1 - (order - 1)) ++ qs ++ cps.drop k = Q at *
+  generalize knots.take (k + 1) ++ t :: knots.drop (k + 1) = K' at *
+  obtain ⟨s', hfs', hs1, hs2, hs3, hs4⟩ := findSpan_spec_interior K' order Q.length u hsort' ho (by omega) (by omega)
+    (by rw [hdlo]; exact hlo) (by rw [hdhi]; exact hhi)
+  rw [evalPoint_of_span K' Q order u s' hfs' hsort' ho hs1 hs2 (by omega) (lt_of_le_of_lt hs3 hs4)]
+  rw [evalPoint_eq_curveRef knots cps order u hsort ho hoc hl hlo hhi, curveRef]
+  -- the old span that contains the new one
+  simp only [hKg] at hs3 hs4
+  have hspan : kget knots (if s' ≤ k then s' else s' - 1) ≤ u ∧ u < kget knots ((if s' ≤ k then s' else s' - 1) + 1) := by
+    by_cases c1 : s' ≤ k
+    · rw [if_pos c1]
+      rw [Lemmas.Curve.insK_le _ _ _ c1] at hs3
+      refine ⟨hs3, ?_⟩
+      by_cases c2 : s' + 1 ≤ k
+      · rw [Lemmas.Curve.insK_le _ _ _ c2] at hs4; exact hs4
+      · have : s' = k := by omega
+        subst this
+        rw [Lemmas.Curve.insK_eq] at hs4
+        exact lt_of_lt_of_le hs4 htk
+    · rw [if_neg c1]
+      by_cases c2 : s' = k + 1
+      · subst c2
+        rw [Lemmas.Curve.insK_eq] at hs3
+        rw [Lemmas.Curve.insK_gt _ _ _ (by omega : k + 2 ≤ k + 1 + 1)] at hs4
+        exact ⟨le_trans hkt hs3, hs4⟩
+      · rw [Lemmas.Curve.insK_gt _ _ _ (by omega : k + 2 ≤ s')] at hs3
+        rw [Lemmas.Curve.insK_gt _ _ _ (by omega : k + 2 ≤ s' + 1)] at hs4
+        have e : s' - 1 + 1 = s' + 1 - 1 := by omega
+        rw [e]; exact ⟨hs3, hs4⟩
+  have hv : coxDeBoor knots u (order - 1) = spanPiece knots u (if s' ≤ k then s' else s' - 1) (order - 1) :=
+    funext (fun i => coxDeBoor_eq_spanPiece knots u _ hsort (by split <;> omega) hspan.1 hspan.2 _ i)
+  rw [hv]
+  congr 1
+  refine Lemmas.Curve.curveSum_insert _ _ (fun j => Lemmas.Curve.alpha (kget knots) k t j (order - 1)) cps _ cps.length rfl hQl
+    ?_ (Lemmas.Curve.alpha_one _ _ _ (by omega)) (Lemmas.Curve.alpha_zero _ _ _ hkc) hQv
+  intro i hi
+  rw [Lemmas.Curve.spanPiece_eq_cdbF, Lemmas.Curve.spanPiece_eq_cdbF, Lemmas.Curve.spanPiece_eq_cdbF, hK']
+  exact Lemmas.Curve.boehm_pieces (kget knots) k t u (order - 1 + cps.length) hmono hk (by omega) hkt htk s'
+    (lt_of_le_of_lt hs3 hs4) (order - 1) i (by omega)
+
+/-- … and AT (and beyond) the end of the domain: `point(u)` for `u >= U[count]` — the continuation of the last non-empty
+    piece, i.e. the end point of the curve for `u = U[count]` — is unchanged as well, so `insert_knot` preserves the curve
+    on the CLOSED domain -/
+theorem insert_knot_preserves_domain_end (knots : List Rat) (cps : List V3) (order : Nat) (t u : Rat)
+    (cps' : List V3) (knots' : List Rat)
+    (hsort : nondecreasing knots = true) (ho : 1 ≤ order) (hoc : order ≤ cps.length)
+    (hl : knots.length = order + cps.length)
+    (hdom : kget knots (order - 1) < kget knots cps.length)
+    (ht : t ≤ kget knots cps.length)
+    (h : insertKnot knots cps order t = .ok (cps', knots'))
+    (hu : kget knots cps.length ≤ u) :
+    evalPoint knots' [] cps' order u = evalPoint knots [] cps order u := by
+  obtain ⟨k, qs, hfs, hpk, hq, rfl, rfl⟩ := insertKnot_ok knots cps order t cps' knots' h
+  obtain ⟨hkc, hkt, htk, hk⟩ := findSpan_result knots order cps.length t k hsort ho hoc hl hdom ht hfs hpk
+  obtain ⟨hQl, hQv⟩ := Lemmas.Curve.insert_cps_getD knots cps (order - 1) t k qs hkc hpk hq
+  have hKl := Lemmas.Curve.length_insert knots k t (by omega)
+  have hKg := Lemmas.Curve.kget_insert knots k t (by omega)
+  have hmono : ∀ a b, a ≤ b → b ≤ order - 1 + cps.length → kget knots a ≤ kget knots b :=
+    fun a b hab hb => nd_mono knots hsort a b hab (by omega)
+  have hm' := Lemmas.Curve.insK_mono (kget knots) k t (order - 1 + cps.length) hmono (by omega) hkt htk
+  have hsort' : nondecreasing (knots.take (k + 1) ++ t :: knots.drop (k + 1)) = true := by
+    apply Lemmas.Curve.nd_of_step
+    intro i hi
+    rw [hKg, hKg]
+    exact hm' i (i + 1) (by omega) (by omega)
+  have hdlo : kget (knots.take (k + 1) ++ t :: knots.drop (k + 1)) (order - 1) = kget knots (order - 1) := by
+    rw [hKg, Lemmas.Curve.insK_le _ _ _ hpk]
+  have hdhi : kget (knots.take (k + 1) ++ t :: knots.drop (k + 1))
+      (cps.take (k + 1 - (order - 1)) ++ qs ++ cps.drop k).length = kget knots cps.length := by
+    rw [hKg, hQl, Lemmas.Curve.insK_gt _ _ _ (by omega : k + 2 ≤ cps.length + 1)]
+    rfl
+  have hK' : kget (knots.take (k + 1) ++ t :: knots.drop (k + 1)) = Lemmas.Curve.insK (kget knots) k t := funext hKg
+  generalize cps.take (k + 1 - (order - 1)) ++ qs ++ cps.drop k = Q at *
+  generalize knots.take (k + 1) ++ t :: knots.drop (k + 1) = K' at *
+  obtain ⟨s', n1, n2, n3, n4, n5⟩ := evalPoint_domain_end K' Q order u hsort' ho (by omega) (by omega)
+    (by rw [hdlo, hdhi]; exact hdom) (by rw [hdhi]; exact hu)
+  obtain ⟨s0, o1, o2, o3, o4, o5⟩ := evalPoint_domain_end knots cps order u hsort ho hoc hl hdom hu
+  rw [n5, o5]
+  rw [hdhi] at n4
+  simp only [hKg] at n3 n4
+  -- the old span under the last non-empty new one is the last non-empty old one
+  have hspan : kget knots (if s' ≤ k then s' else s' - 1) < kget knots ((if s' ≤ k then s' else s' - 1) + 1) ∧
+      kget knots ((if s' ≤ k then s' else s' - 1) + 1) = kget knots cps.length := by
+    have hk1n : kget knots (k + 1) ≤ kget knots cps.length := nd_mono knots hsort _ _ (by omega) (by omega)
+    by_cases c1 : s' ≤ k
+    · rw [if_pos c1]
+      by_cases c2 : s' + 1 ≤ k
+      · exfalso
+        rw [Lemmas.Curve.insK_le _ _ _ c2] at n4
+        have := nd_mono knots hsort (s' + 1) k c2 (by omega)
+        linarith
+      · have : s' = k := by omega
+        subst this
+        rw [Lemmas.Curve.insK_eq] at n4
+        exact ⟨hk, le_antisymm hk1n (by rw [← n4]; exact htk)⟩
+    · rw [if_neg c1]
+      by_cases c2 : s' = k + 1
+      · subst c2
+        rw [Lemmas.Curve.insK_gt _ _ _ (by omega : k + 2 ≤ k + 1 + 1)] at n4
+        exact ⟨hk, n4⟩
+      · rw [Lemmas.Curve.insK_gt _ _ _ (by omega : k + 2 ≤ s')] at n3
+        rw [Lemmas.Curve.insK_gt _ _ _ (by omega : k + 2 ≤ s' + 1)] at n3 n4
+        have e : s' - 1 + 1 = s' + 1 - 1 := by omega
+        rw [e]; exact ⟨n3, n4⟩
+  have hss : (if s' ≤ k then s' else s' - 1) = s0 := by
+    generalize (if s' ≤ k then s' else s' - 1) = sx at hspan
+    rcases Nat.lt_trichotomy sx s0 with hlt | heq | hgt
+    · exfalso
+      have := nd_mono knots hsort (sx + 1) s0 (by omega) (by omega)
+      linarith [hspan.1, hspan.2, o3, o4]
+    · exact heq
+    · exfalso
+      have hsxl : sx + 1 < knots.length := by
+        by_contra hc
+        have h0 : kget knots (sx + 1) = 0 := by simp [kget, List.getElem?_eq_none (not_lt.mp hc)]
+        by_cases c : sx < knots.length
+        · have a1 := nd_mono knots hsort cps.length sx (by omega) c
+          rw [h0] at hspan
+          linarith [hspan.1, hspan.2]
+        · have h1 : kget knots sx = 0 := by simp [kget, List.getElem?_eq_none (not_lt.mp c)]
+          rw [h0, h1] at hspan; exact lt_irrefl _ hspan.1
+      have := nd_mono knots hsort (s0 + 1) sx (by omega) (by omega)
+      linarith [hspan.1, hspan.2, o3, o4]
+  rw [← hss]
+  congr 1
+  refine Lemmas.Curve.curveSum_insert _ _ (fun j => Lemmas.Curve.alpha (kget knots) k t j (order - 1)) cps _ cps.length rfl hQl
+    ?_ (Lemmas.Curve.alpha_one _ _ _ (by omega)) (Lemmas.Curve.alpha_zero _ _ _ hkc) hQv
+  intro i hi
+  rw [Lemmas.Curve.spanPiece_eq_cdbF, Lemmas.Curve.spanPiece_eq_cdbF, Lemmas.Curve.spanPiece_eq_cdbF, hK']
+  exact Lemmas.Curve.boehm_pieces (kget knots) k t u (order - 1 + cps.length) hmono hk (by omega) hkt htk s'
+    n3 (order - 1) i (by omega)
+
+/-- **knot refinement** = iterated insertion (`BSpline.knot_refinement`): whenever it returns for new knots below
+    the end of the domain, the result is a well-formed spline over the same domain with `len(ts)` more control points
+    and `Evaluator.point` is unchanged on `[U[p], U[count])`; any number of new knots, repeated ones included -/
+theorem knot_refinement_preserves (order : Nat) (u : Rat) (ho : 1 ≤ order) :
+    ∀ (ts : List Rat) (knots : List Rat) (cps : List V3) (cps' : List V3) (knots' : List Rat),
+      nondecreasing knots = true → order ≤ cps.length → knots.length = order + cps.length →
+      (∀ t ∈ ts, t ≤ kget knots cps.length) →
+      knotRefinement knots cps order ts = .ok (cps', knots') →
+      kget knots (order - 1) ≤ u → u < kget knots cps.length →
+      nondecreasing knots' = true ∧ cps'.length = cps.length + ts.length ∧ knots'.length = order + cps'.length ∧
+      kget knots' (order - 1) = kget knots (order - 1) ∧ kget knots' cps'.length = kget knots cps.length ∧
+      evalPoint knots' [] cps' order u = evalPoint knots [] cps order u
+  | [], knots, cps, cps', knots', hsort, _, hl, _, h, _, _ => by
+    simp only [knotRefinement, Except.ok.injEq, Prod.mk.injEq] at h
+    obtain ⟨rfl, rfl⟩ := h
+    exact ⟨hsort, rfl, hl, rfl, rfl, rfl⟩
+  | t :: ts, knots, cps, cps', knots', hsort, hoc, hl, hts, h, hlo, hhi => by
+    simp only [knotRefinement] at h
+    split at h
+    · rename_i c1 k1 h1
+      obtain ⟨a1, a2, a3, a4, a5, a6⟩ := insert_knot_preserves knots cps order t u c1 k1 hsort ho hoc hl
+        (hts t (by simp)) h1 hlo hhi
+      obtain ⟨b1, b2, b3, b4, b5, b6⟩ := knot_refinement_preserves order u ho ts k1 c1 cps' knots' a1 (by omega) a3
+        (fun t' ht' => by rw [a5]; exact hts t' (by simp [ht'])) h (by rw [a4]; exact hlo) (by rw [a5]; exact hhi)
+      exact ⟨b1, by rw [b2, a2]; simp; omega, b3, by rw [b4, a4], by rw [b5, a5], by rw [b6, a6]⟩
+    · exact absurd h (by simp)
+
+/-- … and on the closed domain: `point(u)` for `u >= U[count]` (the end point of the curve) survives any knot refinement -/
+theorem knot_refinement_preserves_domain_end (order : Nat) (u : Rat) (ho : 1 ≤ order) :
+    ∀ (ts : List Rat) (knots : List Rat) (cps : List V3) (cps' : List V3) (knots' : List Rat),
+      nondecreasing knots = true → order ≤ cps.length → knots.length = order + cps.length →
+      kget knots (order - 1) < kget knots cps.length →
+      (∀ t ∈ ts, t ≤ kget knots cps.length) →
+      knotRefinement knots cps order ts = .ok (cps', knots') →
+      kget knots cps.length ≤ u →
+      evalPoint knots' [] cps' order u = evalPoint knots [] cps order u
+  | [], knots, cps, cps', knots', _, _, _, _, _, h, _ => by
+    simp only [knotRefinement, Except.ok.injEq, Prod.mk.injEq] at h
+    obtain ⟨rfl, rfl⟩ := h
+    rfl
+  | t :: ts, knots, cps, cps', knots', hsort, hoc, hl, hdom, hts, h, hu => by
+    simp only [knotRefinement] at h
+    split at h
+    · rename_i c1 k1 h1
+      obtain ⟨a1, a2, a3, a4, a5, _⟩ := insert_knot_preserves knots cps order t (kget knots (order - 1)) c1 k1 hsort ho hoc hl
+        (hts t (by simp)) h1 (le_refl _) hdom
+      have e1 := insert_knot_preserves_domain_end knots cps order t u c1 k1 hsort ho hoc hl hdom (hts t (by simp)) h1 hu
+      rw [← e1]
+      exact knot_refinement_preserves_domain_end order u ho ts k1 c1 cps' knots' a1 (by omega) a3 (by rw [a4, a5]; exact hdom)
+        (fun t' ht' => by rw [a5]; exact hts t' (by simp [ht'])) h (by rw [a5]; exact hu)
+    · exact absurd h (by simp)
+
+/-- **NURBS**: the rational evaluation is the weighted quotient `Σ N_i w_i P_i / Σ N_i w_i` over the span's `order`
+    control points (`s == 0.0` → the null vector, the quirk of `span_weighting`), … -/
+theorem rational_point_quotient (knots weights : List Rat) (cps : List V3) (order : Nat) (u : Rat) (span : Nat)
+    (N : List Rat) (hw : weights ≠ [])
+    (hfs : findSpan knots order cps.length u = (span : Int)) (hN : basisFuncs knots order span u = some N) :
+    let ws := (weights.drop (span + 1 - order)).take order
+    let prod := List.zipWith (· * ·) N ws
+    evalPoint knots weights cps order u =
+      some (if prod.sum = 0 then V3.zero
+            else (combine prod (cps.drop (span + 1 - order))).scale (1 / prod.sum)) := by
+  intro ws prod
+  have hne : weights.isEmpty = false := by cases weights <;> simp_all
+  simp only [evalPoint, hfs]
+  show (basisFuncsW knots weights order span u).map _ = _
+  simp only [basisFuncsW, hN, Option.map_some, hne, Bool.false_eq_true, if_false, Option.some.injEq]
+  by_cases hs : prod.sum = 0
+  · rw [if_pos hs]
+    simp only [spanWeighting]
+    rw [if_pos hs]
+    generalize cps.drop (span + 1 - order) = pts
+    clear hN hs
+    induction N generalizing pts with
+    | nil => simp [combine]
+    | cons n ns ih =>
+      cases pts with
+      | nil => simp [combine]
+      | cons q qs =>
+        simp only [List.map_cons, combine, ih qs]
+        apply v3ext <;> simp [V3.add, V3.scale, V3.zero]
+  · rw [if_neg hs]
+    exact (span_weighting_rational weights order span N _ hs).2
+
+private theorem zipWith_scale (c : Rat) : ∀ (N ws : List Rat),
+    List.zipWith (· * ·) N (ws.map (c * ·)) = (List.zipWith (· * ·) N ws).map (c * ·)
+  | [], _ => by simp
+  | _ :: _, [] => by simp
+  | n :: ns, w :: ws => by
+    simp only [List.map_cons, List.zipWith_cons_cons, zipWith_scale c ns ws]
+    congr 1; ring
+
+private theorem sum_map_mul (c : Rat) : ∀ (l : List Rat), (l.map (c * ·)).sum = c * l.sum
+  | [] => by simp
+  | a :: l => by simp only [List.map_cons, List.sum_cons, sum_map_mul c l]; ring
+
+/-- … and it does not change when ALL weights are multiplied by a common factor `c ≠ 0` (homogeneous coordinates):
+    `span_weighting`, hence `basis_funcs` and `Evaluator.point`, return exactly the same values -/
+theorem rational_weight_scaling (knots weights : List Rat) (cps : List V3) (order : Nat) (u c : Rat) (hc : c ≠ 0) :
+    (∀ (span : Nat) (N : List Rat),
+      spanWeighting (weights.map (c * ·)) order span N = spanWeighting weights order span N) ∧
+    evalPoint knots (weights.map (c * ·)) cps order u = evalPoint knots weights cps order u := by
+  have key : ∀ (span : Nat) (N : List Rat),
+      spanWeighting (weights.map (c * ·)) order span N = spanWeighting weights order span N := by
+    intro span N
+    simp only [spanWeighting]
+    rw [← List.map_drop, ← List.map_take, zipWith_scale, sum_map_mul]
+    by_cases hs : (List.zipWith (· * ·) N ((weights.drop (span + 1 - order)).take order)).sum = 0
+    · rw [hs, mul_zero, if_pos rfl, if_pos rfl]
+    · rw [if_neg (mul_ne_zero hc hs), if_neg hs, List.map_map]
+      apply List.map_congr_left
+      intro x _
+      simp only [Function.comp]
+      field_simp
+  refine ⟨key, ?_⟩
+  simp only [evalPoint]
+  split
+  · simp only [basisFuncsW, List.isEmpty_map, key]
+  · rfl
+
+/-! ## 6c. `BSpline.reverse` -/
+
+/-- **reversal, full generality** (non rational): for EVERY `u` of the closed domain the reversed spline, evaluated at
+    the mirrored parameter `1 - (u - k_0)/(k_last - k_0)`, returns the value of a polynomial piece of the ORIGINAL curve
+    that belongs to a non-empty span whose closure contains `u` (every degree, every nondecreasing knot vector with a
+    non-degenerate domain, clamped or not).  At an interior knot this is the piece LEFT of `u`, where `point(u)` of the
+    original takes the piece right of it: equal iff the curve is continuous there (not proved here) -/
+theorem bspline_reverse_pieces (knots : List Rat) (cps : List V3) (order : Nat) (u : Rat)
+    (hsort : nondecreasing knots = true) (ho : 1 ≤ order) (hoc : order ≤ cps.length)
+    (hl : knots.length = order + cps.length)
+    (hdom : kget knots (order - 1) < kget knots cps.length)
+    (hlo : kget knots (order - 1) ≤ u) (hhi : u ≤ kget knots cps.length) :
+    nondecreasing (reverseSpline knots [] cps).1 = true ∧
+    ∃ s : Nat, order - 1 ≤ s ∧ s < cps.length ∧ kget knots s < kget knots (s + 1) ∧
+      kget knots s ≤ u ∧ u ≤ kget knots (s + 1) ∧
+      evalPoint (reverseSpline knots [] cps).1 [] (reverseSpline knots [] cps).2.2 order (reverseParam knots u)
+        = some (curveSum (spanPiece knots u s (order - 1)) 0 cps) := by
+  simp only [reverseSpline, reverseParam]
+  have hK0 : kget knots 0 ≤ kget knots (order - 1) := nd_mono knots hsort _ _ (by omega) (by omega)
+  have hKm : kget knots cps.length ≤ kget knots (knots.length - 1) := nd_mono knots hsort _ _ (by omega) (by omega)
+  rw [Lemmas.Curve.getLastD_eq_kget]
+  have hmx : 0 < kget knots (knots.length - 1) - kget knots 0 := by linarith
+  generalize hmxd : kget knots (knots.length - 1) - kget knots 0 = mx at hmx
+  have hmx0 : mx ≠ 0 := ne_of_gt hmx
+  -- φ x = a - b x
+  have hφ : ∀ x : Rat, 1 - (x - kget knots 0) / mx = (1 + kget knots 0 / mx) - (1 / mx) * x := by
+    intro x; field_simp; ring
+  have hb : (0 : Rat) < 1 / mx := one_div_pos.mpr hmx
+  have hanti : ∀ x y : Rat, x ≤ y → 1 - (y - kget knots 0) / mx ≤ 1 - (x - kget knots 0) / mx := by
+    intro x y hxy
+    rw [hφ, hφ]
+    have := mul_le_mul_of_nonneg_left hxy (le_of_lt hb)
+    linarith
+  have hstrict : ∀ x y : Rat, 1 - (y - kget knots 0) / mx < 1 - (x - kget knots 0) / mx → x < y := by
+    intro x y h
+    by_contra hc
+    have := hanti y x (not_lt.mp hc)
+    linarith
+  have hKr : ∀ j, j < knots.length → kget (reverseKnots knots) j
+      = 1 - (kget knots (knots.length - 1 - j) - kget knots 0) / mx := by
+    intro j hj
+    rw [Lemmas.Curve.kget_reverseKnots knots j hj, Lemmas.Curve.getLastD_eq_kget, hmxd]
+  have hlenr : (reverseKnots knots).length = knots.length := by simp [reverseKnots, normalizeKnots]
+  have hsort' : nondecreasing (reverseKnots knots) = true := by
+    apply Lemmas.Curve.nd_of_step
+    intro i hi
+    rw [hlenr] at hi
+    rw [hKr i (by omega), hKr (i + 1) hi]
+    exact hanti _ _ (nd_mono knots hsort _ _ (by omega) (by omega))
+  refine ⟨hsort', ?_⟩
+  have e1 : knots.length - 1 - (order - 1) = cps.length := by omega
+  have e2 : knots.length - 1 - cps.length = order - 1 := by omega
+  obtain ⟨σ, hfs, hs1, hs2, hs3, hs4, hs5⟩ := findSpan_spec (reverseKnots knots) order cps.length
+    (1 - (u - kget knots 0) / mx) hsort' ho hoc (by omega)
+    (by rw [hKr _ (by omega), hKr _ (by omega), e1, e2]
+        by_contra hc
+        have := hanti _ _ (le_of_lt hdom)
+        have h2 := hanti _ _ (le_of_lt hdom)
+        exact hc (lt_of_le_of_ne h2 (fun heq => by
+          have := hstrict (kget knots (order - 1)) (kget knots cps.length)
+          have hlt : kget knots (order - 1) < kget knots cps.length := hdom
+          rw [hφ, hφ] at heq
+          have : (1 / mx) * kget knots cps.length = (1 / mx) * kget knots (order - 1) := by linarith
+          have := mul_left_cancel₀ (ne_of_gt hb) this
+          linarith)))
+    (by rw [hKr _ (by omega), e1]; exact hanti _ _ hhi)
+    (by rw [hKr _ (by omega), e2]; exact hanti _ _ hlo)
+  rw [hKr σ (by omega), hKr (σ + 1) (by omega)] at hs3
+  rw [hKr σ (by omega)] at hs4
+  rw [hKr (σ + 1) (by omega)] at hs5
+  have e3 : knots.length - 1 - σ = (knots.length - 1 - 1 - σ) + 1 := by omega
+  have e4 : knots.length - 1 - (σ + 1) = knots.length - 1 - 1 - σ := by omega
+  rw [e3, e4] at hs3
+  rw [e3] at hs4
+  rw [e4] at hs5
+  have hne := hstrict _ _ hs3
+  have hu1 : kget knots (knots.length - 1 - 1 - σ) ≤ u := by
+    by_contra hc
+    have := hstrict _ _ (lt_of_le_of_ne hs5 (fun heq => hc (by
+      rw [hφ, hφ] at heq
+      have : (1 / mx) * u = (1 / mx) * kget knots (knots.length - 1 - 1 - σ) := by linarith
+      exact le_of_eq (mul_left_cancel₀ (ne_of_gt hb) this).symm)))
+    linarith
+  have hu2 : u ≤ kget knots (knots.length - 1 - 1 - σ + 1) := by
+    by_contra hc
+    have := hanti _ _ (le_of_lt (not_le.mp hc))
+    have h3 : 1 - (u - kget knots 0) / mx = 1 - (kget knots (knots.length - 1 - 1 - σ + 1) - kget knots 0) / mx :=
+      le_antisymm this hs4
+    rw [hφ, hφ] at h3
+    have : (1 / mx) * u = (1 / mx) * kget knots (knots.length - 1 - 1 - σ + 1) := by linarith
+    have := mul_left_cancel₀ (ne_of_gt hb) this
+    exact hc (le_of_eq this)
+  refine ⟨knots.length - 1 - 1 - σ, by omega, by omega, hne, hu1, hu2, ?_⟩
+  rw [evalPoint_of_span (reverseKnots knots) cps.reverse order _ σ (by simpa using hfs) hsort' ho hs1 (by simpa using hs2)
+    (by simp; omega) (by
+      rw [hKr σ (by omega), hKr (σ + 1) (by omega), e3, e4]; exact hs3)]
+  congr 1
+  apply Lemmas.Curve.curveSum_reverse
+  intro i hi
+  rw [Lemmas.Curve.spanPiece_eq_cdbF, Lemmas.Curve.spanPiece_eq_cdbF,
+    Lemmas.Curve.cdbF_reverse (kget knots) (knots.length - 1) _ (1 + kget knots 0 / mx) (1 / mx) u (ne_of_gt hb) (by omega)
+      (order - 1) i (by omega), ← hφ]
+  have e5 : knots.length - 1 - 1 - (knots.length - 1 - 1 - σ) = σ := by omega
+  have e6 : knots.length - 1 - (order - 1) - 1 - i = cps.length - 1 - i := by omega
+  rw [e5, e6]
+  apply Lemmas.Curve.cdbF_congr
+  intro j _ hj2
+  rw [hKr j (by omega), hφ]
+
+/-- **reversal** where it needs no continuity argument: `u` anywhere in the closed domain (both ends included) but not ON
+    an interior knot: the reversed spline at the mirrored parameter = the original at `u`.
+    Full statement (no hypothesis `hnk`, interior knots of multiplicity ≤ degree): needs the continuity of the
+    Cox - de Boor pieces across such a knot; `bspline_reverse_pieces` states what holds for every `u`. -/
+theorem bspline_reverse_partial (knots : List Rat) (cps : List V3) (order : Nat) (u : Rat)
+    (hsort : nondecreasing knots = true) (ho : 1 ≤ order) (hoc : order ≤ cps.length)
+    (hl : knots.length = order + cps.length)
+    (hdom : kget knots (order - 1) < kget knots cps.length)
+    (hlo : kget knots (order - 1) ≤ u) (hhi : u ≤ kget knots cps.length)
+    (hnk : ∀ j, order - 1 < j → j < cps.length → kget knots j ≠ u) :
+    evalPoint (reverseSpline knots [] cps).1 [] (reverseSpline knots [] cps).2.2 order (reverseParam knots u)
+      = evalPoint knots [] cps order u := by
+  obtain ⟨_, s, h1, h2, h3, h4, h5, h6⟩ := bspline_reverse_pieces knots cps order u hsort ho hoc hl hdom hlo hhi
+  obtain ⟨s0, hfs, g1, g2, g3, g4, g5⟩ := findSpan_spec knots order cps.length u hsort ho hoc hl hdom hlo hhi
+  rw [h6, evalPoint_of_span knots cps order u s0 hfs hsort ho g1 g2 hl g3]
+  have hss : s = s0 := by
+    rcases Nat.lt_trichotomy s s0 with hlt | heq | hgt
+    · exfalso
+      have a1 := nd_mono knots hsort (s + 1) s0 (by omega) (by omega)
+      exact hnk (s + 1) (by omega) (by omega) (le_antisymm (le_trans a1 g4) h5)
+    · exact heq
+    · exfalso
+      have a1 := nd_mono knots hsort (s0 + 1) s (by omega) (by omega)
+      exact hnk (s0 + 1) (by omega) (by omega) (le_antisymm (le_trans a1 h4) g5)
+  rw [hss]
+
+private theorem multLeDegree_spec (knots : List Rat) (order : Nat) (h : multLeDegree knots order = true) :
+    ∀ j, 1 ≤ j → j + order ≤ knots.length - 1 → kget knots j < kget knots (j + (order - 1)) := by
+  intro j h1 h2
+  simp only [multLeDegree, List.all_eq_true, List.mem_range, Bool.or_eq_true, decide_eq_true_eq] at h
+  rcases h j (by omega) with (h | h) | h
+  · omega
+  · omega
+  · exact h
+
+private theorem pieces_agree (knots : List Rat) (u : Rat) (s s0 p : Nat) (hsort : nondecreasing knots = true)
+    (hss : s < s0) (hne : kget knots s < kget knots (s + 1)) (hne0 : kget knots s0 < kget knots (s0 + 1))
+    (h1 : kget knots (s + 1) = u) (h2 : kget knots s0 = u) (hmu : s0 - s ≤ p) (hlen : s0 + 1 < knots.length) (i : Nat) :
+    spanPiece knots u s p i = spanPiece knots u s0 p i := by
+  rw [Lemmas.Curve.spanPiece_eq_cdbF, Lemmas.Curve.spanPiece_eq_cdbF]
+  have e : s0 = s + (s0 - s) := by omega
+  rw [e]
+  apply Lemmas.Curve.cdbF_continuous (kget knots) u s (s0 - s) p
+  · intro j hj1 hj2
+    have a1 := nd_mono knots hsort (s + 1) (s + j) (by omega) (by omega)
+    have a2 := nd_mono knots hsort (s + j) s0 (by omega) (by omega)
+    rw [h1] at a1; rw [h2] at a2
+    exact le_antisymm a2 a1
+  · rw [← h1]; exact ne_of_lt hne
+  · rw [← e, ← h2]; exact ne_of_gt hne0
+  · exact hmu
+
+/-- **continuity at knots**: at an interior knot `u = U[s+1]` whose multiplicity is at most the degree
+    (`multLeDegree`), `Evaluator.point(u)` (which evaluates the piece RIGHT of `u`) equals the continuation of the piece
+    LEFT of `u`: the curve has no jump; every degree, every nondecreasing knot vector -/
+theorem bspline_continuous_at_knot (knots : List Rat) (cps : List V3) (order : Nat) (s : Nat)
+    (hsort : nondecreasing knots = true) (ho : 1 ≤ order) (hoc : order ≤ cps.length)
+    (hl : knots.length = order + cps.length) (hmult : multLeDegree knots order = true)
+    (hs1 : order - 1 ≤ s) (hne : kget knots s < kget knots (s + 1))
+    (hin : kget knots (s + 1) < kget knots cps.length) :
+    evalPoint knots [] cps order (kget knots (s + 1))
+      = some (curveSum (spanPiece knots (kget knots (s + 1)) s (order - 1)) 0 cps) := by
+  have hm := multLeDegree_spec knots order hmult
+  have hlo : kget knots (order - 1) ≤ kget knots (s + 1) := by
+    have hsn : s + 1 < knots.length := by
+      by_contra hc
+      have h0 : kget knots (s + 1) = 0 := by simp [kget, List.getElem?_eq_none (not_lt.mp hc)]
+      have h1 : kget knots s = 0 ∨ s < knots.length := by
+        by_cases c : s < knots.length
+        · exact Or.inr c
+        · exact Or.inl (by simp [kget, List.getElem?_eq_none (not_lt.mp c)])
+      rcases h1 with h1 | h1
+      · rw [h0, h1] at hne; exact lt_irrefl _ hne
+      · have a1 := nd_mono knots hsort 0 s (by omega) h1
+        have a2 := nd_mono knots hsort 0 cps.length (by omega) (by omega)
+        have a3 := nd_mono knots hsort cps.length s (by omega) h1
+        rw [h0] at hin hne
+        linarith
+    exact nd_mono knots hsort _ _ (by omega) hsn
+  obtain ⟨s0, hfs, g1, g2, g3, g4⟩ := findSpan_spec_interior knots order cps.length _ hsort ho hoc hl hlo hin
+  rw [evalPoint_of_span knots cps order _ s0 hfs hsort ho g1 g2 hl (lt_of_le_of_lt g3 g4)]
+  have hss : s < s0 ∨ s = s0 := by
+    by_contra hc
+    have : s0 + 1 ≤ s := by omega
+    have hsl : s < knots.length := by
+      by_contra hc2
+      have h0 : kget knots s = 0 := by simp [kget, List.getElem?_eq_none (not_lt.mp hc2)]
+      have h1 : kget knots (s + 1) = 0 := by simp [kget, List.getElem?_eq_none (by omega : knots.length ≤ s + 1)]
+      rw [h0, h1] at hne; exact lt_irrefl _ hne
+    have a1 := nd_mono knots hsort (s0 + 1) s this hsl
+    linarith
+  rcases hss with hss | hss
+  · have e0 : kget knots s0 = kget knots (s + 1) :=
+      le_antisymm g3 (nd_mono knots hsort (s + 1) s0 (by omega) (by omega))
+    have hmu : s0 - s ≤ order - 1 := by
+      by_contra hc
+      have a1 := hm (s + 1) (by omega) (by omega)
+      have a2 := nd_mono knots hsort (s + 1 + (order - 1)) s0 (by omega) (by omega)
+      linarith
+    congr 1
+    have : spanPiece knots (kget knots (s + 1)) s0 (order - 1) = spanPiece knots (kget knots (s + 1)) s (order - 1) :=
+      funext (fun i => (pieces_agree knots _ s s0 (order - 1) hsort hss hne (lt_of_le_of_lt g3 g4) rfl e0 hmu (by omega) i).symm)
+    rw [this]
+  · rw [hss]
+
+/-- **reversal**: for EVERY `u` of the closed domain, interior knots included, when interior knots have multiplicity
+    at most the degree (`multLeDegree`, the class of the property; necessary: at a knot of multiplicity `degree + 1` the
+    curve jumps, `point` takes the right limit and the reversed spline the left one, `#guard` below):
+    `reverse().point(1 - (u - k_0)/(k_last - k_0)) = point(u)` — every degree, clamped or not -/
+theorem bspline_reverse (knots : List Rat) (cps : List V3) (order : Nat) (u : Rat)
+    (hsort : nondecreasing knots = true) (ho : 1 ≤ order) (hoc : order ≤ cps.length)
+    (hl : knots.length = order + cps.length) (hmult : multLeDegree knots order = true)
+    (hdom : kget knots (order - 1) < kget knots cps.length)
+    (hlo : kget knots (order - 1) ≤ u) (hhi : u ≤ kget knots cps.length) :
+    evalPoint (reverseSpline knots [] cps).1 [] (reverseSpline knots [] cps).2.2 order (reverseParam knots u)
+      = evalPoint knots [] cps order u := by
+  have hm := multLeDegree_spec knots order hmult
+  obtain ⟨_, s, h1, h2, h3, h4, h5, h6⟩ := bspline_reverse_pieces knots cps order u hsort ho hoc hl hdom hlo hhi
+  obtain ⟨s0, hfs, g1, g2, g3, g4, g5⟩ := findSpan_spec knots order cps.length u hsort ho hoc hl hdom hlo hhi
+  rw [h6, evalPoint_of_span knots cps order u s0 hfs hsort ho g1 g2 hl g3]
+  congr 1
+  rcases Nat.lt_trichotomy s s0 with hlt | heq | hgt
+  · have a1 := nd_mono knots hsort (s + 1) s0 (by omega) (by omega)
+    have e1 : kget knots (s + 1) = u := le_antisymm (le_trans a1 g4) h5
+    have e0 : kget knots s0 = u := le_antisymm g4 (by rw [← e1]; exact a1)
+    have hmu : s0 - s ≤ order - 1 := by
+      by_contra hc
+      have b1 := hm (s + 1) (by omega) (by omega)
+      have b2 := nd_mono knots hsort (s + 1 + (order - 1)) s0 (by omega) (by omega)
+      linarith
+    exact congrArg (fun f => curveSum f 0 cps)
+      (funext (fun i => pieces_agree knots u s s0 (order - 1) hsort hlt h3 g3 e1 e0 hmu (by omega) i))
+  · rw [heq]
+  · have a1 := nd_mono knots hsort (s0 + 1) s (by omega) (by omega)
+    have e1 : kget knots (s0 + 1) = u := le_antisymm (le_trans a1 h4) g5
+    have e0 : kget knots s = u := le_antisymm h4 (by rw [← e1]; exact a1)
+    have hmu : s - s0 ≤ order - 1 := by
+      by_contra hc
+      have b1 := hm (s0 + 1) (by omega) (by omega)
+      have b2 := nd_mono knots hsort (s0 + 1 + (order - 1)) s (by omega) (by omega)
+      linarith
+    exact congrArg (fun f => curveSum f 0 cps)
+      (funext (fun i => (pieces_agree knots u s0 s (order - 1) hsort hgt g3 h3 e1 e0 hmu (by omega) i).symm))
+
+/-! ## 6d. derivatives: `Basis.basis_funcs_derivatives` (A2.3) and `Evaluator.derivative` (A3.2), first derivative -/
+
+private theorem stagesAll_piece (U : List Rat) (u : Rat) (s : Nat) (hsort : nondecreasing U = true)
+    (hne : kget U s < kget U (s + 1)) :
+    ∀ (n q : Nat), q + n ≤ s → s + q + n + 1 ≤ U.length →
+      basisStagesAll (leftAt U s u) (rightAt U s u) (q + 1) n (pieceList U u s q)
+        = some ((List.range' q (n + 1)).map (fun j => pieceList U u s j))
+  | 0, q, _, _ => by simp [basisStagesAll]
+  | n + 1, q, h1, h2 => by
+    simp only [basisStagesAll]
+    rw [stage_piece U u s q hsort (by omega) (by omega) hne]
+    simp only [Option.bind_some]
+    rw [stagesAll_piece U u s hsort hne n (q + 1) (by omega) (by omega)]
+    simp only [Option.map_some, Option.some.injEq]
+    rw [show List.range' q (n + 1 + 1) = q :: List.range' (q + 1) (n + 1) from List.range'_succ, List.map_cons]
+
+private theorem pieceList_getD (U : List Rat) (u : Rat) (s q r : Nat) (hr : r ≤ q) :
+    (pieceList U u s q).getD r 0 = spanPiece U u s q (s - q + r) := by
+  simp only [pieceList, List.getD_eq_getElem?_getD, List.getElem?_map]
+  rw [List.getElem?_range' (by omega)]
+  simp
+
+/-- what the `k = 1` pass of A2.3 computes for function index `r` (before the scaling by `p`) -/
+private def dFirst (ndu : Nat → Nat → Rat) (p r : Nat) : Rat :=
+  (if 1 ≤ r then 1 / ndu p (r - 1) * ndu (r - 1) (p - 1) else 0)
+  + (if r ≤ p - 1 then -1 / ndu p r * ndu r (p - 1) else 0)
+
+private theorem derStep_first (ndu : Nat → Nat → Rat) (p r : Nat) (as1 as2 : Nat → Rat) (hp : 1 ≤ p) (hr : r ≤ p)
+    (h1 : as1 0 = 1) : (derStep ndu p r 1 as1 as2).1 = dFirst ndu p r := by
+  have e1 : p - 1 + 1 = p := by omega
+  have hj1 : (-1 : Int) ≤ (r : Int) - ((1 : Nat) : Int) := by omega
+  have hj2 : (r : Int) - 1 ≤ ((p - 1 : Nat) : Int) := by omega
+  simp only [derStep, dFirst, e1, h1, hj1, hj2, if_true, Nat.sub_self, Nat.zero_add, Nat.sub_self, List.range'_zero,
+    List.foldl_nil]
+  by_cases c1 : 1 ≤ r <;> by_cases c2 : r ≤ p - 1 <;> simp [c1, c2]
+
+private theorem derLoopR_first (ndu : Nat → Nat → Rat) (p : Nat) (hp : 1 ≤ p) :
+    ∀ (rs : List Nat) (row0 row1 : Nat → Rat), (∀ r ∈ rs, r ≤ p) →
+      derLoopR ndu p 1 rs row0 row1 = rs.map (fun r => [dFirst ndu p r])
+  | [], _, _, _ => rfl
+  | r :: rs, row0, row1, h => by
+    simp only [derLoopR, derLoopK, List.map_cons]
+    rw [derStep_first ndu p r _ _ hp (h r (by simp)) (by simp [setF])]
+    rw [derLoopR_first ndu p hp rs _ _ (fun r' hr' => h r' (by simp [hr']))]
+
+/-- **first derivative of the basis functions** (A2.3 as coded, both twins, `n = 1`): on a non-empty span of a
+    nondecreasing knot vector (degree ≥ 1, every `u`) the call returns — row 0: the `order` polynomial pieces of the
+    Cox - de Boor functions (what `basis_funcs` returns), row 1: the values of their DERIVATIVES, `cdbFD` =
+    `Polynomial.derivative` of the piece (`basis_derivative_is_polynomial_derivative`) -/
+theorem basis_derivative_first (knots : List Rat) (order s : Nat) (u : Rat)
+    (hsort : nondecreasing knots = true) (ho : 2 ≤ order) (hp : order - 1 ≤ s)
+    (hlen : s + order < knots.length) (hne : kget knots s < kget knots (s + 1)) :
+    basisFuncsDerivatives knots order s u 1 = some
+      [(List.range order).map (fun r => spanPiece knots u s (order - 1) (s - (order - 1) + r)),
+       (List.range order).map (fun r =>
+          Lemmas.Curve.cdbFD (kget knots) u (Lemmas.Curve.delta s) (order - 1) (s - (order - 1) + r))] := by
+  have h0 : pieceList knots u s 0 = [1] := by simp [pieceList, spanPiece, cdb]
+  have hall := stagesAll_piece knots u s hsort hne (order - 1) 0 (by omega) (by omega)
+  rw [h0] at hall
+  have hmin : min 1 (order - 1) = 1 := by omega
+  simp only [basisFuncsDerivatives, Nat.zero_add] at hall ⊢
+  rw [hall, hmin]
+  simp only [Option.map_some, Option.some.injEq]
+  -- the table
+  have htbl : ∀ col, col ≤ order - 1 →
+      ((List.range' 0 (order - 1 + 1)).map (fun j => pieceList knots u s j)).getD col [] = pieceList knots u s col := by
+    intro col hc
+    simp only [List.getD_eq_getElem?_getD, List.getElem?_map]
+    rw [List.getElem?_range' (by omega)]
+    simp
+  have hup : ∀ row col, row ≤ col → col ≤ order - 1 →
+      nduAt (leftAt knots s u) (rightAt knots s u) ((List.range' 0 (order - 1 + 1)).map (fun j => pieceList knots u s j)) row col
+        = spanPiece knots u s col (s - col + row) := by
+    intro row col h1 h2
+    simp only [nduAt, if_pos h1]
+    rw [htbl col h2, pieceList_getD knots u s col row h1]
+  have hlow : ∀ row col, col < row →
+      nduAt (leftAt knots s u) (rightAt knots s u) ((List.range' 0 (order - 1 + 1)).map (fun j => pieceList knots u s j)) row col
+        = kget knots (s + col + 1) - kget knots (s + 1 - (row - col)) := by
+    intro row col h1
+    simp only [nduAt, if_neg (not_le.mpr h1), rightAt, leftAt]
+    have : s + (col + 1) = s + col + 1 := by omega
+    rw [this]; ring
+  rw [derLoopR_first _ (order - 1) (by omega) (List.range order) _ _ (fun r hr => by
+    have := List.mem_range.mp hr; omega)]
+  simp only [List.range'_one, List.map_cons, List.map_nil, List.map_map]
+  congr 1
+  · apply List.map_congr_left
+    intro r hr
+    have hr' := List.mem_range.mp hr
+    rw [hup r (order - 1) (by omega) (le_refl _)]
+  · congr 1
+    apply List.map_congr_left
+    intro r hr
+    have hr' := List.mem_range.mp hr
+    simp only [Function.comp, List.getD_cons_zero, Nat.sub_self, derFactor]
+    -- the book's formula (2.7) at level (order - 2) + 1
+    have hmono : ∀ a b, a ≤ b → b ≤ knots.length - 1 → kget knots a ≤ kget knots b :=
+      fun a b hab hb => nd_mono knots hsort a b hab (by omega)
+    have hf := Lemmas.Curve.cdbFD_formula (kget knots) u (Lemmas.Curve.delta s) (knots.length - 1) hmono (order - 2)
+      (s - (order - 1) + r) (by omega)
+    have e1 : order - 2 + 1 = order - 1 := by omega
+    have e2 : s - (order - 1) + r + (order - 2) + 1 = s + r := by omega
+    have e3 : s - (order - 1) + r + (order - 2) + 2 = s + r + 1 := by omega
+    rw [e1, e2, e3] at hf
+    rw [hf]
+    simp only [dFirst]
+    have e4 : order - 1 - 1 = order - 2 := by omega
+    rw [e4]
+    have ecast : ((order - 2 : Nat) : Rat) + 1 = ((order - 1 : Nat) : Rat) := by
+      have : order - 1 = (order - 2) + 1 := by omega
+      rw [this]; push_cast; ring
+    rw [ecast]
+    -- first summand
+    have t1 : (if 1 ≤ r then 1 / nduAt (leftAt knots s u) (rightAt knots s u)
+          ((List.range' 0 (order - 1 + 1)).map (fun j => pieceList knots u s j)) (order - 1) (r - 1) *
+          nduAt (leftAt knots s u) (rightAt knots s u)
+          ((List.range' 0 (order - 1 + 1)).map (fun j => pieceList knots u s j)) (r - 1) (order - 2) else 0)
+        = Lemmas.Curve.cdbF (kget knots) u (Lemmas.Curve.delta s) (order - 2) (s - (order - 1) + r)
+            / (kget knots (s + r) - kget knots (s - (order - 1) + r)) := by
+      by_cases c : 1 ≤ r
+      · rw [if_pos c, hlow _ _ (by omega), hup _ _ (by omega) (by omega), Lemmas.Curve.spanPiece_eq_cdbF]
+        have a1 : s + (r - 1) + 1 = s + r := by omega
+        have a2 : s + 1 - (order - 1 - (r - 1)) = s - (order - 1) + r := by omega
+        have a3 : s - (order - 2) + (r - 1) = s - (order - 1) + r := by omega
+        rw [a1, a2, a3]; ring
+      · rw [if_neg c, Lemmas.Curve.cdbF_vanish _ _ _ _ _ (Or.inr (by omega))]; simp
+    have t2 : (if r ≤ order - 2 then -1 / nduAt (leftAt knots s u) (rightAt knots s u)
+          ((List.range' 0 (order - 1 + 1)).map (fun j => pieceList knots u s j)) (order - 1) r *
+          nduAt (leftAt knots s u) (rightAt knots s u)
+          ((List.range' 0 (order - 1 + 1)).map (fun j => pieceList knots u s j)) r (order - 2) else 0)
+        = -(Lemmas.Curve.cdbF (kget knots) u (Lemmas.Curve.delta s) (order - 2) (s - (order - 1) + r + 1)
+            / (kget knots (s + r + 1) - kget knots (s - (order - 1) + r + 1))) := by
+      by_cases c : r ≤ order - 2
+      · rw [if_pos c, hlow _ _ (by omega), hup _ _ (by omega) (by omega), Lemmas.Curve.spanPiece_eq_cdbF]
+        have a2 : s + 1 - (order - 1 - r) = s - (order - 1) + r + 1 := by omega
+        have a3 : s - (order - 2) + r = s - (order - 1) + r + 1 := by omega
+        rw [a2, a3]; ring
+      · rw [if_neg c, Lemmas.Curve.cdbF_vanish _ _ _ _ _ (Or.inl (by omega))]; simp
+    rw [t1, t2]
+    push_cast
+    ring
+
+/-- `cdbFD` IS the derivative: the Cox - de Boor recursion read over `ℚ[X]` (`cdbPoly`) evaluates to the basis function
+    pieces, and `Polynomial.derivative` of it evaluates to `cdbFD` -/
+theorem basis_derivative_is_polynomial_derivative (knots : List Rat) (u : Rat) (s p i : Nat) :
+    (Lemmas.Curve.cdbPoly (kget knots) (Lemmas.Curve.delta s) p i).eval u = spanPiece knots u s p i ∧
+    (Polynomial.derivative (Lemmas.Curve.cdbPoly (kget knots) (Lemmas.Curve.delta s) p i)).eval u
+      = Lemmas.Curve.cdbFD (kget knots) u (Lemmas.Curve.delta s) p i :=
+  ⟨by rw [Lemmas.Curve.cdbPoly_eval, Lemmas.Curve.spanPiece_eq_cdbF], Lemmas.Curve.cdbPoly_derivative_eval _ _ _ _ _⟩
+
+private theorem curveSum_of_window (f : Nat → Rat) (cps : List V3) (order s : Nat) (ho : 1 ≤ order) (hp : order - 1 ≤ s)
+    (hv : ∀ i, (s < i ∨ i + (order - 1) < s) → f i = 0) :
+    combine ((List.range order).map (fun r => f (s - (order - 1) + r))) (cps.drop (s + 1 - order)) = curveSum f 0 cps := by
+  have e1 : curveSum f 0 cps = curveSum f (0 + (s - (order - 1))) (cps.drop (s - (order - 1))) := by
+    apply curveSum_skip
+    intro i _ h2
+    exact hv i (Or.inr (by omega))
+  rw [e1, curveSum_window _ order]
+  · rw [List.range_eq_range', map_shift_range']
+    have : s + 1 - order = s - (order - 1) := by omega
+    rw [this, Nat.add_zero, Nat.zero_add]
+  · intro i hi
+    exact hv i (Or.inl (by omega))
+
+/-- **first derivative of the curve** (`Evaluator.derivative(u, 1)`, A3.2, non rational): for every `u` of the half open
+    domain it returns `[C(u), C'(u)]` with `C(u)` the textbook sum over all control points and
+    `C'(u) = Σ_i N'_{i,p}(u) P_i`, `N'` the derivative (`cdbFD`) of the piece of the span that contains `u`;
+    every degree ≥ 1, every nondecreasing knot vector -/
+theorem evalDerivative_first (knots : List Rat) (cps : List V3) (order : Nat) (u : Rat)
+    (hsort : nondecreasing knots = true) (ho : 2 ≤ order) (hoc : order ≤ cps.length)
+    (hl : knots.length = order + cps.length)
+    (hlo : kget knots (order - 1) ≤ u) (hhi : u < kget knots cps.length) :
+    ∃ s : Nat, order - 1 ≤ s ∧ s < cps.length ∧ kget knots s ≤ u ∧ u < kget knots (s + 1) ∧
+      evalDerivative knots [] cps order u 1 = some
+        [curveRef knots cps (order - 1) u,
+         curveSum (fun i => Lemmas.Curve.cdbFD (kget knots) u (Lemmas.Curve.delta s) (order - 1) i) 0 cps] := by
+  obtain ⟨s, hfs, hs1, hs2, hs3, hs4⟩ := findSpan_spec_interior knots order cps.length u hsort (by omega) hoc hl hlo hhi
+  refine ⟨s, hs1, hs2, hs3, hs4, ?_⟩
+  have hD := basis_derivative_first knots order s u hsort ho hs1 (by omega) (lt_of_le_of_lt hs3 hs4)
+  simp only [evalDerivative, hfs]
+  show (basisFuncsDerivatives knots order s u 1).bind _ = _
+  rw [hD]
+  simp only [Option.bind_some, List.isEmpty_nil, if_true, Option.some.injEq]
+  have hr : List.range (1 + 1) = [0, 1] := rfl
+  rw [hr]
+  simp only [List.map_cons, List.map_nil, List.getD_cons_zero, List.getD_cons_succ]
+  rw [curveSum_of_window (spanPiece knots u s (order - 1)) cps order s (by omega) hs1
+      (fun i hi => spanPiece_vanish knots u s _ i hi),
+    curveSum_of_window (fun i => Lemmas.Curve.cdbFD (kget knots) u (Lemmas.Curve.delta s) (order - 1) i) cps order s
+      (by omega) hs1 (fun i hi => Lemmas.Curve.cdbFD_vanish _ u s _ i hi)]
+  have hv : coxDeBoor knots u (order - 1) = spanPiece knots u s (order - 1) :=
+    funext (fun i => coxDeBoor_eq_spanPiece knots u s hsort (by omega) hs3 hs4 _ i)
+  rw [curveRef, hv]
+
+/-- … on the CLOSED domain (both ends included; at `u = U[count]` the one-sided derivative from the left): for every `u` in
+    `[U[p], U[count]]` of a spline with non-degenerate domain there is a non-empty span whose closure contains `u` such
+    that `Evaluator.derivative(u, 1)` returns the value and the derivative of that polynomial piece -/
+theorem evalDerivative_first_closed (knots : List Rat) (cps : List V3) (order : Nat) (u : Rat)
+    (hsort : nondecreasing knots = true) (ho : 2 ≤ order) (hoc : order ≤ cps.length)
+    (hl : knots.length = order + cps.length)
+    (hdom : kget knots (order - 1) < kget knots cps.length)
+    (hlo : kget knots (order - 1) ≤ u) (hhi : u ≤ kget knots cps.length) :
+    ∃ s : Nat, order - 1 ≤ s ∧ s < cps.length ∧ kget knots s < kget knots (s + 1) ∧ kget knots s ≤ u ∧ u ≤ kget knots (s + 1) ∧
+      evalDerivative knots [] cps order u 1 = some
+        [curveSum (spanPiece knots u s (order - 1)) 0 cps,
+         curveSum (fun i => Lemmas.Curve.cdbFD (kget knots) u (Lemmas.Curve.delta s) (order - 1) i) 0 cps] := by
+  obtain ⟨s, hfs, hs1, hs2, hs3, hs4, hs5⟩ := findSpan_spec knots order cps.length u hsort (by omega) hoc hl hdom hlo hhi
+  refine ⟨s, hs1, hs2, hs3, hs4, hs5, ?_⟩
+  have hD := basis_derivative_first knots order s u hsort ho hs1 (by omega) hs3
+  simp only [evalDerivative, hfs]
+  show (basisFuncsDerivatives knots order s u 1).bind _ = _
+  rw [hD]
+  simp only [Option.bind_some, List.isEmpty_nil, if_true, Option.some.injEq]
+  have hr : List.range (1 + 1) = [0, 1] := rfl
+  rw [hr]
+  simp only [List.map_cons, List.map_nil, List.getD_cons_zero, List.getD_cons_succ]
+  rw [curveSum_of_window (spanPiece knots u s (order - 1)) cps order s (by omega) hs1
+      (fun i hi => spanPiece_vanish knots u s _ i hi),
+    curveSum_of_window (fun i => Lemmas.Curve.cdbFD (kget knots) u (Lemmas.Curve.delta s) (order - 1) i) cps order s
+      (by omega) hs1 (fun i hi => Lemmas.Curve.cdbFD_vanish _ u s _ i hi)]
+
+/-! ## 6e. `split_bspline` (`BSpline.split`) -/
+
+private theorem span_unique (knots : List Rat) (hsort : nondecreasing knots = true) (t : Rat) (k k' : Nat)
+    (h1 : kget knots k ≤ t) (h2 : t < kget knots (k + 1)) (h1' : kget knots k' ≤ t) (h2' : t < kget knots (k' + 1))
+    (hl : k + 1 < knots.length) (hl' : k' + 1 < knots.length) : k = k' := by
+  rcases Nat.lt_trichotomy k k' with h | h | h
+  · have := nd_mono knots hsort (k + 1) k' (by omega) (by omega); linarith
+  · exact h
+  · have := nd_mono knots hsort (k' + 1) k (by omega) (by omega); linarith
+
+private theorem take_insert {α : Type} (A B : List α) (t : α) (n : Nat) (h : A.length = n) :
+    (A ++ t :: B).take (n + 1) = A ++ [t] := by
+  subst h; rw [List.take_length_add_append]; simp
+
+private theorem drop_insert {α : Type} (A B : List α) (t : α) (n : Nat) (h : A.length = n) :
+    (A ++ t :: B).drop (n + 1) = B := by
+  subst h; rw [List.drop_length_add_append]; simp
+
+/-- the knot vector after `knot_refinement([t] * m)`: `m` copies of `t` behind the knot interval of `t` -/
+private theorem refine_replicate (order : Nat) (t : Rat) (ho : 1 ≤ order) :
+    ∀ (m : Nat) (knots : List Rat) (cps cps' : List V3) (knots' : List Rat) (k0 : Nat),
+      nondecreasing knots = true → order ≤ cps.length → knots.length = order + cps.length →
+      kget knots (order - 1) < kget knots cps.length → t < kget knots cps.length →
+      kget knots k0 ≤ t → t < kget knots (k0 + 1) → k0 + 1 < knots.length →
+      knotRefinement knots cps order (List.replicate m t) = .ok (cps', knots') →
+      knots' = knots.take (k0 + 1) ++ List.replicate m t ++ knots.drop (k0 + 1)
+  | 0, knots, cps, cps', knots', k0, _, _, _, _, _, _, _, _, h => by
+    simp only [List.replicate_zero, knotRefinement, Except.ok.injEq, Prod.mk.injEq] at h
+    rw [← h.2]; simp
+  | m + 1, knots, cps, cps', knots', k0, hsort, hoc, hl, hdom, ht, hb1, hb2, hk0, h => by
+    simp only [List.replicate_succ, knotRefinement] at h
+    split at h
+    · rename_i c1 k1 h1
+      obtain ⟨a1, a2, a3, a4, a5, _⟩ := insert_knot_preserves knots cps order t (kget knots (order - 1)) c1 k1 hsort ho hoc hl
+        (le_of_lt ht) h1 (le_refl _) hdom
+      obtain ⟨k, qs, hfs, hpk, _, _, hk1⟩ := insertKnot_ok knots cps order t c1 k1 h1
+      obtain ⟨hkc, hkt, htk⟩ := findSpan_result_lt knots order cps.length t k hsort ho hoc hl ht hfs hpk
+      have hkk : k = k0 := span_unique knots hsort t k k0 hkt htk hb1 hb2 (by omega) hk0
+      subst hkk
+      have hKg := Lemmas.Curve.kget_insert knots k t (by omega)
+      rw [← hk1] at hKg
+      have ih := refine_replicate order t ho m k1 c1 cps' knots' (k + 1) a1 (by omega) a3 (by rw [a4, a5]; exact hdom)
+        (by rw [a5]; exact ht) (by rw [hKg, Lemmas.Curve.insK_eq]) (by
+          rw [hKg, Lemmas.Curve.insK_gt _ _ _ (by omega : k + 2 ≤ k + 1 + 1)]; exact htk)
+        (by rw [a3, a2]; omega) h
+      rw [ih, hk1]
+      have hlt : (knots.take (k + 1)).length = k + 1 := by simp; omega
+      rw [take_insert _ _ t (k + 1) hlt, drop_insert _ _ t (k + 1) hlt]
+      simp [List.replicate_succ, List.append_assoc]
+    · exact absurd h (by simp)
+
+private theorem mkBSpline_ok (cps : List V3) (order : Nat) (knots : List Rat) (r : List V3 × List Rat)
+    (h : mkBSpline cps order knots = .ok r) :
+    order ≤ cps.length ∧ knots.length = cps.length + order ∧ r.1 = cps ∧
+    r.2 = (if kget knots 0 ≠ 0 then normalizeKnots knots else knots) := by
+  unfold mkBSpline at h
+  split at h
+  · exact absurd h (by simp)
+  · split at h
+    · exact absurd h (by simp)
+    · rename_i h1 h2
+      simp only [Except.ok.injEq] at h
+      exact ⟨by omega, by omega, by rw [← h], by rw [← h]⟩
+
+/-- **split**: `split_bspline(spline, t)` as coded (clamp at `t` by `order` insertions, cut knots and control points,
+    both halves through the `BSpline` constructor): whenever it returns for a knot vector that starts at 0 and a `t`
+    below the end of the domain, the FIRST spline evaluates to the original curve on `[U[p], t)` and the SECOND one,
+    whose knots the constructor re-normalises to `[0, 1]`, at `(u − t)/(max_t − t)` for every `u` in `[t, U[count])` —
+    every degree, every nondecreasing knot vector (clamped or not), `t` on an existing knot included -/
+theorem split_bspline_preserves (knots : List Rat) (cps : List V3) (order : Nat) (t u : Rat)
+    (s1 s2 : List V3 × List Rat)
+    (hsort : nondecreasing knots = true) (ho : 1 ≤ order) (hoc : order ≤ cps.length)
+    (hl : knots.length = order + cps.length) (h0 : kget knots 0 = 0)
+    (ht : t < kget knots cps.length)
+    (h : splitBSpline knots cps order t = .ok (s1, s2)) :
+    (kget knots (order - 1) ≤ u → u < t → evalPoint s1.2 [] s1.1 order u = evalPoint knots [] cps order u) ∧
+    (t ≤ u → u < kget knots cps.length →
+      evalPoint s2.2 [] s2.1 order ((u - t) / (knots.getLastD 0 - t)) = evalPoint knots [] cps order u) := by
+  unfold splitBSpline at h
+  simp only at h
+  split at h
+  · exact absurd h (by simp)
+  rename_i htol1
+  split at h
+  · exact absurd h (by simp)
+  rename_i htol2
+  split at h
+  · exact absurd h (by simp)
+  · exact absurd h (by simp)
+  rename_i cps' knots' href
+  split at h
+  · exact absurd h (by simp)
+  rename_i r1 hm1
+  split at h
+  · exact absurd h (by simp)
+  rename_i r2 hm2
+  simp only [Except.ok.injEq, Prod.mk.injEq] at h
+  obtain ⟨rfl, rfl⟩ := h
+  have htpos : 0 < t := by
+    have : (0 : Rat) < 1 / 1000000000000 := by norm_num
+    linarith [not_lt.mp htol1]
+  -- the first insertion tells where t sits
+  obtain ⟨k0, hk0p, hk0c, hb1, hb2⟩ : ∃ k0, order - 1 ≤ k0 ∧ k0 < cps.length ∧ kget knots k0 ≤ t ∧ t < kget knots (k0 + 1) := by
+    have hr := href
+    have e : List.replicate order t = t :: List.replicate (order - 1) t := by
+      have : order = (order - 1) + 1 := by omega
+      rw [this, List.replicate_succ]; simp
+    rw [e] at hr
+    simp only [knotRefinement] at hr
+    split at hr
+    · rename_i c1 k1 h1
+      obtain ⟨k, qs, hfs, hpk, _, _, _⟩ := insertKnot_ok knots cps order t c1 k1 h1
+      obtain ⟨hkc, hkt, htk⟩ := findSpan_result_lt knots order cps.length t k hsort ho hoc hl ht hfs hpk
+      exact ⟨k, hpk, hkc, hkt, htk⟩
+    · exact absurd hr (by simp)
+  have hKp : kget knots (order - 1) ≤ t := le_trans (nd_mono knots hsort _ _ hk0p (by omega)) hb1
+  have hdom : kget knots (order - 1) < kget knots cps.length := lt_of_le_of_lt hKp ht
+  have hshape := refine_replicate order t ho order knots cps cps' knots' k0 hsort hoc hl hdom ht hb1 hb2 (by omega) href
+  -- facts about the refined spline (evaluation is added per u below)
+  have hpres := fun (v : Rat) (hv1 : kget knots (order - 1) ≤ v) (hv2 : v < kget knots cps.length) =>
+    knot_refinement_preserves order v ho (List.replicate order t) knots cps cps' knots' hsort hoc hl
+      (fun t' ht' => by rw [List.eq_of_mem_replicate ht']; exact le_of_lt ht) href hv1 hv2
+  obtain ⟨hsort', hcl', hkl', hdlo', hdhi', _⟩ := hpres _ (le_refl _) hdom
+  simp only [List.length_replicate] at hcl'
+  have hlt : (knots.take (k0 + 1)).length = k0 + 1 := by simp; omega
+  -- kget of the refined knots
+  have hK1 : ∀ j, j ≤ k0 → kget knots' j = kget knots j := by
+    intro j hj
+    rw [hshape, List.append_assoc, Lemmas.Curve.kget_eq, List.getElem?_append_left (by rw [hlt]; omega),
+      ← Lemmas.Curve.kget_eq, Lemmas.Curve.kget_take _ _ _ (by omega)]
+  have hK2 : ∀ j, k0 + 1 ≤ j → j ≤ k0 + order → kget knots' j = t := by
+    intro j hj1 hj2
+    rw [hshape, List.append_assoc, Lemmas.Curve.kget_eq, List.getElem?_append_right (by rw [hlt]; omega), hlt,
+      List.getElem?_append_left (by simp; omega), List.getElem?_replicate, if_pos (by omega)]
+    rfl
+  have hK3 : ∀ j, k0 + order + 1 ≤ j → kget knots' j = kget knots (j - order) := by
+    intro j hj
+    rw [hshape, List.append_assoc, Lemmas.Curve.kget_eq, List.getElem?_append_right (by rw [hlt]; omega), hlt,
+      List.getElem?_append_right (by simp; omega), List.length_replicate, List.getElem?_drop, ← Lemmas.Curve.kget_eq]
+    congr 1; omega
+  -- the cut index
+  have hspan : bisectRight knots' t 0 knots'.length = k0 + order + 1 := by
+    obtain ⟨b1, b2, b3, b4⟩ := bisectRight_spec knots' t 0 knots'.length hsort' (by omega) (le_refl _)
+    generalize bisectRight knots' t 0 knots'.length = r at *
+    by_contra hne
+    rcases Nat.lt_or_gt_of_ne hne with hlt' | hgt'
+    · have := b4 (k0 + order) (by omega) (by omega)
+      rw [hK2 (k0 + order) (by omega) (le_refl _)] at this
+      exact lt_irrefl _ this
+    · have := b3 (k0 + order + 1) (by omega) hgt'
+      rw [hK3 _ (le_refl _)] at this
+      have e : k0 + order + 1 - order = k0 + 1 := by omega
+      rw [e] at this
+      linarith
+  rw [hspan] at hm1 hm2
+  have e_idx : k0 + order + 1 - order = k0 + 1 := by omega
+  rw [e_idx] at hm1 hm2
+  obtain ⟨m11, m12, m13, m14⟩ := mkBSpline_ok _ _ _ _ hm1
+  obtain ⟨m21, m22, m23, m24⟩ := mkBSpline_ok _ _ _ _ hm2
+  constructor
+  · -- first half
+    intro hlo hhi
+    obtain ⟨_, _, _, _, _, hev⟩ := hpres u hlo (lt_trans hhi ht)
+    rw [← hev, m13, m14]
+    have hk10 : kget (knots'.take (k0 + order + 1)) 0 = 0 := by
+      rw [Lemmas.Curve.kget_take _ _ _ (by omega), hK1 0 (by omega), h0]
+    rw [if_neg (by rw [hk10]; simp)]
+    have hs1 := Lemmas.Curve.nd_take knots' (k0 + order + 1) hsort'
+    have hl1 : (knots'.take (k0 + order + 1)).length = order + (cps'.take (k0 + 1)).length := by
+      simp only [List.length_take]; omega
+    have hc1 : (cps'.take (k0 + 1)).length = k0 + 1 := by simp only [List.length_take]; omega
+    have hKt : ∀ j, j < k0 + order + 1 → kget (knots'.take (k0 + order + 1)) j = kget knots' j :=
+      fun j hj => Lemmas.Curve.kget_take _ _ _ hj
+    obtain ⟨sa, hfa, ha1, ha2, ha3, ha4⟩ := findSpan_spec_interior (knots'.take (k0 + order + 1)) order
+      (cps'.take (k0 + 1)).length u hs1 ho (by omega) hl1
+      (by rw [hKt _ (by omega), hdlo']; exact hlo)
+      (by rw [hc1, hKt _ (by omega), hK2 _ (by omega) (by omega)]; exact hhi)
+    obtain ⟨sb, hfb, hb1', hb2', hb3', hb4'⟩ := findSpan_spec_interior knots' order cps'.length u hsort' ho (by omega) hkl'
+      (by rw [hdlo']; exact hlo) (by rw [hdhi']; exact lt_trans hhi ht)
+    rw [hc1] at ha2
+    rw [hKt _ (by omega)] at ha3
+    rw [hKt _ (by omega)] at ha4
+    have hab : sa = sb := span_unique knots' hsort' u sa sb ha3 ha4 hb3' hb4' (by omega) (by omega)
+    subst hab
+    rw [evalPoint_of_span _ _ order u sa hfa hs1 ho ha1 (by omega) hl1 (by
+        rw [hKt _ (by omega), hKt _ (by omega)]; exact lt_of_le_of_lt ha3 ha4),
+      evalPoint_of_span knots' cps' order u sa hfb hsort' ho hb1' hb2' hkl' (lt_of_le_of_lt hb3' hb4')]
+    congr 1
+    have hf : spanPiece (knots'.take (k0 + order + 1)) u sa (order - 1) = spanPiece knots' u sa (order - 1) := by
+      funext i
+      by_cases hi : sa < i
+      · rw [spanPiece_vanish _ _ _ _ _ (Or.inl hi), spanPiece_vanish _ _ _ _ _ (Or.inl hi)]
+      · rw [Lemmas.Curve.spanPiece_eq_cdbF, Lemmas.Curve.spanPiece_eq_cdbF]
+        apply Lemmas.Curve.cdbF_congr
+        intro j _ hj2
+        exact hKt j (by omega)
+    rw [hf]
+    exact Lemmas.Curve.curveSum_take _ (k0 + 1) cps' 0 (fun i hi => spanPiece_vanish _ _ _ _ _ (Or.inl (by omega)))
+  · -- second half
+    intro hlo hhi
+    obtain ⟨_, _, _, _, _, hev⟩ := hpres u (le_trans hKp hlo) hhi
+    rw [← hev, m23, m24]
+    -- the raw knot list of the second half is a suffix of the refined knots
+    have hraw : List.replicate order t ++ knots'.drop (k0 + order + 1) = knots'.drop (k0 + 1) := by
+      rw [hshape, List.append_assoc]
+      have e1 : (knots.take (k0 + 1) ++ (List.replicate order t ++ knots.drop (k0 + 1))).drop (k0 + 1)
+          = List.replicate order t ++ knots.drop (k0 + 1) := by
+        have := List.drop_length_add_append (l₁ := knots.take (k0 + 1)) (l₂ := List.replicate order t ++ knots.drop (k0 + 1)) (i := 0)
+        rw [hlt] at this
+        simpa using this
+      have e2 : (knots.take (k0 + 1) ++ (List.replicate order t ++ knots.drop (k0 + 1))).drop (k0 + order + 1)
+          = knots.drop (k0 + 1) := by
+        have := List.drop_length_add_append (l₁ := knots.take (k0 + 1) ++ List.replicate order t) (l₂ := knots.drop (k0 + 1)) (i := 0)
+        simp only [List.length_append, hlt, List.length_replicate, Nat.add_zero, List.drop_zero, List.append_assoc] at this
+        rw [show k0 + order + 1 = k0 + 1 + order by omega]
+        exact this
+      rw [e1, e2]
+    rw [hraw] at m22 ⊢
+    have hkd0 : kget (knots'.drop (k0 + 1)) 0 = t := by
+      rw [Lemmas.Curve.kget_drop, hK2 _ (by omega) (by omega)]
+    rw [if_pos (by rw [hkd0]; exact ne_of_gt htpos)]
+    -- normalisation = (v - t) / (maxT - t)
+    have hlast : (knots'.drop (k0 + 1)).getLastD 0 = knots.getLastD 0 := by
+      rw [Lemmas.Curve.getLastD_eq_kget, Lemmas.Curve.getLastD_eq_kget, Lemmas.Curve.kget_drop]
+      have e : k0 + 1 + ((knots'.drop (k0 + 1)).length - 1) = knots'.length - 1 := by
+        simp only [List.length_drop]; omega
+      rw [e, hK3 _ (by omega)]
+      congr 1; omega
+    have hmax : kget knots cps.length ≤ knots.getLastD 0 := by
+      rw [Lemmas.Curve.getLastD_eq_kget]
+      exact nd_mono knots hsort _ _ (by omega) (by omega)
+    have hbpos : 0 < knots.getLastD 0 - t := by linarith
+    have hb0 : knots.getLastD 0 - t ≠ 0 := ne_of_gt hbpos
+    have hlen2 : (normalizeKnots (knots'.drop (k0 + 1))).length = knots'.length - (k0 + 1) := by
+      simp [normalizeKnots]
+    have hKn : ∀ j, j < knots'.length - (k0 + 1) → kget (normalizeKnots (knots'.drop (k0 + 1))) j
+        = (kget knots' (j + (k0 + 1)) - t) / (knots.getLastD 0 - t) := by
+      intro j hj
+      simp only [normalizeKnots, hkd0, hlast, Lemmas.Curve.kget_eq, List.getElem?_map, List.getElem?_drop]
+      have : k0 + 1 + j < knots'.length := by omega
+      rw [List.getElem?_eq_getElem this, Nat.add_comm j (k0 + 1), List.getElem?_eq_getElem this]
+      simp
+    have hdiv : ∀ x y : Rat, x ≤ y → (x - t) / (knots.getLastD 0 - t) ≤ (y - t) / (knots.getLastD 0 - t) :=
+      fun x y hxy => div_le_div_of_nonneg_right (by linarith) (le_of_lt hbpos)
+    have hdivlt : ∀ x y : Rat, x < y → (x - t) / (knots.getLastD 0 - t) < (y - t) / (knots.getLastD 0 - t) :=
+      fun x y hxy => div_lt_div_of_pos_right (by linarith) hbpos
+    have hs2 : nondecreasing (normalizeKnots (knots'.drop (k0 + 1))) = true := by
+      apply Lemmas.Curve.nd_of_step
+      intro i hi
+      rw [hlen2] at hi
+      rw [hKn i (by omega), hKn (i + 1) hi]
+      exact hdiv _ _ (nd_mono knots' hsort' _ _ (by omega) (by omega))
+    have hc2 : (cps'.drop (k0 + 1)).length = cps'.length - (k0 + 1) := by simp
+    have hl2 : (normalizeKnots (knots'.drop (k0 + 1))).length = order + (cps'.drop (k0 + 1)).length := by
+      rw [hlen2, hc2]; omega
+    obtain ⟨sa, hfa, ha1, ha2, ha3, ha4⟩ := findSpan_spec_interior (normalizeKnots (knots'.drop (k0 + 1))) order
+      (cps'.drop (k0 + 1)).length ((u - t) / (knots.getLastD 0 - t)) hs2 ho (by rw [hc2]; omega) hl2
+      (by rw [hKn _ (by omega)]
+          have e : order - 1 + (k0 + 1) = k0 + order := by omega
+          rw [e, hK2 _ (by omega) (le_refl _)]
+          exact hdiv _ _ hlo)
+      (by rw [hc2, hKn _ (by omega)]
+          have e : cps'.length - (k0 + 1) + (k0 + 1) = cps'.length := by omega
+          rw [e, hdhi']
+          exact hdivlt _ _ hhi)
+    obtain ⟨sb, hfb, hb1', hb2', hb3', hb4'⟩ := findSpan_spec_interior knots' order cps'.length u hsort' ho (by omega) hkl'
+      (by rw [hdlo']; exact le_trans hKp hlo) (by rw [hdhi']; exact hhi)
+    rw [hc2] at ha2
+    have hne2 := lt_of_le_of_lt ha3 ha4
+    rw [hKn _ (by omega)] at ha3
+    rw [hKn _ (by omega)] at ha4
+    have ha3' : kget knots' (sa + (k0 + 1)) ≤ u := by
+      by_contra hc
+      have := hdivlt _ _ (not_le.mp hc)
+      linarith
+    have ha4' : u < kget knots' (sa + (k0 + 1) + 1) := by
+      by_contra hc
+      have := hdiv _ _ (not_lt.mp hc)
+      have e : sa + 1 + (k0 + 1) = sa + (k0 + 1) + 1 := by omega
+      rw [e] at ha4
+      linarith
+    have hab : sa + (k0 + 1) = sb := span_unique knots' hsort' u _ sb ha3' ha4' hb3' hb4' (by omega) (by omega)
+    rw [evalPoint_of_span _ _ order _ sa hfa hs2 ho ha1 (by rw [hc2]; omega) hl2 hne2,
+      evalPoint_of_span knots' cps' order u sb hfb hsort' ho hb1' hb2' hkl' (lt_of_le_of_lt hb3' hb4')]
+    congr 1
+    rw [Lemmas.Curve.curveSum_drop (spanPiece knots' u sb (order - 1)) (k0 + 1) cps' 0
+      (fun i _ hi => spanPiece_vanish _ _ _ _ _ (Or.inr (by omega))), Lemmas.Curve.curveSum_shift]
+    congr 1
+    funext i
+    by_cases hi : sa < i
+    · rw [spanPiece_vanish _ _ _ _ _ (Or.inl hi), spanPiece_vanish _ _ _ _ _ (Or.inl (by omega))]
+    · rw [Lemmas.Curve.spanPiece_eq_cdbF, Lemmas.Curve.spanPiece_eq_cdbF, ← hab,
+        ← Lemmas.Curve.cdbF_shift (kget knots') u sa (k0 + 1) (order - 1) i,
+        ← Lemmas.Curve.cdbF_affine (fun j => kget knots' (j + (k0 + 1))) u t (knots.getLastD 0 - t) hb0]
+      apply Lemmas.Curve.cdbF_congr
+      intro j _ hj2
+      exact hKn j (by omega)
+
+private theorem last_span_unique (knots : List Rat) (hsort : nondecreasing knots = true) (a b : Nat) (v : Rat)
+    (ha : kget knots a < kget knots (a + 1)) (hb : kget knots b < kget knots (b + 1))
+    (ha1 : kget knots (a + 1) = v) (hb1 : kget knots (b + 1) = v)
+    (hla : a + 1 < knots.length) (hlb : b + 1 < knots.length) : a = b := by
+  rcases Nat.lt_trichotomy a b with h | h | h
+  · have := nd_mono knots hsort (a + 1) b (by omega) (by omega); linarith
+  · exact h
+  · have := nd_mono knots hsort (b + 1) a (by omega) (by omega); linarith
+
+/-- … and the END POINT: the second spline of `split` at (and beyond) its domain end `(u − t)/(max_t − t)`, `u >= U[count]`,
+    returns what the original returns there, so the second half reproduces the curve on the closed interval
+    `[t, U[count]]` -/
+theorem split_bspline_second_half_domain_end (knots : List Rat) (cps : List V3) (order : Nat) (t u : Rat)
+    (s1 s2 : List V3 × List Rat)
+    (hsort : nondecreasing knots = true) (ho : 1 ≤ order) (hoc : order ≤ cps.length)
+    (hl : knots.length = order + cps.length)
+    (ht : t < kget knots cps.length)
+    (h : splitBSpline knots cps order t = .ok (s1, s2))
+    (hu : kget knots cps.length ≤ u) :
+    evalPoint s2.2 [] s2.1 order ((u - t) / (knots.getLastD 0 - t)) = evalPoint knots [] cps order u := by
+  unfold splitBSpline at h
+  simp only at h
+  split at h
+  · exact absurd h (by simp)
+  rename_i htol1
+  split at h
+  · exact absurd h (by simp)
+  rename_i htol2
+  split at h
+  · exact absurd h (by simp)
+  · exact absurd h (by simp)
+  rename_i cps' knots' href
+  split at h
+  · exact absurd h (by simp)
+  rename_i r1 hm1
+  split at h
+  · exact absurd h (by simp)
+  rename_i r2 hm2
+  simp only [Except.ok.injEq, Prod.mk.injEq] at h
+  obtain ⟨rfl, rfl⟩ := h
+  have htpos : 0 < t := by
+    have : (0 : Rat) < 1 / 1000000000000 := by norm_num
+    linarith [not_lt.mp htol1]
+  obtain ⟨k0, hk0p, hk0c, hb1, hb2⟩ : ∃ k0, order - 1 ≤ k0 ∧ k0 < cps.length ∧ kget knots k0 ≤ t ∧ t < kget knots (k0 + 1) := by
+    have hr := href
+    have e : List.replicate order t = t :: List.replicate (order - 1) t := by
+      have : order = (order - 1) + 1 := by omega
+      rw [this, List.replicate_succ]; simp
+    rw [e] at hr
+    simp only [knotRefinement] at hr
+    split at hr
+    · rename_i c1 k1 h1
+      obtain ⟨k, qs, hfs, hpk, _, _, _⟩ := insertKnot_ok knots cps order t c1 k1 h1
+      obtain ⟨hkc, hkt, htk⟩ := findSpan_result_lt knots order cps.length t k hsort ho hoc hl ht hfs hpk
+      exact ⟨k, hpk, hkc, hkt, htk⟩
+    · exact absurd hr (by simp)
+  have hKp : kget knots (order - 1) ≤ t := le_trans (nd_mono knots hsort _ _ hk0p (by omega)) hb1
+  have hdom : kget knots (order - 1) < kget knots cps.length := lt_of_le_of_lt hKp ht
+  have hshape := refine_replicate order t ho order knots cps cps' knots' k0 hsort hoc hl hdom ht hb1 hb2 (by omega) href
+  have hts : ∀ t' ∈ List.replicate order t, t' ≤ kget knots cps.length :=
+    fun t' ht' => by rw [List.eq_of_mem_replicate ht']; exact le_of_lt ht
+  obtain ⟨hsort', hcl', hkl', hdlo', hdhi', _⟩ :=
+    knot_refinement_preserves order _ ho (List.replicate order t) knots cps cps' knots' hsort hoc hl hts href (le_refl _) hdom
+  have hev := knot_refinement_preserves_domain_end order u ho (List.replicate order t) knots cps cps' knots' hsort hoc hl
+    hdom hts href hu
+  simp only [List.length_replicate] at hcl'
+  have hlt : (knots.take (k0 + 1)).length = k0 + 1 := by simp; omega
+  have hK2 : ∀ j, k0 + 1 ≤ j → j ≤ k0 + order → kget knots' j = t := by
+    intro j hj1 hj2
+    rw [hshape, List.append_assoc, Lemmas.Curve.kget_eq, List.getElem?_append_right (by rw [hlt]; omega), hlt,
+      List.getElem?_append_left (by simp; omega), List.getElem?_replicate, if_pos (by omega)]
+    rfl
+  have hK3 : ∀ j, k0 + order + 1 ≤ j → kget knots' j = kget knots (j - order) := by
+    intro j hj
+    rw [hshape, List.append_assoc, Lemmas.Curve.kget_eq, List.getElem?_append_right (by rw [hlt]; omega), hlt,
+      List.getElem?_append_right (by simp; omega), List.length_replicate, List.getElem?_drop, ← Lemmas.Curve.kget_eq]
+    congr 1; omega
+  have hspan : bisectRight knots' t 0 knots'.length = k0 + order + 1 := by
+    obtain ⟨b1, b2, b3, b4⟩ := bisectRight_spec knots' t 0 knots'.length hsort' (by omega) (le_refl _)
+    generalize bisectRight knots' t 0 knots'.length = r at *
+    by_contra hne
+    rcases Nat.lt_or_gt_of_ne hne with hlt' | hgt'
+    · have := b4 (k0 + order) (by omega) (by omega)
+      rw [hK2 (k0 + order) (by omega) (le_refl _)] at this
+      exact lt_irrefl _ this
+    · have := b3 (k0 + order + 1) (by omega) hgt'
+      rw [hK3 _ (le_refl _)] at this
+      have e : k0 + order + 1 - order = k0 + 1 := by omega
+      rw [e] at this
+      linarith
+  rw [hspan] at hm1 hm2
+  have e_idx : k0 + order + 1 - order = k0 + 1 := by omega
+  rw [e_idx] at hm1 hm2
+  obtain ⟨m21, m22, m23, m24⟩ := mkBSpline_ok _ _ _ _ hm2
+  rw [← hev, m23, m24]
+  have hraw : List.replicate order t ++ knots'.drop (k0 + order + 1) = knots'.drop (k0 + 1) := by
+    rw [hshape, List.append_assoc]
+    have e1 : (knots.take (k0 + 1) ++ (List.replicate order t ++ knots.drop (k0 + 1))).drop (k0 + 1)
+        = List.replicate order t ++ knots.drop (k0 + 1) := by
+      have := List.drop_length_add_append (l₁ := knots.take (k0 + 1)) (l₂ := List.replicate order t ++ knots.drop (k0 + 1)) (i := 0)
+      rw [hlt] at this
+      simpa using this
+    have e2 : (knots.take (k0 + 1) ++ (List.replicate order t ++ knots.drop (k0 + 1))).drop (k0 + order + 1)
+        = knots.drop (k0 + 1) := by
+      have := List.drop_length_add_append (l₁ := knots.take (k0 + 1) ++ List.replicate order t) (l₂ := knots.drop (k0 + 1)) (i := 0)
+      simp only [List.length_append, hlt, List.length_replicate, Nat.add_zero, List.drop_zero, List.append_assoc] at this
+      rw [show k0 + order + 1 = k0 + 1 + order by omega]
+      exact this
+    rw [e1, e2]
+  rw [hraw] at m22 ⊢
+  have hkd0 : kget (knots'.drop (k0 + 1)) 0 = t := by
+    rw [Lemmas.Curve.kget_drop, hK2 _ (by omega) (by omega)]
+  rw [if_pos (by rw [hkd0]; exact ne_of_gt htpos)]
+  have hlast : (knots'.drop (k0 + 1)).getLastD 0 = knots.getLastD 0 := by
+    rw [Lemmas.Curve.getLastD_eq_kget, Lemmas.Curve.getLastD_eq_kget, Lemmas.Curve.kget_drop]
+    have e : k0 + 1 + ((knots'.drop (k0 + 1)).length - 1) = knots'.length - 1 := by
+      simp only [List.length_drop]; omega
+    rw [e, hK3 _ (by omega)]
+    congr 1; omega
+  have hmax : kget knots cps.length ≤ knots.getLastD 0 := by
+    rw [Lemmas.Curve.getLastD_eq_kget]
+    exact nd_mono knots hsort _ _ (by omega) (by omega)
+  have hbpos : 0 < knots.getLastD 0 - t := by linarith
+  have hb0 : knots.getLastD 0 - t ≠ 0 := ne_of_gt hbpos
+  have hlen2 : (normalizeKnots (knots'.drop (k0 + 1))).length = knots'.length - (k0 + 1) := by
+    simp [normalizeKnots]
+  have hKn : ∀ j, j < knots'.length - (k0 + 1) → kget (normalizeKnots (knots'.drop (k0 + 1))) j
+      = (kget knots' (j + (k0 + 1)) - t) / (knots.getLastD 0 - t) := by
+    intro j hj
+    simp only [normalizeKnots, hkd0, hlast, Lemmas.Curve.kget_eq, List.getElem?_map, List.getElem?_drop]
+    have : k0 + 1 + j < knots'.length := by omega
+    rw [List.getElem?_eq_getElem this, Nat.add_comm j (k0 + 1), List.getElem?_eq_getElem this]
+    simp
+  have hdiv : ∀ x y : Rat, x ≤ y → (x - t) / (knots.getLastD 0 - t) ≤ (y - t) / (knots.getLastD 0 - t) :=
+    fun x y hxy => div_le_div_of_nonneg_right (by linarith) (le_of_lt hbpos)
+  have hdivlt : ∀ x y : Rat, x < y → (x - t) / (knots.getLastD 0 - t) < (y - t) / (knots.getLastD 0 - t) :=
+    fun x y hxy => div_lt_div_of_pos_right (by linarith) hbpos
+  have hs2 : nondecreasing (normalizeKnots (knots'.drop (k0 + 1))) = true := by
+    apply Lemmas.Curve.nd_of_step
+    intro i hi
+    rw [hlen2] at hi
+    rw [hKn i (by omega), hKn (i + 1) hi]
+    exact hdiv _ _ (nd_mono knots' hsort' _ _ (by omega) (by omega))
+  have hc2 : (cps'.drop (k0 + 1)).length = cps'.length - (k0 + 1) := by simp
+  have hl2 : (normalizeKnots (knots'.drop (k0 + 1))).length = order + (cps'.drop (k0 + 1)).length := by
+    rw [hlen2, hc2]; omega
+  have hKc2 : kget (normalizeKnots (knots'.drop (k0 + 1))) (cps'.drop (k0 + 1)).length
+      = (kget knots cps.length - t) / (knots.getLastD 0 - t) := by
+    rw [hc2, hKn _ (by omega)]
+    have e : cps'.length - (k0 + 1) + (k0 + 1) = cps'.length := by omega
+    rw [e, hdhi']
+  obtain ⟨sa, ha1, ha2, ha3, ha4, ha5⟩ := evalPoint_domain_end (normalizeKnots (knots'.drop (k0 + 1))) (cps'.drop (k0 + 1)) order
+    ((u - t) / (knots.getLastD 0 - t)) hs2 ho (by rw [hc2]; omega) hl2
+    (by rw [hKc2, hKn _ (by omega)]
+        have e : order - 1 + (k0 + 1) = k0 + order := by omega
+        rw [e, hK2 _ (by omega) (le_refl _)]
+        exact hdivlt _ _ ht)
+    (by rw [hKc2]; exact hdiv _ _ hu)
+  obtain ⟨sb, hb1', hb2', hb3', hb4', hb5'⟩ := evalPoint_domain_end knots' cps' order u hsort' ho (by omega) hkl'
+    (by rw [hdlo', hdhi']; exact hdom) (by rw [hdhi']; exact hu)
+  rw [ha5, hb5']
+  rw [hc2] at ha2
+  rw [hKc2, hKn _ (by omega)] at ha4
+  rw [hKn _ (by omega), hKn _ (by omega)] at ha3
+  have e1 : sa + 1 + (k0 + 1) = sa + (k0 + 1) + 1 := by omega
+  rw [e1] at ha3 ha4
+  have ha3' : kget knots' (sa + (k0 + 1)) < kget knots' (sa + (k0 + 1) + 1) := by
+    by_contra hc
+    have := hdiv _ _ (not_lt.mp hc)
+    linarith
+  have ha4' : kget knots' (sa + (k0 + 1) + 1) = kget knots' cps'.length := by
+    rw [hdhi']
+    have h4 := ha4
+    rw [div_left_inj' hb0] at h4
+    linarith
+  have hab : sa + (k0 + 1) = sb := last_span_unique knots' hsort' _ sb _ ha3' hb3' ha4' hb4' (by omega) (by omega)
+  congr 1
+  rw [Lemmas.Curve.curveSum_drop (spanPiece knots' u sb (order - 1)) (k0 + 1) cps' 0
+    (fun i _ hi => spanPiece_vanish _ _ _ _ _ (Or.inr (by omega))), Lemmas.Curve.curveSum_shift]
+  congr 1
+  funext i
+  by_cases hi : sa < i
+  · rw [spanPiece_vanish _ _ _ _ _ (Or.inl hi), spanPiece_vanish _ _ _ _ _ (Or.inl (by omega))]
+  · rw [Lemmas.Curve.spanPiece_eq_cdbF, Lemmas.Curve.spanPiece_eq_cdbF, ← hab,
+      ← Lemmas.Curve.cdbF_shift (kget knots') u sa (k0 + 1) (order - 1) i,
+      ← Lemmas.Curve.cdbF_affine (fun j => kget knots' (j + (k0 + 1))) u t (knots.getLastD 0 - t) hb0]
+    apply Lemmas.Curve.cdbF_congr
+    intro j _ hj2
+    exact hKn j (by omega)
+
+/-- … and the first half AT THE CUT: `point(t)` of the first spline (its domain end, where `find_span` walks back over the
+    `order`-fold knot `t`) is the point `C(t)` of the original curve, when interior knots have multiplicity at most the
+    degree (continuity of the original at `t`) and `t` is not the start of the domain.  Proof: both sides are polynomial
+    pieces that agree on the whole knot interval left of `t` (`split_bspline_preserves`), hence everywhere (identity
+    theorem for polynomials), in particular at `t` itself; so `split` reproduces the curve on `[U[p], t]` and `[t, U[count]]` -/
+theorem split_bspline_first_half_cut (knots : List Rat) (cps : List V3) (order : Nat) (t : Rat)
+    (s1 s2 : List V3 × List Rat)
+    (hsort : nondecreasing knots = true) (ho : 1 ≤ order) (hoc : order ≤ cps.length)
+    (hl : knots.length = order + cps.length) (h0 : kget knots 0 = 0) (hmult : multLeDegree knots order = true)
+    (hpt : kget knots (order - 1) < t) (ht : t < kget knots cps.length)
+    (h : splitBSpline knots cps order t = .ok (s1, s2)) :
+    evalPoint s1.2 [] s1.1 order t = evalPoint knots [] cps order t := by
+  have hfirst : ∀ u, kget knots (order - 1) ≤ u → u < t → evalPoint s1.2 [] s1.1 order u = evalPoint knots [] cps order u :=
+    fun u h1 h2 => (split_bspline_preserves knots cps order t u s1 s2 hsort ho hoc hl h0 ht h).1 h1 h2
+  have hm := multLeDegree_spec knots order hmult
+  unfold splitBSpline at h
+  simp only at h
+  split at h
+  · exact absurd h (by simp)
+  rename_i htol1
+  split at h
+  · exact absurd h (by simp)
+  rename_i htol2
+  split at h
+  · exact absurd h (by simp)
+  · exact absurd h (by simp)
+  rename_i cps' knots' href
+  split at h
+  · exact absurd h (by simp)
+  rename_i r1 hm1
+  split at h
+  · exact absurd h (by simp)
+  rename_i r2 hm2
+  simp only [Except.ok.injEq, Prod.mk.injEq] at h
+  obtain ⟨rfl, rfl⟩ := h
+  obtain ⟨k0, hk0p, hk0c, hb1, hb2⟩ : ∃ k0, order - 1 ≤ k0 ∧ k0 < cps.length ∧ kget knots k0 ≤ t ∧ t < kget knots (k0 + 1) := by
+    have hr := href
+    have e : List.replicate order t = t :: List.replicate (order - 1) t := by
+      have : order = (order - 1) + 1 := by omega
+      rw [this, List.replicate_succ]; simp
+    rw [e] at hr
+    simp only [knotRefinement] at hr
+    split at hr
+    · rename_i c1 k1 h1
+      obtain ⟨k, qs, hfs, hpk, _, _, _⟩ := insertKnot_ok knots cps order t c1 k1 h1
+      obtain ⟨hkc, hkt, htk⟩ := findSpan_result_lt knots order cps.length t k hsort ho hoc hl ht hfs hpk
+      exact ⟨k, hpk, hkc, hkt, htk⟩
+    · exact absurd hr (by simp)
+  have hdom : kget knots (order - 1) < kget knots cps.length := lt_trans hpt ht
+  have hshape := refine_replicate order t ho order knots cps cps' knots' k0 hsort hoc hl hdom ht hb1 hb2 (by omega) href
+  have hts : ∀ t' ∈ List.replicate order t, t' ≤ kget knots cps.length :=
+    fun t' ht' => by rw [List.eq_of_mem_replicate ht']; exact le_of_lt ht
+  obtain ⟨hsort', hcl', hkl', hdlo', hdhi', _⟩ :=
+    knot_refinement_preserves order _ ho (List.replicate order t) knots cps cps' knots' hsort hoc hl hts href (le_refl _) hdom
+  simp only [List.length_replicate] at hcl'
+  have hlt : (knots.take (k0 + 1)).length = k0 + 1 := by simp; omega
+  have hK1 : ∀ j, j ≤ k0 → kget knots' j = kget knots j := by
+    intro j hj
+    rw [hshape, List.append_assoc, Lemmas.Curve.kget_eq, List.getElem?_append_left (by rw [hlt]; omega),
+      ← Lemmas.Curve.kget_eq, Lemmas.Curve.kget_take _ _ _ (by omega)]
+  have hK2 : ∀ j, k0 + 1 ≤ j → j ≤ k0 + order → kget knots' j = t := by
+    intro j hj1 hj2
+    rw [hshape, List.append_assoc, Lemmas.Curve.kget_eq, List.getElem?_append_right (by rw [hlt]; omega), hlt,
+      List.getElem?_append_left (by simp; omega), List.getElem?_replicate, if_pos (by omega)]
+    rfl
+  have hK3 : ∀ j, k0 + order + 1 ≤ j → kget knots' j = kget knots (j - order) := by
+    intro j hj
+    rw [hshape, List.append_assoc, Lemmas.Curve.kget_eq, List.getElem?_append_right (by rw [hlt]; omega), hlt,
+      List.getElem?_append_right (by simp; omega), List.length_replicate, List.getElem?_drop, ← Lemmas.Curve.kget_eq]
+    congr 1; omega
+  have hspan : bisectRight knots' t 0 knots'.length = k0 + order + 1 := by
+    obtain ⟨b1, b2, b3, b4⟩ := bisectRight_spec knots' t 0 knots'.length hsort' (by omega) (le_refl _)
+    generalize bisectRight knots' t 0 knots'.length = r at *
+    by_contra hne
+    rcases Nat.lt_or_gt_of_ne hne with hlt' | hgt'
+    · have := b4 (k0 + order) (by omega) (by omega)
+      rw [hK2 (k0 + order) (by omega) (le_refl _)] at this
+      exact lt_irrefl _ this
+    · have := b3 (k0 + order + 1) (by omega) hgt'
+      rw [hK3 _ (le_refl _)] at this
+      have e : k0 + order + 1 - order = k0 + 1 := by omega
+      rw [e] at this
+      linarith
+  rw [hspan] at hm1 hm2
+  have e_idx : k0 + order + 1 - order = k0 + 1 := by omega
+  rw [e_idx] at hm1 hm2
+  obtain ⟨m11, m12, m13, m14⟩ := mkBSpline_ok _ _ _ _ hm1
+  have hk10 : kget (knots'.take (k0 + order + 1)) 0 = 0 := by
+    rw [Lemmas.Curve.kget_take _ _ _ (by omega), hK1 0 (by omega), h0]
+  rw [if_neg (by rw [hk10]; simp)] at m14
+  rw [m13, m14] at hfirst ⊢
+  have hs1 := Lemmas.Curve.nd_take knots' (k0 + order + 1) hsort'
+  have hl1 : (knots'.take (k0 + order + 1)).length = order + (cps'.take (k0 + 1)).length := by
+    simp only [List.length_take]; omega
+  have hc1 : (cps'.take (k0 + 1)).length = k0 + 1 := by simp only [List.length_take]; omega
+  have hKt : ∀ j, j < k0 + order + 1 → kget (knots'.take (k0 + order + 1)) j = kget knots' j :=
+    fun j hj => Lemmas.Curve.kget_take _ _ _ hj
+  -- the first half at its domain end t
+  obtain ⟨sa, a1, a2, a3, a4, a5⟩ := evalPoint_domain_end (knots'.take (k0 + order + 1)) (cps'.take (k0 + 1)) order t hs1 ho
+    (by omega) hl1
+    (by rw [hc1, hKt _ (by omega), hKt _ (by omega), hdlo', hK2 _ (by omega) (by omega)]; exact hpt)
+    (by rw [hc1, hKt _ (by omega), hK2 _ (by omega) (by omega)])
+  rw [hc1] at a2 a4
+  rw [hKt _ (by omega), hKt _ (by omega)] at a3
+  rw [hKt _ (by omega), hKt _ (by omega), hK2 (k0 + 1) (by omega) (by omega)] at a4
+  rw [hK1 sa (by omega)] at a3
+  -- the knot interval [K_sa, t) of the original
+  have hsa1 : t ≤ kget knots (sa + 1) := by
+    by_cases c : sa + 1 ≤ k0
+    · rw [← hK1 _ c, a4]
+    · have : sa = k0 := by omega
+      rw [this]; exact le_of_lt hb2
+  have hsat : kget knots sa < t := by rw [← a4]; exact a3
+  -- the original at t
+  obtain ⟨s0, hfs0, g1, g2, g3, g4⟩ := findSpan_spec_interior knots order cps.length t hsort ho hoc hl (le_of_lt hpt) ht
+  have hs0 : s0 = k0 := span_unique knots hsort t s0 k0 g3 g4 hb1 hb2 (by omega) (by omega)
+  rw [hs0] at hfs0
+  rw [a5, evalPoint_of_span knots cps order t k0 hfs0 hsort ho hk0p hk0c hl (lt_of_le_of_lt hb1 hb2)]
+  congr 1
+  -- equality of the two pieces on [K_sa, t), hence everywhere
+  have hint : ∀ u, kget knots sa ≤ u → u < t →
+      curveSum (fun j => Lemmas.Curve.cdbF (kget (knots'.take (k0 + order + 1))) u (Lemmas.Curve.delta sa) (order - 1) j) 0
+          (cps'.take (k0 + 1))
+        = curveSum (fun j => Lemmas.Curve.cdbF (kget knots) u (Lemmas.Curve.delta sa) (order - 1) j) 0 cps := by
+    intro u hu1 hu2
+    have hKpu : kget knots (order - 1) ≤ u := le_trans (nd_mono knots hsort _ _ a1 (by omega)) hu1
+    have hf := hfirst u hKpu hu2
+    obtain ⟨su, hfsu, u1, u2, u3, u4⟩ := findSpan_spec_interior (knots'.take (k0 + order + 1)) order
+      (cps'.take (k0 + 1)).length u hs1 ho (by omega) hl1
+      (by rw [hKt _ (by omega), hdlo']; exact hKpu)
+      (by rw [hc1, hKt _ (by omega), hK2 _ (by omega) (by omega)]; exact hu2)
+    rw [hc1] at u2
+    have hsu : su = sa := span_unique (knots'.take (k0 + order + 1)) hs1 u su sa u3 u4
+      (by rw [hKt _ (by omega), hK1 sa (by omega)]; exact hu1)
+      (by rw [hKt _ (by omega)]
+          by_cases c : sa + 1 ≤ k0
+          · rw [hK1 _ c, ← hK1 _ c, a4]; exact hu2
+          · have : sa = k0 := by omega
+            rw [this, hK2 _ (by omega) (by omega)]; exact hu2)
+      (by rw [List.length_take]; omega) (by rw [List.length_take]; omega)
+    subst hsu
+    obtain ⟨so, hfso, o1, o2, o3, o4⟩ := findSpan_spec_interior knots order cps.length u hsort ho hoc hl hKpu (lt_trans hu2 ht)
+    have hso : so = su := span_unique knots hsort u so su o3 o4 hu1 (lt_of_lt_of_le hu2 hsa1) (by omega) (by omega)
+    subst hso
+    rw [evalPoint_of_span _ _ order u so hfsu hs1 ho u1 (by omega) hl1 (lt_of_le_of_lt u3 u4),
+      evalPoint_of_span knots cps order u so hfso hsort ho o1 o2 hl (lt_of_le_of_lt o3 o4)] at hf
+    have hf' := Option.some.inj hf
+    have e1 : spanPiece (knots'.take (k0 + order + 1)) u so (order - 1)
+        = fun j => Lemmas.Curve.cdbF (kget (knots'.take (k0 + order + 1))) u (Lemmas.Curve.delta so) (order - 1) j :=
+      funext (fun j => Lemmas.Curve.spanPiece_eq_cdbF _ _ _ _ _)
+    have e2 : spanPiece knots u so (order - 1)
+        = fun j => Lemmas.Curve.cdbF (kget knots) u (Lemmas.Curve.delta so) (order - 1) j :=
+      funext (fun j => Lemmas.Curve.spanPiece_eq_cdbF _ _ _ _ _)
+    rw [e1, e2] at hf'
+    exact hf'
+  have hall := Lemmas.Curve.pieces_eq_of_interval _ _ sa sa (order - 1) _ _ (kget knots sa) t hsat hint t
+  have e1 : spanPiece (knots'.take (k0 + order + 1)) t sa (order - 1)
+      = fun j => Lemmas.Curve.cdbF (kget (knots'.take (k0 + order + 1))) t (Lemmas.Curve.delta sa) (order - 1) j :=
+    funext (fun j => Lemmas.Curve.spanPiece_eq_cdbF _ _ _ _ _)
+  rw [e1, hall]
+  -- the piece left of t and the piece right of t agree at t (continuity of the original)
+  rcases Nat.lt_or_ge sa k0 with hlt' | hge
+  · have e0 : kget knots (sa + 1) = t := by rw [← hK1 _ (by omega), a4]
+    have e0' : kget knots k0 = t := le_antisymm hb1 (by rw [← e0]; exact nd_mono knots hsort _ _ (by omega) (by omega))
+    have hmu : k0 - sa ≤ order - 1 := by
+      by_contra hc
+      have b1 := hm (sa + 1) (by omega) (by omega)
+      have b2 := nd_mono knots hsort (sa + 1 + (order - 1)) k0 (by omega) (by omega)
+      linarith
+    have := funext (fun i => pieces_agree knots t sa k0 (order - 1) hsort hlt' (by rw [e0]; exact hsat)
+      (lt_of_le_of_lt hb1 hb2) e0 e0' hmu (by omega) i)
+    have e2 : (fun j => Lemmas.Curve.cdbF (kget knots) t (Lemmas.Curve.delta sa) (order - 1) j)
+        = spanPiece knots t sa (order - 1) := funext (fun j => (Lemmas.Curve.spanPiece_eq_cdbF _ _ _ _ _).symm)
+    rw [e2, this]
+  · have : sa = k0 := by omega
+    subst this
+    congr 1
+    funext j
+    exact (Lemmas.Curve.spanPiece_eq_cdbF _ _ _ _ _).symm
+
+/-! ## 6f. B-spline ↔ Bézier: Bézier knots, `bezier_to_bspline` -/
+
+/-- **a B-spline is a Bézier curve between two knots of multiplicity `degree`**: if the `p` knots up to `U[s]` equal `a`
+    and the `p` knots from `U[s+1]` on equal `b > a`, then on `[a, b)` `Evaluator.point(u)` is the Bernstein form (what
+    `Bezier.point`, `Bezier4P.point`, `Bezier3P.point` evaluate) of the control points `P[s-p] … P[s]` at
+    `(u − a)/(b − a)` — every degree.  (Instances: every segment of a `bezier_to_bspline` result, both halves of a
+    `split`, the result of full knot refinement which `bezier_decomposition` emits, open uniform splines with
+    `count = order`.) -/
+theorem bspline_bezier_segment (knots : List Rat) (cps : List V3) (order s : Nat) (a b u : Rat)
+    (hsort : nondecreasing knots = true) (ho : 1 ≤ order) (hoc : order ≤ cps.length)
+    (hl : knots.length = order + cps.length) (hp : order - 1 ≤ s) (hsc : s < cps.length)
+    (hks : kget knots s = a) (hks1 : kget knots (s + 1) = b)
+    (hK : ∀ j, 1 ≤ j → j ≤ order - 1 → kget knots (s + 1 - j) = a ∧ kget knots (s + j) = b)
+    (hab : a < b) (hlo : a ≤ u) (hhi : u < b) :
+    evalPoint knots [] cps order u
+      = some (bernsteinCurve ((cps.drop (s + 1 - order)).take order) ((u - a) / (b - a))) := by
+  have hKp : kget knots (order - 1) ≤ u := le_trans (by rw [← hks]; exact nd_mono knots hsort _ _ hp (by omega)) hlo
+  have hKc : u < kget knots cps.length :=
+    lt_of_lt_of_le hhi (by rw [← hks1]; exact nd_mono knots hsort _ _ (by omega) (by omega))
+  obtain ⟨s0, hfs, g1, g2, g3, g4⟩ := findSpan_spec_interior knots order cps.length u hsort ho hoc hl hKp hKc
+  have hss : s0 = s := span_unique knots hsort u s0 s g3 g4 (by rw [hks]; exact hlo) (by rw [hks1]; exact hhi)
+    (by omega) (by omega)
+  subst hss
+  rw [evalPoint_of_span knots cps order u s0 hfs hsort ho g1 g2 hl (lt_of_le_of_lt g3 g4)]
+  congr 1
+  rw [← curveSum_of_window (spanPiece knots u s0 (order - 1)) cps order s0 ho hp
+    (fun i hi => spanPiece_vanish knots u s0 _ i hi)]
+  have hlen : ((cps.drop (s0 + 1 - order)).take order).length = order := by
+    simp only [List.length_take, List.length_drop]; omega
+  simp only [bernsteinCurve, hlen, Lemmas.Curve.bernsteinSum_eq_curveSum]
+  have hg : ∀ i, order ≤ i → bernstein (order - 1) i ((u - a) / (b - a)) = 0 := by
+    intro i hi
+    simp [bernstein, Lemmas.Curve.choose_zero_of_lt (order - 1) i (by omega)]
+  rw [Lemmas.Curve.curveSum_take _ order _ 0 (fun i hi => hg i (by omega)),
+    curveSum_window _ order 0 _ (fun i hi => hg i (by omega)), List.range_eq_range']
+  congr 1
+  apply List.map_congr_left
+  intro r hr
+  have hr' : r < order := by
+    have := List.mem_range'_1.mp hr; omega
+  rw [Lemmas.Curve.spanPiece_eq_cdbF]
+  exact Lemmas.Curve.cdbF_bezier_knots (kget knots) a b u s0 (ne_of_gt (by linarith)) (order - 1) hp hK r (by omega)
+
+private theorem openUniform_kget (count order : Nat) (normalize : Bool) (hoc : order ≤ count) (j : Nat)
+    (hj : j < count + order) :
+    kget (openUniformKnots count order normalize) j =
+      if j < order then 0
+      else if j < count then (1 + ((j - order : Nat) : Rat)) / (if normalize then ((count - order + 1 : Nat) : Rat) else 1)
+      else (if normalize then 1 else 1 + ((count - order : Nat) : Rat)) := by
+  simp only [openUniformKnots]
+  rw [Lemmas.Curve.kget_eq, List.getElem?_append, List.length_append, List.length_replicate, List.length_map,
+    List.length_range]
+  by_cases h1 : j < order
+  · rw [if_pos (by omega), if_pos h1, List.getElem?_append_left (by simp; omega), List.getElem?_replicate, if_pos h1]; rfl
+  · rw [if_neg h1]
+    by_cases h2 : j < count
+    · rw [if_pos (by omega), if_pos h2, List.getElem?_append_right (by simp; omega), List.length_replicate,
+        List.getElem?_map, List.getElem?_range (by omega)]
+      rfl
+    · rw [if_neg (by omega), if_neg h2, List.getElem?_replicate, if_pos (by omega)]; rfl
+
+/-- the knots `BSpline.__init__` builds when none are given (`open_uniform_knot_vector`, both `normalize` settings) are in
+    the class of the theorems above: right length, nondecreasing, start at 0, clamped at both ends, non-degenerate
+    domain -/
+theorem open_uniform_knots_wellformed (count order : Nat) (normalize : Bool) (ho : 1 ≤ order) (hoc : order ≤ count) :
+    (openUniformKnots count order normalize).length = order + count ∧
+    nondecreasing (openUniformKnots count order normalize) = true ∧
+    (∀ j, j < order → kget (openUniformKnots count order normalize) j = 0) ∧
+    (∀ j, count ≤ j → j < count + order →
+      kget (openUniformKnots count order normalize) j = kget (openUniformKnots count order normalize) count) ∧
+    kget (openUniformKnots count order normalize) (order - 1) < kget (openUniformKnots count order normalize) count := by
+  have hlen : (openUniformKnots count order normalize).length = order + count := by
+    simp only [openUniformKnots, List.length_append, List.length_replicate, List.length_map, List.length_range]; omega
+  have hg := openUniform_kget count order normalize hoc
+  have hmaxpos : (0 : Rat) < (if normalize then ((count - order + 1 : Nat) : Rat) else 1) := by
+    split
+    · exact_mod_cast Nat.succ_pos _
+    · norm_num
+  have htail : ∀ v : Nat, v < count - order →
+      (1 + (v : Rat)) / (if normalize then ((count - order + 1 : Nat) : Rat) else 1)
+        ≤ (if normalize then 1 else 1 + ((count - order : Nat) : Rat)) := by
+    intro v hv
+    have hv' : (v : Rat) + 1 ≤ ((count - order : Nat) : Rat) := by exact_mod_cast hv
+    cases normalize with
+    | true =>
+      simp only [if_true]
+      rw [div_le_iff₀ (by exact_mod_cast Nat.succ_pos _)]
+      push_cast; linarith
+    | false =>
+      simp only [Bool.false_eq_true, if_false, div_one]; linarith
+  refine ⟨hlen, ?_, ?_, ?_, ?_⟩
+  · apply Lemmas.Curve.nd_of_step
+    intro i hi
+    rw [hlen] at hi
+    rw [hg i (by omega), hg (i + 1) (by omega)]
+    by_cases c1 : i + 1 < order
+    · rw [if_pos (by omega), if_pos c1]
+    · rw [if_neg c1]
+      by_cases c0 : i < order
+      · rw [if_pos c0]
+        by_cases c2 : i + 1 < count
+        · rw [if_pos c2]
+          apply div_nonneg _ (le_of_lt hmaxpos)
+          have : (0 : Rat) ≤ ((i + 1 - order : Nat) : Rat) := Nat.cast_nonneg _
+          linarith
+        · rw [if_neg c2]
+          split
+          · norm_num
+          · have : (0 : Rat) ≤ ((count - order : Nat) : Rat) := Nat.cast_nonneg _
+            linarith
+      · rw [if_neg c0]
+        by_cases c2 : i + 1 < count
+        · rw [if_pos (by omega), if_pos c2]
+          apply div_le_div_of_nonneg_right _ (le_of_lt hmaxpos)
+          have : ((i - order : Nat) : Rat) ≤ ((i + 1 - order : Nat) : Rat) := by exact_mod_cast (by omega : i - order ≤ i + 1 - order)
+          linarith
+        · rw [if_neg c2]
+          by_cases c3 : i < count
+          · rw [if_pos c3]
+            exact htail (i - order) (by omega)
+          · rw [if_neg c3]
+  · intro j hj
+    rw [hg j (by omega), if_pos hj]
+  · intro j h1 h2
+    rw [hg j h2, hg count (by omega), if_neg (by omega : ¬ j < order), if_neg (by omega : ¬ j < count),
+      if_neg (by omega : ¬ count < order), if_neg (by omega : ¬ count < count)]
+  · rw [hg (order - 1) (by omega), hg count (by omega), if_pos (by omega : order - 1 < order),
+      if_neg (by omega : ¬ count < order), if_neg (by omega : ¬ count < count)]
+    split
+    · norm_num
+    · have : (0 : Rat) ≤ ((count - order : Nat) : Rat) := Nat.cast_nonneg _
+      linarith
+
+/-- **a default B-spline with `count = order` IS the Bézier curve of its control points** (any degree): with the knots of
+    `open_uniform_knot_vector(order, order)` = `[0]*order + [1]*order`, `Evaluator.point(u)` is the Bernstein form that
+    `Bezier.point(u)` evaluates, for every `u` in `[0, 1)` -/
+theorem default_bspline_is_bezier (cps : List V3) (normalize : Bool) (u : Rat) (ho : 1 ≤ cps.length)
+    (hlo : 0 ≤ u) (hhi : u < 1) :
+    evalPoint (openUniformKnots cps.length cps.length normalize) [] cps cps.length u = some (bernsteinCurve cps u) := by
+  obtain ⟨w1, w2, w3, w4, w5⟩ := open_uniform_knots_wellformed cps.length cps.length normalize ho (le_refl _)
+  have hg := openUniform_kget cps.length cps.length normalize (le_refl _)
+  have hone : ∀ j, cps.length ≤ j → j < cps.length + cps.length →
+      kget (openUniformKnots cps.length cps.length normalize) j = 1 := by
+    intro j h1 h2
+    rw [hg j h2, if_neg (by omega : ¬ j < cps.length), if_neg (by omega : ¬ j < cps.length)]
+    split
+    · rfl
+    · simp
+  have h := bspline_bezier_segment (openUniformKnots cps.length cps.length normalize) cps cps.length (cps.length - 1) 0 1 u
+    w2 ho (le_refl _) w1 (le_refl _) (by omega) (w3 _ (by omega))
+    (by rw [show cps.length - 1 + 1 = cps.length by omega]; exact hone _ (le_refl _) (by omega))
+    (fun j h1 h2 => ⟨w3 _ (by omega), hone _ (by omega) (by omega)⟩) (by norm_num) hlo hhi
+  rw [h]
+  have e1 : cps.length - 1 + 1 - cps.length = 0 := by omega
+  rw [e1, List.drop_zero, List.take_length]
+  simp
+
+/-- `quadratic_to_cubic_bezier`: the cubic curve through which `bezier_to_bspline` sends a quadratic one is the same
+    curve -/
+theorem quad_to_cubic_same_curve (c : Bez3) (t : Rat) : (quadToCubic c).point t = c.point t := by
+  apply v3ext <;> simp only [quadToCubic, Bez4.point, Bez3.point, bez4PointK, bez3PointK, V3.add, V3.scale, V3.sub] <;> ring
+
+private theorem flat3_length (f : Nat → Rat) : ∀ (m a : Nat),
+    ((List.range' a m).flatMap (fun (k : Nat) => [f k, f k, f k])).length = 3 * m
+  | 0, _ => rfl
+  | m + 1, a => by
+    rw [List.range'_succ, List.flatMap_cons, List.length_append, flat3_length f m (a + 1)]; simp; omega
+
+private theorem flat3_kget (f : Nat → Rat) : ∀ (m a j : Nat), j < 3 * m →
+    kget ((List.range' a m).flatMap (fun (k : Nat) => [f k, f k, f k])) j = f (a + j / 3)
+  | 0, _, j, h => by omega
+  | m + 1, a, j, h => by
+    rw [List.range'_succ, List.flatMap_cons]
+    match j with
+    | 0 => rfl
+    | 1 => rfl
+    | 2 => rfl
+    | j + 3 =>
+      show kget ((List.range' (a + 1) m).flatMap (fun (k : Nat) => [f k, f k, f k])) j = _
+      rw [flat3_kget f m (a + 1) j (by omega)]
+      congr 1; omega
+
+private theorem bezKnots_kget (n : Nat) (hn : 1 ≤ n) (j : Nat) (hj : j < 3 * n + 5) :
+    kget (bezierToBSplineKnots n) j = ((min n ((j - 1) / 3) : Nat) : Rat) := by
+  simp only [bezierToBSplineKnots]
+  have hlm := flat3_length (fun k => (k : Rat)) (n - 1) 1
+  rw [Lemmas.Curve.kget_eq, List.getElem?_append, List.length_append, hlm]
+  by_cases h1 : j < 4
+  · rw [if_pos (by simp; omega), List.getElem?_append_left (by simp; omega)]
+    have : min n ((j - 1) / 3) = 0 := by omega
+    rw [this]
+    match j, h1 with
+    | 0, _ => rfl
+    | 1, _ => rfl
+    | 2, _ => rfl
+    | 3, _ => rfl
+  · by_cases h2 : j < 4 + 3 * (n - 1)
+    · rw [if_pos (by simp; omega), List.getElem?_append_right (by simp; omega), ← Lemmas.Curve.kget_eq]
+      simp only [List.length_cons, List.length_nil]
+      rw [flat3_kget (fun k => (k : Rat)) (n - 1) 1 (j - 4) (by omega)]
+      have : min n ((j - 1) / 3) = 1 + (j - 4) / 3 := by omega
+      rw [this]
+    · rw [if_neg (by simp; omega)]
+      have : min n ((j - 1) / 3) = n := by omega
+      rw [this]
+      simp only [List.length_cons, List.length_nil]
+      have hj' : j - (0 + 1 + 1 + 1 + 1 + 3 * (n - 1)) < 4 := by omega
+      match j - (0 + 1 + 1 + 1 + 1 + 3 * (n - 1)), hj' with
+      | 0, _ => rfl
+      | 1, _ => rfl
+      | 2, _ => rfl
+      | 3, _ => rfl
+
+private def cpsOf : List Bez4 → List V3
+  | [] => []
+  | c :: rest => [c.p0, c.p1, c.p2, c.p3] ++ rest.flatMap (fun d => [d.p1, d.p2, d.p3])
+
+private theorem cpsOf_length : ∀ (l : List Bez4), l ≠ [] → (cpsOf l).length = 3 * l.length + 1
+  | [], h => absurd rfl h
+  | [c], _ => rfl
+  | c :: d :: r, _ => by
+    have := cpsOf_length (d :: r) (by simp)
+    simp only [cpsOf, List.flatMap_cons, List.length_append, List.length_cons, List.length_nil] at this ⊢
+    omega
+
+private theorem cpsOf_drop : ∀ (k : Nat) (l : List Bez4), seamless l = true → k < l.length →
+    (cpsOf l).drop (3 * k) = cpsOf (l.drop k)
+  | 0, _, _, _ => by simp
+  | k + 1, [], _, h => by simp at h
+  | k + 1, [c], _, h => by simp at h
+  | k + 1, c :: d :: r, hs, h => by
+    simp only [seamless, Bool.and_eq_true, decide_eq_true_eq] at hs
+    have ih := cpsOf_drop k (d :: r) hs.2 (by simpa using h)
+    have e : 3 * (k + 1) = 3 * k + 3 := by omega
+    rw [e, ← List.drop_drop]
+    have : (cpsOf (c :: d :: r)).drop 3 = cpsOf (d :: r) := by
+      simp only [cpsOf, List.flatMap_cons]
+      rw [← hs.1]
+      rfl
+    rw [List.drop_succ_cons]
+    rw [← ih]
+    rw [← this, List.drop_drop, List.drop_drop]
+    congr 1; omega
+
+/-- **`bezier_to_bspline`**: for curves lined up seamlessly the cubic B-spline it builds (knots `0,0,0,0,1,1,1,…,n,n,n,n`)
+    IS the chain of Bézier curves: on `[k, k+1)` it evaluates to `curves[k].point(u − k)` (the class `Bezier4P`, offset
+    trick and kernels included), any number of curves -/
+theorem bezier_to_bspline_segments (curves : List Bez4) (cps : List V3) (knots : List Rat)
+    (h : bezierToBSpline curves = some (cps, knots)) (hs : seamless curves = true)
+    (k : Nat) (c : Bez4) (hk : curves[k]? = some c) (x : Rat) (hx0 : 0 ≤ x) (hx1 : x < 1) :
+    nondecreasing knots = true ∧ knots.length = 4 + cps.length ∧
+    evalPoint knots [] cps 4 ((k : Rat) + x) = some (c.point x) := by
+  have hkl : k < curves.length := by
+    by_contra hc
+    rw [List.getElem?_eq_none (not_lt.mp hc)] at hk
+    exact absurd hk (by simp)
+  cases curves with
+  | nil => simp at hkl
+  | cons c0 rest =>
+    simp only [bezierToBSpline, Option.some.injEq, Prod.mk.injEq] at h
+    obtain ⟨hcps, hknots⟩ := h
+    have hcps' : cps = cpsOf (c0 :: rest) := hcps.symm
+    have hn : (c0 :: rest).length = rest.length + 1 := rfl
+    have hcl : cps.length = 3 * (rest.length + 1) + 1 := by rw [hcps', cpsOf_length _ (by simp)]; simp
+    have hkg := bezKnots_kget (rest.length + 1) (by omega)
+    rw [hknots] at hkg
+    have hklen : knots.length = 3 * (rest.length + 1) + 5 := by
+      rw [← hknots]
+      simp only [bezierToBSplineKnots, List.length_append, flat3_length, List.length_cons, List.length_nil]
+      omega
+    have hsort : nondecreasing knots = true := by
+      apply Lemmas.Curve.nd_of_step
+      intro i hi
+      rw [hkg i (by omega), hkg (i + 1) (by omega)]
+      have : min (rest.length + 1) ((i - 1) / 3) ≤ min (rest.length + 1) ((i + 1 - 1) / 3) := by omega
+      exact_mod_cast this
+    refine ⟨hsort, by omega, ?_⟩
+    rw [hn] at hkl
+    have kv : ∀ j, 3 * k + 1 ≤ j → j ≤ 3 * k + 3 → kget knots j = (k : Rat) := by
+      intro j h1 h2
+      rw [hkg j (by omega)]
+      have : min (rest.length + 1) ((j - 1) / 3) = k := by omega
+      rw [this]
+    have kv1 : ∀ j, 3 * k + 4 ≤ j → j ≤ 3 * k + 6 → kget knots j = (k : Rat) + 1 := by
+      intro j h1 h2
+      rw [hkg j (by omega)]
+      have : min (rest.length + 1) ((j - 1) / 3) = k + 1 := by omega
+      rw [this]; push_cast; ring
+    have hseg := bspline_bezier_segment knots cps 4 (3 * k + 3) (k : Rat) ((k : Rat) + 1) ((k : Rat) + x) hsort (by omega) (by omega)
+      (by omega) (by omega) (by omega) (kv _ (by omega) (by omega)) (kv1 _ (by omega) (by omega))
+      (fun j h1 h2 => ⟨kv _ (by omega) (by omega), kv1 _ (by omega) (by omega)⟩)
+      (by linarith) (by linarith) (by linarith)
+    rw [hseg]
+    have e1 : 3 * k + 3 + 1 - 4 = 3 * k := by omega
+    have e2 : ((k : Rat) + x - k) / ((k : Rat) + 1 - k) = x := by
+      have : (k : Rat) + 1 - k = 1 := by ring
+      rw [this]; ring
+    rw [e1, e2, hcps', cpsOf_drop k (c0 :: rest) hs (by simpa using hkl)]
+    -- the k-th curve heads the rest of the chain
+    have hd : (c0 :: rest).drop k = c :: (c0 :: rest).drop (k + 1) := by
+      have hlt : k < (c0 :: rest).length := by simpa using hkl
+      rw [List.drop_eq_getElem_cons hlt]
+      congr 1
+      have := List.getElem?_eq_getElem hlt
+      rw [hk] at this
+      exact (Option.some.inj this).symm
+    rw [hd]
+    have d : Bez3 := ⟨V3.zero, V3.zero, V3.zero⟩
+    rw [(bezier_point_bernstein c d x).1]
+    rfl
+
+/-! ## 6g. rational knot insertion (`BSpline._insert_knot_rational`): homogeneous coordinates -/
+
+private theorem combine_zipWith_mul : ∀ (N ws : List Rat) (pts : List V3),
+    combine (List.zipWith (· * ·) N ws) pts = combine N (List.zipWith (fun (v : V3) (w : Rat) => v.scale w) pts ws)
+  | [], _, _ => by simp [combine]
+  | _ :: _, [], pts => by cases pts <;> simp [combine]
+  | _ :: _, _ :: _, [] => by simp [combine]
+  | n :: ns, w :: ws, p :: ps => by
+    simp only [List.zipWith_cons_cons, combine, combine_zipWith_mul ns ws ps]
+    congr 1
+    apply v3ext <;> simp only [V3.scale] <;> ring
+
+private theorem zipWith_take_right {α β γ : Type} (f : α → β → γ) : ∀ (N : List α) (ws : List β) (m : Nat), N.length ≤ m →
+    List.zipWith f N (ws.take m) = List.zipWith f N ws
+  | [], _, _, _ => by simp
+  | _ :: _, [], _, _ => by simp
+  | _ :: _, _ :: _, 0, h => by simp at h
+  | n :: ns, w :: ws, m + 1, h => by
+    simp only [List.take_succ_cons, List.zipWith_cons_cons, zipWith_take_right f ns ws m (by simpa using h)]
+
+private theorem combine_embed_x : ∀ (N ws : List Rat),
+    (combine N (ws.map (fun w => (⟨w, 0, 0⟩ : V3)))).x = (List.zipWith (· * ·) N ws).sum
+  | [], _ => by simp [combine, V3.zero]
+  | _ :: _, [] => by simp [combine, V3.zero]
+  | n :: ns, w :: ws => by
+    simp only [List.map_cons, combine, List.zipWith_cons_cons, List.sum_cons, V3.add, V3.scale, combine_embed_x ns ws]
+    ring
+
+private theorem combine_x_congr : ∀ (N : List Rat) (a b : List V3), a.map (·.x) = b.map (·.x) →
+    (combine N a).x = (combine N b).x
+  | [], _, _, _ => by simp [combine]
+  | _ :: _, [], [], _ => rfl
+  | _ :: _, [], _ :: _, h => by simp at h
+  | _ :: _, _ :: _, [], h => by simp at h
+  | n :: ns, p :: ps, q :: qs, h => by
+    simp only [List.map_cons, List.cons.injEq] at h
+    simp only [combine, V3.add, V3.scale, h.1, combine_x_congr ns ps qs h.2]
+
+private theorem combine_zeros : ∀ (N : List Rat) (pts : List V3), combine (N.map (fun _ => (0 : Rat))) pts = V3.zero
+  | [], _ => by simp [combine]
+  | _ :: _, [] => by simp [combine]
+  | n :: ns, q :: qs => by
+    simp only [List.map_cons, combine, combine_zeros ns qs]
+    apply v3ext <;> simp [V3.add, V3.scale, V3.zero]
+
+/-- the rational evaluation through homogeneous coordinates: with `H_i = w_i·P_i` and the weights as a second, scalar
+    "curve", `point(u) = A(u) / B(u)` where `A`, `B` are the NON-rational evaluations of `H` and of the weights
+    (`B(u) = 0` → the null vector, the quirk of `span_weighting`) -/
+private theorem evalPoint_hom (knots weights : List Rat) (cps : List V3) (order : Nat) (u : Rat) (ho : 1 ≤ order)
+    (hw : weights ≠ []) (hwl : weights.length = cps.length) :
+    evalPoint knots weights cps order u =
+      (evalPoint knots [] (List.zipWith (fun (v : V3) (w : Rat) => v.scale w) cps weights) order u).bind (fun A =>
+        ((evalPoint knots [] (weights.map (fun w => (⟨w, 0, 0⟩ : V3))) order u).map (·.x)).map
+          (fun bx => if bx = 0 then V3.zero else A.scale (1 / bx))) := by
+  have hne : weights.isEmpty = false := by cases weights <;> simp_all
+  have hHl : (List.zipWith (fun (v : V3) (w : Rat) => v.scale w) cps weights).length = cps.length := by
+    simp [hwl]
+  simp only [evalPoint, hHl, List.length_map, hwl]
+  split
+  · rename_i span hfs
+    simp only [basisFuncsW, List.isEmpty_nil, if_true, hne, Bool.false_eq_true, if_false]
+    cases hN : basisFuncs knots order span u with
+    | none => simp
+    | some N =>
+      have hNl := basis_length knots order span u N ho hN
+      simp only [Option.map_some, Option.bind_some, Option.some.injEq]
+      have hA : combine N ((List.zipWith (fun (v : V3) (w : Rat) => v.scale w) cps weights).drop (span + 1 - order))
+          = combine (List.zipWith (· * ·) N ((weights.drop (span + 1 - order)).take order)) (cps.drop (span + 1 - order)) := by
+        rw [zipWith_take_right _ N _ order (by omega), combine_zipWith_mul, List.drop_zipWith]
+      have hB : (combine N ((weights.map (fun w => (⟨w, 0, 0⟩ : V3))).drop (span + 1 - order))).x
+          = (List.zipWith (· * ·) N ((weights.drop (span + 1 - order)).take order)).sum := by
+        rw [zipWith_take_right _ N _ order (by omega), ← List.map_drop, combine_embed_x]
+      rw [hA, hB]
+      simp only [spanWeighting]
+      by_cases hs : (List.zipWith (· * ·) N ((weights.drop (span + 1 - order)).take order)).sum = 0
+      · rw [if_pos hs, if_pos hs, combine_zeros]
+      · rw [if_neg hs, if_neg hs, combine_div]
+  · simp
+
+private theorem zipWith_unscale : ∀ (H : List V3) (ws : List Rat), (∀ w ∈ ws, w ≠ 0) →
+    List.zipWith (fun (v : V3) (w : Rat) => v.scale w) (List.zipWith (fun (h : V3) (w : Rat) => h.scale (1 / w)) H ws) ws
+      = List.zipWith (fun (h : V3) (_ : Rat) => h) H ws
+  | [], _, _ => by simp
+  | _ :: _, [], _ => by simp
+  | h :: hs, w :: ws, hnz => by
+    simp only [List.zipWith_cons_cons, zipWith_unscale hs ws (fun w' hw' => hnz w' (by simp [hw']))]
+    congr 1
+    have hw0 : w ≠ 0 := hnz w (by simp)
+    apply v3ext <;> simp only [V3.scale] <;> field_simp
+
+private theorem zipWith_fst {α β : Type} : ∀ (H : List α) (ws : List β), H.length = ws.length →
+    List.zipWith (fun (h : α) (_ : β) => h) H ws = H
+  | [], [], _ => rfl
+  | [], _ :: _, h => by simp at h
+  | _ :: _, [], h => by simp at h
+  | a :: as, _ :: bs, h => by
+    simp only [List.zipWith_cons_cons, zipWith_fst as bs (by simpa using h)]
+
+private theorem evalPoint_x_congr (knots : List Rat) (a b : List V3) (order : Nat) (u : Rat)
+    (h : a.map (·.x) = b.map (·.x)) :
+    (evalPoint knots [] a order u).map (·.x) = (evalPoint knots [] b order u).map (·.x) := by
+  have hl : a.length = b.length := by
+    have := congrArg List.length h
+    simpa using this
+  simp only [evalPoint, hl]
+  split
+  · rename_i span _
+    simp only [basisFuncsW, List.isEmpty_nil, if_true]
+    cases basisFuncs knots order span u with
+    | none => rfl
+    | some N =>
+      simp only [Option.map_some, Option.some.injEq]
+      exact combine_x_congr N _ _ (by rw [List.map_drop, List.map_drop, h])
+  · rfl
+
+/-- **rational knot insertion**: `_insert_knot_rational` (Boehm on the homogeneous points, back through
+    `from_homogeneous_points`) does not change the NURBS curve: whenever it returns for a `t` up to the end of the
+    domain, `Evaluator.point` with the new control points, WEIGHTS and knots equals the old one for every `u` of the
+    domain — every degree, every nondecreasing knot vector, any weights (a new weight 0 raises instead) -/
+theorem insert_knot_rational_preserves (knots weights : List Rat) (cps : List V3) (order : Nat) (t u : Rat)
+    (cps' : List V3) (weights' knots' : List Rat)
+    (hsort : nondecreasing knots = true) (ho : 1 ≤ order) (hoc : order ≤ cps.length)
+    (hl : knots.length = order + cps.length) (hwl : weights.length = cps.length)
+    (ht : t ≤ kget knots cps.length)
+    (h : insertKnotRational knots weights cps order t = .ok (cps', weights', knots'))
+    (hlo : kget knots (order - 1) ≤ u) (hhi : u < kget knots cps.length) :
+    cps'.length = cps.length + 1 ∧ weights'.length = cps'.length ∧ knots'.length = order + cps'.length ∧
+    nondecreasing knots' = true ∧
+    evalPoint knots' weights' cps' order u = evalPoint knots weights cps order u := by
+  have hw : weights ≠ [] := by
+    intro h0; rw [h0] at hwl; simp at hwl; omega
+  have hHl : (List.zipWith (fun (v : V3) (w : Rat) => v.scale w) cps weights).length = cps.length := by simp [hwl]
+  have hWl : (weights.map (fun w => (⟨w, 0, 0⟩ : V3))).length = cps.length := by simp [hwl]
+  unfold insertKnotRational at h
+  simp only at h
+  split at h
+  · rename_i H' K' W' K2 hH hW
+    split at h
+    · exact absurd h (by simp)
+    · rename_i hnz
+      simp only [Except.ok.injEq, Prod.mk.injEq] at h
+      obtain ⟨rfl, rfl, rfl⟩ := h
+      obtain ⟨a1, a2, a3, a4, a5, a6⟩ := insert_knot_preserves knots _ order t u H' K' hsort ho (by omega) (by omega)
+        (by rw [hHl]; exact ht) hH (by exact hlo) (by rw [hHl]; exact hhi)
+      obtain ⟨k, _, hfs, _, _, _, hk1⟩ := insertKnot_ok _ _ _ _ _ _ hH
+      obtain ⟨k', _, hfs', _, _, _, hk2⟩ := insertKnot_ok _ _ _ _ _ _ hW
+      rw [hHl] at hfs; rw [hWl] at hfs'
+      have hkk : k' = k := by rw [hfs] at hfs'; exact_mod_cast hfs'.symm
+      subst hkk
+      have hK2 : K2 = K' := by rw [hk1, hk2]
+      subst hK2
+      obtain ⟨b1, b2, b3, b4, b5, b6⟩ := insert_knot_preserves knots _ order t u W' K2 hsort ho (by omega) (by omega)
+        (by rw [hWl]; exact ht) hW (by exact hlo) (by rw [hWl]; exact hhi)
+      rw [hHl] at a2; rw [hWl] at b2
+      have hnz' : ∀ w ∈ W'.map (·.x), w ≠ 0 := by
+        intro w hw' h0
+        apply hnz
+        simp only [List.any_eq_true, decide_eq_true_eq]
+        exact ⟨w, hw', h0⟩
+      have hcl : (List.zipWith (fun (h : V3) (w : Rat) => h.scale (1 / w)) H' (W'.map (·.x))).length = cps.length + 1 := by
+        simp [a2, b2]
+      refine ⟨hcl, by rw [hcl, List.length_map, b2], by rw [hcl]; omega, a1, ?_⟩
+      rw [evalPoint_hom K2 (W'.map (·.x)) _ order u ho (by
+          intro h0
+          have := congrArg List.length h0
+          simp [b2] at this) (by rw [hcl, List.length_map, b2]),
+        evalPoint_hom knots weights cps order u ho hw hwl]
+      rw [zipWith_unscale H' _ hnz', zipWith_fst H' _ (by simp [a2, b2]), a6]
+      have hx : (evalPoint K2 [] ((W'.map (·.x)).map (fun w => (⟨w, 0, 0⟩ : V3))) order u).map (·.x)
+          = (evalPoint K2 [] W' order u).map (·.x) :=
+        evalPoint_x_congr K2 _ _ order u (by simp [List.map_map, Function.comp])
+      rw [hx, b6]
+  · exact absurd h (by simp)
+  · exact absurd h (by simp)
+
+/-- **rational reversal**: `reverse()` of a NURBS curve (control points AND weights reversed) at the mirrored parameter
+    = the original at `u`, for every `u` of the closed domain, interior multiplicity <= degree (through the homogeneous
+    form: the numerator curve and the weight curve are both reversed non rational splines) -/
+theorem bspline_reverse_rational (knots weights : List Rat) (cps : List V3) (order : Nat) (u : Rat)
+    (hsort : nondecreasing knots = true) (ho : 1 ≤ order) (hoc : order ≤ cps.length)
+    (hl : knots.length = order + cps.length) (hwl : weights.length = cps.length)
+    (hmult : multLeDegree knots order = true)
+    (hdom : kget knots (order - 1) < kget knots cps.length)
+    (hlo : kget knots (order - 1) ≤ u) (hhi : u ≤ kget knots cps.length) :
+    evalPoint (reverseSpline knots weights cps).1 (reverseSpline knots weights cps).2.1 (reverseSpline knots weights cps).2.2
+        order (reverseParam knots u)
+      = evalPoint knots weights cps order u := by
+  have hw : weights ≠ [] := by
+    intro h0; rw [h0] at hwl; simp at hwl; omega
+  simp only [reverseSpline]
+  rw [evalPoint_hom _ weights.reverse cps.reverse order _ ho (by simpa using hw) (by simp [hwl]),
+    evalPoint_hom knots weights cps order u ho hw hwl]
+  have e1 : List.zipWith (fun (v : V3) (w : Rat) => v.scale w) cps.reverse weights.reverse
+      = (List.zipWith (fun (v : V3) (w : Rat) => v.scale w) cps weights).reverse :=
+    (List.reverse_zipWith (by omega)).symm
+  have e2 : weights.reverse.map (fun w => (⟨w, 0, 0⟩ : V3)) = (weights.map (fun w => (⟨w, 0, 0⟩ : V3))).reverse :=
+    List.map_reverse
+  rw [e1, e2]
+  have r1 := bspline_reverse knots (List.zipWith (fun (v : V3) (w : Rat) => v.scale w) cps weights) order u hsort ho
+    (by simp [hwl]; omega) (by simp [hwl]; omega) hmult (by simpa [hwl] using hdom) hlo (by simpa [hwl] using hhi)
+  have r2 := bspline_reverse knots (weights.map (fun w => (⟨w, 0, 0⟩ : V3))) order u hsort ho
+    (by simp [hwl]; omega) (by simp [hwl]; omega) hmult (by simpa [hwl] using hdom) hlo (by simpa [hwl] using hhi)
+  simp only [reverseSpline] at r1 r2
+  rw [r1, r2]
+
+/-- **rational knot refinement** (`knot_refinement` of a NURBS curve = iterated `_insert_knot_rational`): control points,
+    weights and knots of the result give the same point for every `u` of the domain; any number of new knots up to the
+    end of the domain -/
+theorem knot_refinement_rational_preserves (order : Nat) (u : Rat) (ho : 1 ≤ order) :
+    ∀ (ts : List Rat) (knots weights : List Rat) (cps : List V3) (cps' : List V3) (weights' knots' : List Rat),
+      nondecreasing knots = true → order ≤ cps.length → knots.length = order + cps.length →
+      weights.length = cps.length →
+      (∀ t ∈ ts, t ≤ kget knots cps.length) →
+      knotRefinementRational knots weights cps order ts = .ok (cps', weights', knots') →
+      kget knots (order - 1) ≤ u → u < kget knots cps.length →
+      cps'.length = cps.length + ts.length ∧ weights'.length = cps'.length ∧ knots'.length = order + cps'.length ∧
+      nondecreasing knots' = true ∧
+      evalPoint knots' weights' cps' order u = evalPoint knots weights cps order u
+  | [], knots, weights, cps, cps', weights', knots', hsort, _, hl, hwl, _, h, _, _ => by
+    simp only [knotRefinementRational, Except.ok.injEq, Prod.mk.injEq] at h
+    obtain ⟨rfl, rfl, rfl⟩ := h
+    exact ⟨rfl, hwl, hl, hsort, rfl⟩
+  | t :: ts, knots, weights, cps, cps', weights', knots', hsort, hoc, hl, hwl, hts, h, hlo, hhi => by
+    simp only [knotRefinementRational] at h
+    split at h
+    · rename_i c1 w1 k1 h1
+      obtain ⟨a1, a2, a3, a4, a5⟩ := insert_knot_rational_preserves knots weights cps order t u c1 w1 k1 hsort ho hoc hl hwl
+        (hts t (by simp)) h1 hlo hhi
+      -- the domain of the new spline (from the non rational insertion of the weight "curve")
+      have hdomk : kget k1 (order - 1) = kget knots (order - 1) ∧ kget k1 c1.length = kget knots cps.length := by
+        unfold insertKnotRational at h1
+        simp only at h1
+        split at h1
+        · rename_i H' K' W' K2 hH hW
+          split at h1
+          · exact absurd h1 (by simp)
+          · simp only [Except.ok.injEq, Prod.mk.injEq] at h1
+            obtain ⟨_, _, rfl⟩ := h1
+            have hHl : (List.zipWith (fun (v : V3) (w : Rat) => v.scale w) cps weights).length = cps.length := by simp [hwl]
+            obtain ⟨_, b2, _, b4, b5, _⟩ := insert_knot_preserves knots _ order t u H' K' hsort ho (by omega) (by omega)
+              (by rw [hHl]; exact hts t (by simp)) hH hlo (by rw [hHl]; exact hhi)
+            rw [hHl] at b2 b5
+            exact ⟨b4, by rw [a1, ← b2]; exact b5⟩
+        · exact absurd h1 (by simp)
+        · exact absurd h1 (by simp)
+      obtain ⟨b1, b2, b3, b4, b5⟩ := knot_refinement_rational_preserves order u ho ts k1 w1 c1 cps' weights' knots' a4
+        (by omega) a3 a2 (fun t' ht' => by rw [hdomk.2]; exact hts t' (by simp [ht'])) h
+        (by rw [hdomk.1]; exact hlo) (by rw [hdomk.2]; exact hhi)
+      exact ⟨by rw [b1, a1]; simp; omega, b2, b3, b4, by rw [b5, a5]⟩
+    · exact absurd h (by simp)
+
+/-! ### rational `split` -/
+
+/-- the first half, for ANY control polygon `Q` over refined knots of the shape `… ++ [t]*order ++ …` -/
+private theorem split_first_core (knots knots' : List Rat) (Q : List V3) (order k0 : Nat) (t u : Rat) (ho : 1 ≤ order)
+    (hsort' : nondecreasing knots' = true)
+    (hshape : knots' = knots.take (k0 + 1) ++ List.replicate order t ++ knots.drop (k0 + 1))
+    (hk0 : k0 + order < knots.length) (hk0p : order - 1 ≤ k0) (hkl' : knots'.length = order + Q.length)
+    (hb2 : t < kget knots (k0 + 1)) (hlo : kget knots' (order - 1) ≤ u) (hhi : u < t) :
+    evalPoint (knots'.take (k0 + order + 1)) [] (Q.take (k0 + 1)) order u = evalPoint knots' [] Q order u := by
+  have hlt : (knots.take (k0 + 1)).length = k0 + 1 := by simp; omega
+  have hlen' : knots'.length = knots.length + order := by
+    rw [hshape]; simp only [List.length_append, hlt, List.length_replicate, List.length_drop]; omega
+  have hK2 : ∀ j, k0 + 1 ≤ j → j ≤ k0 + order → kget knots' j = t := by
+    intro j hj1 hj2
+    rw [hshape, List.append_assoc, Lemmas.Curve.kget_eq, List.getElem?_append_right (by rw [hlt]; omega), hlt,
+      List.getElem?_append_left (by simp; omega), List.getElem?_replicate, if_pos (by omega)]
+    rfl
+  have hK3 : ∀ j, k0 + order + 1 ≤ j → kget knots' j = kget knots (j - order) := by
+    intro j hj
+    rw [hshape, List.append_assoc, Lemmas.Curve.kget_eq, List.getElem?_append_right (by rw [hlt]; omega), hlt,
+      List.getElem?_append_right (by simp; omega), List.length_replicate, List.getElem?_drop, ← Lemmas.Curve.kget_eq]
+    congr 1; omega
+  have hs1 := Lemmas.Curve.nd_take knots' (k0 + order + 1) hsort'
+  have hl1 : (knots'.take (k0 + order + 1)).length = order + (Q.take (k0 + 1)).length := by
+    simp only [List.length_take]; omega
+  have hc1 : (Q.take (k0 + 1)).length = k0 + 1 := by simp only [List.length_take]; omega
+  have hKt : ∀ j, j < k0 + order + 1 → kget (knots'.take (k0 + order + 1)) j = kget knots' j :=
+    fun j hj => Lemmas.Curve.kget_take _ _ _ hj
+  have hend : u < kget knots' Q.length := by
+    have h1 := nd_mono knots' hsort' (k0 + order + 1) Q.length (by omega) (by omega)
+    rw [hK3 _ (le_refl _)] at h1
+    have e : k0 + order + 1 - order = k0 + 1 := by omega
+    rw [e] at h1
+    linarith
+  obtain ⟨sa, hfa, ha1, ha2, ha3, ha4⟩ := findSpan_spec_interior (knots'.take (k0 + order + 1)) order
+    (Q.take (k0 + 1)).length u hs1 ho (by omega) hl1
+    (by rw [hKt _ (by omega)]; exact hlo)
+    (by rw [hc1, hKt _ (by omega), hK2 _ (by omega) (by omega)]; exact hhi)
+  obtain ⟨sb, hfb, hb1', hb2', hb3', hb4'⟩ := findSpan_spec_interior knots' order Q.length u hsort' ho (by omega) hkl' hlo hend
+  rw [hc1] at ha2
+  rw [hKt _ (by omega)] at ha3
+  rw [hKt _ (by omega)] at ha4
+  have hab : sa = sb := span_unique knots' hsort' u sa sb ha3 ha4 hb3' hb4' (by omega) (by omega)
+  subst hab
+  rw [evalPoint_of_span _ _ order u sa hfa hs1 ho ha1 (by omega) hl1 (by
+      rw [hKt _ (by omega), hKt _ (by omega)]; exact lt_of_le_of_lt ha3 ha4),
+    evalPoint_of_span knots' Q order u sa hfb hsort' ho hb1' hb2' hkl' (lt_of_le_of_lt hb3' hb4')]
+  congr 1
+  have hf : spanPiece (knots'.take (k0 + order + 1)) u sa (order - 1) = spanPiece knots' u sa (order - 1) := by
+    funext i
+    by_cases hi : sa < i
+    · rw [spanPiece_vanish _ _ _ _ _ (Or.inl hi), spanPiece_vanish _ _ _ _ _ (Or.inl hi)]
+    · rw [Lemmas.Curve.spanPiece_eq_cdbF, Lemmas.Curve.spanPiece_eq_cdbF]
+      apply Lemmas.Curve.cdbF_congr
+      intro j _ hj2
+      exact hKt j (by omega)
+  rw [hf]
+  exact Lemmas.Curve.curveSum_take _ (k0 + 1) Q 0 (fun i hi => spanPiece_vanish _ _ _ _ _ (Or.inl (by omega)))
+
+/-- the second half (suffix of the refined knots, re-normalised), for ANY control polygon `Q` -/
+private theorem split_second_core (knots knots' : List Rat) (Q : List V3) (order k0 : Nat) (t u : Rat) (ho : 1 ≤ order)
+    (hsort' : nondecreasing knots' = true)
+    (hshape : knots' = knots.take (k0 + 1) ++ List.replicate order t ++ knots.drop (k0 + 1))
+    (hk0 : k0 + order < knots.length) (hk0p : order - 1 ≤ k0) (hkl' : knots'.length = order + Q.length)
+    (hmax : t < knots.getLastD 0) (hlo : t ≤ u) (hhi : u < kget knots' Q.length) :
+    evalPoint (normalizeKnots (knots'.drop (k0 + 1))) [] (Q.drop (k0 + 1)) order ((u - t) / (knots.getLastD 0 - t))
+      = evalPoint knots' [] Q order u := by
+  have hlt : (knots.take (k0 + 1)).length = k0 + 1 := by simp; omega
+  have hlen' : knots'.length = knots.length + order := by
+    rw [hshape]; simp only [List.length_append, hlt, List.length_replicate, List.length_drop]; omega
+  have hK2 : ∀ j, k0 + 1 ≤ j → j ≤ k0 + order → kget knots' j = t := by
+    intro j hj1 hj2
+    rw [hshape, List.append_assoc, Lemmas.Curve.kget_eq, List.getElem?_append_right (by rw [hlt]; omega), hlt,
+      List.getElem?_append_left (by simp; omega), List.getElem?_replicate, if_pos (by omega)]
+    rfl
+  have hK3 : ∀ j, k0 + order + 1 ≤ j → kget knots' j = kget knots (j - order) := by
+    intro j hj
+    rw [hshape, List.append_assoc, Lemmas.Curve.kget_eq, List.getElem?_append_right (by rw [hlt]; omega), hlt,
+      List.getElem?_append_right (by simp; omega), List.length_replicate, List.getElem?_drop, ← Lemmas.Curve.kget_eq]
+    congr 1; omega
+  have hkd0 : kget (knots'.drop (k0 + 1)) 0 = t := by
+    rw [Lemmas.Curve.kget_drop, hK2 _ (by omega) (by omega)]
+  have hlast : (knots'.drop (k0 + 1)).getLastD 0 = knots.getLastD 0 := by
+    rw [Lemmas.Curve.getLastD_eq_kget, Lemmas.Curve.getLastD_eq_kget, Lemmas.Curve.kget_drop]
+    have e : k0 + 1 + ((knots'.drop (k0 + 1)).length - 1) = knots'.length - 1 := by
+      simp only [List.length_drop]; omega
+    rw [e, hK3 _ (by omega)]
+    congr 1; omega
+  have hbpos : 0 < knots.getLastD 0 - t := by linarith
+  have hb0 : knots.getLastD 0 - t ≠ 0 := ne_of_gt hbpos
+  have hlen2 : (normalizeKnots (knots'.drop (k0 + 1))).length = knots'.length - (k0 + 1) := by
+    simp [normalizeKnots]
+  have hKn : ∀ j, j < knots'.length - (k0 + 1) → kget (normalizeKnots (knots'.drop (k0 + 1))) j
+      = (kget knots' (j + (k0 + 1)) - t) / (knots.getLastD 0 - t) := by
+    intro j hj
+    simp only [normalizeKnots, hkd0, hlast, Lemmas.Curve.kget_eq, List.getElem?_map, List.getElem?_drop]
+    have : k0 + 1 + j < knots'.length := by omega
+    rw [List.getElem?_eq_getElem this, Nat.add_comm j (k0 + 1), List.getElem?_eq_getElem this]
+    simp
+  have hdiv : ∀ x y : Rat, x ≤ y → (x - t) / (knots.getLastD 0 - t) ≤ (y - t) / (knots.getLastD 0 - t) :=
+    fun x y hxy => div_le_div_of_nonneg_right (by linarith) (le_of_lt hbpos)
+  have hdivlt : ∀ x y : Rat, x < y → (x - t) / (knots.getLastD 0 - t) < (y - t) / (knots.getLastD 0 - t) :=
+    fun x y hxy => div_lt_div_of_pos_right (by linarith) hbpos
+  have hs2 : nondecreasing (normalizeKnots (knots'.drop (k0 + 1))) = true := by
+    apply Lemmas.Curve.nd_of_step
+    intro i hi
+    rw [hlen2] at hi
+    rw [hKn i (by omega), hKn (i + 1) hi]
+    exact hdiv _ _ (nd_mono knots' hsort' _ _ (by omega) (by omega))
+  have hc2 : (Q.drop (k0 + 1)).length = Q.length - (k0 + 1) := by simp
+  have hl2 : (normalizeKnots (knots'.drop (k0 + 1))).length = order + (Q.drop (k0 + 1)).length := by
+    rw [hlen2, hc2]; omega
+  obtain ⟨sa, hfa, ha1, ha2, ha3, ha4⟩ := findSpan_spec_interior (normalizeKnots (knots'.drop (k0 + 1))) order
+    (Q.drop (k0 + 1)).length ((u - t) / (knots.getLastD 0 - t)) hs2 ho (by rw [hc2]; omega) hl2
+    (by rw [hKn _ (by omega)]
+        have e : order - 1 + (k0 + 1) = k0 + order := by omega
+        rw [e, hK2 _ (by omega) (le_refl _)]
+        exact hdiv _ _ hlo)
+    (by rw [hc2, hKn _ (by omega)]
+        have e : Q.length - (k0 + 1) + (k0 + 1) = Q.length := by omega
+        rw [e]
+        exact hdivlt _ _ hhi)
+  have hKp' : kget knots' (order - 1) ≤ u := by
+    have := nd_mono knots' hsort' (order - 1) (k0 + 1) (by omega) (by omega)
+    rw [hK2 _ (le_refl _) (by omega)] at this
+    linarith
+  obtain ⟨sb, hfb, hb1', hb2', hb3', hb4'⟩ := findSpan_spec_interior knots' order Q.length u hsort' ho (by omega) hkl' hKp' hhi
+  rw [hc2] at ha2
+  have hne2 := lt_of_le_of_lt ha3 ha4
+  rw [hKn _ (by omega)] at ha3
+  rw [hKn _ (by omega)] at ha4
+  have ha3' : kget knots' (sa + (k0 + 1)) ≤ u := by
+    by_contra hc
+    have := hdivlt _ _ (not_le.mp hc)
+    linarith
+  have ha4' : u < kget knots' (sa + (k0 + 1) + 1) := by
+    by_contra hc
+    have := hdiv _ _ (not_lt.mp hc)
+    have e : sa + 1 + (k0 + 1) = sa + (k0 + 1) + 1 := by omega
+    rw [e] at ha4
+    linarith
+  have hab : sa + (k0 + 1) = sb := span_unique knots' hsort' u _ sb ha3' ha4' hb3' hb4' (by omega) (by omega)
+  rw [evalPoint_of_span _ _ order _ sa hfa hs2 ho ha1 (by rw [hc2]; omega) hl2 hne2,
+    evalPoint_of_span knots' Q order u sb hfb hsort' ho hb1' hb2' hkl' (lt_of_le_of_lt hb3' hb4')]
+  congr 1
+  rw [Lemmas.Curve.curveSum_drop (spanPiece knots' u sb (order - 1)) (k0 + 1) Q 0
+    (fun i _ hi => spanPiece_vanish _ _ _ _ _ (Or.inr (by omega))), Lemmas.Curve.curveSum_shift]
+  congr 1
+  funext i
+  by_cases hi : sa < i
+  · rw [spanPiece_vanish _ _ _ _ _ (Or.inl hi), spanPiece_vanish _ _ _ _ _ (Or.inl (by omega))]
+  · rw [Lemmas.Curve.spanPiece_eq_cdbF, Lemmas.Curve.spanPiece_eq_cdbF, ← hab,
+      ← Lemmas.Curve.cdbF_shift (kget knots') u sa (k0 + 1) (order - 1) i,
+      ← Lemmas.Curve.cdbF_affine (fun j => kget knots' (j + (k0 + 1))) u t (knots.getLastD 0 - t) hb0]
+    apply Lemmas.Curve.cdbF_congr
+    intro j _ hj2
+    exact hKn j (by omega)
+
+/-- the knots of a successful rational insertion are those of the non rational insertion into the homogeneous points -/
+private theorem insertKnotRational_knots (knots weights : List Rat) (cps : List V3) (order : Nat) (t : Rat)
+    (c1 : List V3) (w1 k1 : List Rat) (h : insertKnotRational knots weights cps order t = .ok (c1, w1, k1)) :
+    ∃ H', insertKnot knots (List.zipWith (fun (v : V3) (w : Rat) => v.scale w) cps weights) order t = .ok (H', k1) := by
+  unfold insertKnotRational at h
+  simp only at h
+  split at h
+  · rename_i H' K' W' K2 hH hW
+    split at h
+    · exact absurd h (by simp)
+    · simp only [Except.ok.injEq, Prod.mk.injEq] at h
+      obtain ⟨_, _, rfl⟩ := h
+      exact ⟨H', hH⟩
+  · exact absurd h (by simp)
+  · exact absurd h (by simp)
+
+/-- shape of the knots after the rational `knot_refinement([t] * m)` -/
+private theorem refine_replicate_rational (order : Nat) (t : Rat) (ho : 1 ≤ order) :
+    ∀ (m : Nat) (knots weights : List Rat) (cps cps' : List V3) (weights' knots' : List Rat) (k0 : Nat),
+      nondecreasing knots = true → order ≤ cps.length → knots.length = order + cps.length → weights.length = cps.length →
+      kget knots (order - 1) < kget knots cps.length → t < kget knots cps.length →
+      kget knots k0 ≤ t → t < kget knots (k0 + 1) → k0 + 1 < knots.length →
+      knotRefinementRational knots weights cps order (List.replicate m t) = .ok (cps', weights', knots') →
+      knots' = knots.take (k0 + 1) ++ List.replicate m t ++ knots.drop (k0 + 1)
+  | 0, knots, weights, cps, cps', weights', knots', k0, _, _, _, _, _, _, _, _, _, h => by
+    simp only [List.replicate_zero, knotRefinementRational, Except.ok.injEq, Prod.mk.injEq] at h
+    rw [← h.2.2]; simp
+  | m + 1, knots, weights, cps, cps', weights', knots', k0, hsort, hoc, hl, hwl, hdom, ht, hb1, hb2, hk0, h => by
+    simp only [List.replicate_succ, knotRefinementRational] at h
+    split at h
+    · rename_i c1 w1 k1 h1
+      obtain ⟨a1, a2, a3, a4, _⟩ := insert_knot_rational_preserves knots weights cps order t (kget knots (order - 1)) c1 w1 k1
+        hsort ho hoc hl hwl (le_of_lt ht) h1 (le_refl _) hdom
+      obtain ⟨H', hH⟩ := insertKnotRational_knots knots weights cps order t c1 w1 k1 h1
+      have hHl : (List.zipWith (fun (v : V3) (w : Rat) => v.scale w) cps weights).length = cps.length := by simp [hwl]
+      obtain ⟨_, b2, _, b4, b5, _⟩ := insert_knot_preserves knots _ order t (kget knots (order - 1)) H' k1 hsort ho
+        (by omega) (by omega) (by rw [hHl]; exact le_of_lt ht) hH (le_refl _) (by rw [hHl]; exact hdom)
+      rw [hHl] at b2 b5
+      obtain ⟨k, qs, hfs, hpk, _, _, hk1⟩ := insertKnot_ok knots _ order t H' k1 hH
+      rw [hHl] at hfs
+      obtain ⟨hkc, hkt, htk⟩ := findSpan_result_lt knots order cps.length t k hsort ho hoc hl ht hfs hpk
+      have hkk : k = k0 := span_unique knots hsort t k k0 hkt htk hb1 hb2 (by omega) hk0
+      subst hkk
+      have hKg := Lemmas.Curve.kget_insert knots k t (by omega)
+      rw [← hk1] at hKg
+      have hc1l : c1.length = H'.length := by rw [a1, b2]
+      have ih := refine_replicate_rational order t ho m k1 w1 c1 cps' weights' knots' (k + 1) a4 (by omega) a3 a2
+        (by rw [b4, hc1l, b5]; exact hdom) (by rw [hc1l, b5]; exact ht) (by rw [hKg, Lemmas.Curve.insK_eq]) (by
+          rw [hKg, Lemmas.Curve.insK_gt _ _ _ (by omega : k + 2 ≤ k + 1 + 1)]; exact htk)
+        (by rw [a3, a1]; omega) h
+      rw [ih, hk1]
+      have hlt : (knots.take (k + 1)).length = k + 1 := by simp; omega
+      rw [take_insert _ _ t (k + 1) hlt, drop_insert _ _ t (k + 1) hlt]
+      simp [List.replicate_succ, List.append_assoc]
+    · exact absurd h (by simp)
+
+private theorem mkBSplineW_ok (cps : List V3) (order : Nat) (knots weights : List Rat) (r : List V3 × List Rat × List Rat)
+    (h : mkBSplineW cps order knots weights = .ok r) :
+    order ≤ cps.length ∧ knots.length = cps.length + order ∧ r.1 = cps ∧ r.2.1 = weights ∧
+    r.2.2 = (if kget knots 0 ≠ 0 then normalizeKnots knots else knots) := by
+  unfold mkBSplineW at h
+  split at h
+  · exact absurd h (by simp)
+  · split at h
+    · exact absurd h (by simp)
+    · split at h
+      · exact absurd h (by simp)
+      · simp only [Except.ok.injEq] at h
+        exact ⟨by omega, by omega, by rw [← h], by rw [← h], by rw [← h]⟩
+
+/-- **rational split**: `split_bspline` of a NURBS curve (clamp by `order` rational insertions, cut knots, control points
+    and weights): the first half evaluates to the original curve on `[U[p], t)` and the second half, re-normalised, at
+    `(u − t)/(max_t − t)` on `[t, U[count])`; knots start at 0, `t` below the end of the domain -/
+theorem split_bspline_rational_preserves (knots weights : List Rat) (cps : List V3) (order : Nat) (t u : Rat)
+    (s1 s2 : List V3 × List Rat × List Rat)
+    (hsort : nondecreasing knots = true) (ho : 1 ≤ order) (hoc : order ≤ cps.length)
+    (hl : knots.length = order + cps.length) (hwl : weights.length = cps.length) (h0 : kget knots 0 = 0)
+    (ht : t < kget knots cps.length)
+    (h : splitBSplineRational knots weights cps order t = .ok (s1, s2)) :
+    (kget knots (order - 1) ≤ u → u < t → evalPoint s1.2.2 s1.2.1 s1.1 order u = evalPoint knots weights cps order u) ∧
+    (t ≤ u → u < kget knots cps.length →
+      evalPoint s2.2.2 s2.2.1 s2.1 order ((u - t) / (knots.getLastD 0 - t)) = evalPoint knots weights cps order u) := by
+  unfold splitBSplineRational at h
+  simp only at h
+  split at h
+  · exact absurd h (by simp)
+  rename_i htol1
+  split at h
+  · exact absurd h (by simp)
+  rename_i htol2
+  split at h
+  · exact absurd h (by simp)
+  · exact absurd h (by simp)
+  rename_i cps' weights' knots' href
+  split at h
+  · exact absurd h (by simp)
+  rename_i r1 hm1
+  split at h
+  · exact absurd h (by simp)
+  rename_i r2 hm2
+  simp only [Except.ok.injEq, Prod.mk.injEq] at h
+  obtain ⟨rfl, rfl⟩ := h
+  have htpos : 0 < t := by
+    have : (0 : Rat) < 1 / 1000000000000 := by norm_num
+    linarith [not_lt.mp htol1]
+  have hHl : (List.zipWith (fun (v : V3) (w : Rat) => v.scale w) cps weights).length = cps.length := by simp [hwl]
+  obtain ⟨k0, hk0p, hk0c, hb1, hb2⟩ : ∃ k0, order - 1 ≤ k0 ∧ k0 < cps.length ∧ kget knots k0 ≤ t ∧ t < kget knots (k0 + 1) := by
+    have hr := href
+    have e : List.replicate order t = t :: List.replicate (order - 1) t := by
+      have : order = (order - 1) + 1 := by omega
+      rw [this, List.replicate_succ]; simp
+    rw [e] at hr
+    simp only [knotRefinementRational] at hr
+    split at hr
+    · rename_i c1 w1 k1 h1
+      obtain ⟨H', hH⟩ := insertKnotRational_knots knots weights cps order t c1 w1 k1 h1
+      obtain ⟨k, qs, hfs, hpk, _, _, _⟩ := insertKnot_ok knots _ order t H' k1 hH
+      rw [hHl] at hfs
+      obtain ⟨hkc, hkt, htk⟩ := findSpan_result_lt knots order cps.length t k hsort ho hoc hl ht hfs hpk
+      exact ⟨k, hpk, hkc, hkt, htk⟩
+    · exact absurd hr (by simp)
+  have hKp : kget knots (order - 1) ≤ t := le_trans (nd_mono knots hsort _ _ hk0p (by omega)) hb1
+  have hdom : kget knots (order - 1) < kget knots cps.length := lt_of_le_of_lt hKp ht
+  have hshape := refine_replicate_rational order t ho order knots weights cps cps' weights' knots' k0 hsort hoc hl hwl hdom ht
+    hb1 hb2 (by omega) href
+  have hts : ∀ t' ∈ List.replicate order t, t' ≤ kget knots cps.length :=
+    fun t' ht' => by rw [List.eq_of_mem_replicate ht']; exact le_of_lt ht
+  have hpres := fun (v : Rat) (hv1 : kget knots (order - 1) ≤ v) (hv2 : v < kget knots cps.length) =>
+    knot_refinement_rational_preserves order v ho (List.replicate order t) knots weights cps cps' weights' knots' hsort hoc hl
+      hwl hts href hv1 hv2
+  obtain ⟨hcl', hwl', hkl', hsort', _⟩ := hpres _ (le_refl _) hdom
+  simp only [List.length_replicate] at hcl'
+  have hlt : (knots.take (k0 + 1)).length = k0 + 1 := by simp; omega
+  have hK1 : ∀ j, j ≤ k0 → kget knots' j = kget knots j := by
+    intro j hj
+    rw [hshape, List.append_assoc, Lemmas.Curve.kget_eq, List.getElem?_append_left (by rw [hlt]; omega),
+      ← Lemmas.Curve.kget_eq, Lemmas.Curve.kget_take _ _ _ (by omega)]
+  have hK2 : ∀ j, k0 + 1 ≤ j → j ≤ k0 + order → kget knots' j = t := by
+    intro j hj1 hj2
+    rw [hshape, List.append_assoc, Lemmas.Curve.kget_eq, List.getElem?_append_right (by rw [hlt]; omega), hlt,
+      List.getElem?_append_left (by simp; omega), List.getElem?_replicate, if_pos (by omega)]
+    rfl
+  have hK3 : ∀ j, k0 + order + 1 ≤ j → kget knots' j = kget knots (j - order) := by
+    intro j hj
+    rw [hshape, List.append_assoc, Lemmas.Curve.kget_eq, List.getElem?_append_right (by rw [hlt]; omega), hlt,
+      List.getElem?_append_right (by simp; omega), List.length_replicate, List.getElem?_drop, ← Lemmas.Curve.kget_eq]
+    congr 1; omega
+  have hspan : bisectRight knots' t 0 knots'.length = k0 + order + 1 := by
+    obtain ⟨b1, b2, b3, b4⟩ := bisectRight_spec knots' t 0 knots'.length hsort' (by omega) (le_refl _)
+    generalize bisectRight knots' t 0 knots'.length = r at *
+    by_contra hne
+    rcases Nat.lt_or_gt_of_ne hne with hlt' | hgt'
+    · have := b4 (k0 + order) (by omega) (by omega)
+      rw [hK2 (k0 + order) (by omega) (le_refl _)] at this
+      exact lt_irrefl _ this
+    · have := b3 (k0 + order + 1) (by omega) hgt'
+      rw [hK3 _ (le_refl _)] at this
+      have e : k0 + order + 1 - order = k0 + 1 := by omega
+      rw [e] at this
+      linarith
+  rw [hspan] at hm1 hm2
+  have e_idx : k0 + order + 1 - order = k0 + 1 := by omega
+  rw [e_idx] at hm1 hm2
+  obtain ⟨m11, m12, m13, m14, m15⟩ := mkBSplineW_ok _ _ _ _ _ hm1
+  obtain ⟨m21, m22, m23, m24, m25⟩ := mkBSplineW_ok _ _ _ _ _ hm2
+  have hKend : kget knots' cps'.length = kget knots cps.length := by
+    rw [hK3 _ (by omega), hcl']; congr 1; omega
+  have hKstart : kget knots' (order - 1) = kget knots (order - 1) := hK1 _ hk0p
+  have hw' : weights' ≠ [] := by
+    intro h0'; rw [h0'] at hwl'; simp at hwl'; omega
+  constructor
+  · intro hlo hhi
+    obtain ⟨_, _, _, _, hev⟩ := hpres u hlo (lt_trans hhi ht)
+    rw [← hev, m13, m14, m15]
+    have hk10 : kget (knots'.take (k0 + order + 1)) 0 = 0 := by
+      rw [Lemmas.Curve.kget_take _ _ _ (by omega), hK1 0 (by omega), h0]
+    rw [if_neg (by rw [hk10]; simp)]
+    rw [evalPoint_hom _ (weights'.take (k0 + 1)) (cps'.take (k0 + 1)) order u ho (by
+        intro h0'
+        have := congrArg List.length h0'
+        simp only [List.length_take, List.length_nil] at this
+        omega) (by simp only [List.length_take]; omega),
+      evalPoint_hom knots' weights' cps' order u ho hw' hwl']
+    rw [← List.take_zipWith, List.map_take]
+    rw [split_first_core knots knots' _ order k0 t u ho hsort' hshape (by omega) hk0p (by simp [hwl']; omega) hb2
+        (by rw [hKstart]; exact hlo) hhi,
+      split_first_core knots knots' _ order k0 t u ho hsort' hshape (by omega) hk0p (by simp [hwl']; omega) hb2
+        (by rw [hKstart]; exact hlo) hhi]
+  · intro hlo hhi
+    obtain ⟨_, _, _, _, hev⟩ := hpres u (le_trans hKp hlo) hhi
+    rw [← hev, m23, m24, m25]
+    have hraw : List.replicate order t ++ knots'.drop (k0 + order + 1) = knots'.drop (k0 + 1) := by
+      rw [hshape, List.append_assoc]
+      have e1 : (knots.take (k0 + 1) ++ (List.replicate order t ++ knots.drop (k0 + 1))).drop (k0 + 1)
+          = List.replicate order t ++ knots.drop (k0 + 1) := by
+        have := List.drop_length_add_append (l₁ := knots.take (k0 + 1)) (l₂ := List.replicate order t ++ knots.drop (k0 + 1)) (i := 0)
+        rw [hlt] at this
+        simpa using this
+      have e2 : (knots.take (k0 + 1) ++ (List.replicate order t ++ knots.drop (k0 + 1))).drop (k0 + order + 1)
+          = knots.drop (k0 + 1) := by
+        have := List.drop_length_add_append (l₁ := knots.take (k0 + 1) ++ List.replicate order t) (l₂ := knots.drop (k0 + 1)) (i := 0)
+        simp only [List.length_append, hlt, List.length_replicate, Nat.add_zero, List.drop_zero, List.append_assoc] at this
+        rw [show k0 + order + 1 = k0 + 1 + order by omega]
+        exact this
+      rw [e1, e2]
+    rw [hraw]
+    have hkd0 : kget (knots'.drop (k0 + 1)) 0 = t := by
+      rw [Lemmas.Curve.kget_drop, hK2 _ (by omega) (by omega)]
+    rw [if_pos (by rw [hkd0]; exact ne_of_gt htpos)]
+    have hmaxk : kget knots cps.length ≤ knots.getLastD 0 := by
+      rw [Lemmas.Curve.getLastD_eq_kget]
+      exact nd_mono knots hsort _ _ (by omega) (by omega)
+    rw [evalPoint_hom _ (weights'.drop (k0 + 1)) (cps'.drop (k0 + 1)) order _ ho (by
+        intro h0'
+        have := congrArg List.length h0'
+        simp only [List.length_drop, List.length_nil] at this
+        omega) (by simp only [List.length_drop]; omega),
+      evalPoint_hom knots' weights' cps' order u ho hw' hwl']
+    rw [← List.drop_zipWith, List.map_drop]
+    rw [split_second_core knots knots' _ order k0 t u ho hsort' hshape (by omega) hk0p (by simp [hwl']; omega)
+        (by linarith) hlo (by simp only [List.length_zipWith, hwl', Nat.min_self]; rw [hKend]; exact hhi),
+      split_second_core knots knots' _ order k0 t u ho hsort' hshape (by omega) hk0p (by simp [hwl']; omega)
+        (by linarith) hlo (by simp only [List.length_map, hwl']; rw [hKend]; exact hhi)]
+
+/-! ## 6i. `Basis.basis_vector`: the collocation row of the interpolation solvers -/
+
+private theorem combine_zero_prefix : ∀ (n : Nat) (N : List Rat) (pts : List V3),
+    combine (List.replicate n 0 ++ N) pts = combine N (pts.drop n)
+  | 0, _, _ => by simp
+  | n + 1, N, [] => by
+    simp only [List.replicate_succ, List.cons_append, List.drop_nil]
+    cases N <;> simp [combine]
+  | n + 1, N, q :: qs => by
+    simp only [List.replicate_succ, List.cons_append, combine, List.drop_succ_cons, combine_zero_prefix n N qs]
+    apply v3ext <;> simp [V3.add, V3.scale]
+
+private theorem combine_zero_suffix (m : Nat) : ∀ (N : List Rat) (pts : List V3),
+    combine (N ++ List.replicate m 0) pts = combine N pts
+  | [], pts => by
+    simp only [List.nil_append]
+    have := combine_zeros (List.replicate m (1 : Rat)) pts
+    simp only [List.map_replicate] at this
+    rw [this]; cases pts <;> rfl
+  | _ :: _, [] => by simp [combine]
+  | n :: ns, q :: qs => by
+    simp only [List.cons_append, combine, combine_zero_suffix m ns qs]
+
+/-- **collocation**: `Evaluator.point(u)` is the dot product of `Basis.basis_vector(u)` with ALL control points (rational or
+    not, every `u` for which `find_span` answers a span >= degree, in particular the closed domain).  The interpolation
+    solvers (`global_bspline_interpolation`…) set up exactly the rows `basis_vector(t_k)` and solve
+    `Σ_i row_k[i]·P_i = Q_k`: any exact solution makes the curve pass through the fit points at the parameters `t_k` -/
+theorem basis_vector_collocation (knots weights : List Rat) (cps : List V3) (order : Nat) (u : Rat) (ho : 1 ≤ order)
+    (span : Nat) (hfs : findSpan knots order cps.length u = (span : Int)) :
+    evalPoint knots weights cps order u = (basisVector knots weights order cps.length u).map (fun B => combine B cps) := by
+  simp only [evalPoint, basisVector, hfs]
+  show (basisFuncsW knots weights order span u).map _ = ((basisFuncsW knots weights order span u).map _).map _
+  cases basisFuncsW knots weights order span u with
+  | none => rfl
+  | some N =>
+    simp only [Option.map_some, Option.some.injEq]
+    rw [combine_zero_suffix, combine_zero_prefix]
+    congr 2; omega
+
+/-! ## 6h. rational first derivative (A4.2): the quotient rule -/
+
+/-- **NURBS first derivative** (`Evaluator.derivative(u, 1)` with weights, A3.2 + A4.2 as coded): with
+    `A(u) = Σ N_i w_i P_i`, `w(u) = Σ N_i w_i` and their derivatives `A'`, `w'` (sums over the `order` control points of
+    the span with `N'` = `cdbFD`, the derivative of the basis pieces), the call returns `[C, C']` with `C = A/w` and
+    `C' = (A' − w'·C)/w` — the quotient rule; every degree ≥ 1, every nondecreasing knot vector, `u` in the half open
+    domain, `w(u) ≠ 0` (always true for positive weights) -/
+theorem rational_derivative_first (knots weights : List Rat) (cps : List V3) (order : Nat) (u : Rat)
+    (hsort : nondecreasing knots = true) (ho : 2 ≤ order) (hoc : order ≤ cps.length)
+    (hl : knots.length = order + cps.length) (hw : weights ≠ [])
+    (hlo : kget knots (order - 1) ≤ u) (hhi : u < kget knots cps.length) :
+    ∃ s : Nat, order - 1 ≤ s ∧ s < cps.length ∧ kget knots s ≤ u ∧ u < kget knots (s + 1) ∧
+      let ws := (weights.drop (s + 1 - order)).take order
+      let pts := cps.drop (s + 1 - order)
+      let N := (List.range order).map (fun r => spanPiece knots u s (order - 1) (s - (order - 1) + r))
+      let N' := (List.range order).map (fun r =>
+        Lemmas.Curve.cdbFD (kget knots) u (Lemmas.Curve.delta s) (order - 1) (s - (order - 1) + r))
+      let A := combine (List.zipWith (· * ·) N ws) pts
+      let A' := combine (List.zipWith (· * ·) N' ws) pts
+      let w := (List.zipWith (· * ·) N ws).sum
+      let w' := (List.zipWith (· * ·) N' ws).sum
+      w ≠ 0 →
+      evalDerivative knots weights cps order u 1
+        = some [A.scale (1 / w), (A'.sub ((A.scale (1 / w)).scale (1 * w'))).scale (1 / w)] := by
+  obtain ⟨s, hfs, hs1, hs2, hs3, hs4⟩ := findSpan_spec_interior knots order cps.length u hsort (by omega) hoc hl hlo hhi
+  refine ⟨s, hs1, hs2, hs3, hs4, ?_⟩
+  intro ws pts N N' A A' w w' hw0
+  have hD := basis_derivative_first knots order s u hsort ho hs1 (by omega) (lt_of_le_of_lt hs3 hs4)
+  have hne : weights.isEmpty = false := by cases weights <;> simp_all
+  simp only [evalDerivative, hfs]
+  show (basisFuncsDerivatives knots order s u 1).bind _ = _
+  rw [hD]
+  simp only [Option.bind_some, hne, Bool.false_eq_true, if_false]
+  have hr : List.range (1 + 1) = [0, 1] := rfl
+  simp only [hr, List.map_cons, List.map_nil, List.getD_cons_zero, List.getD_cons_succ]
+  rw [if_neg hw0]
+  simp [List.foldl, List.range', choose]
+  exact ⟨rfl, rfl⟩
+
+/- NOT proved (oracle only): degree_elevation (A5.9), bezier_decomposition (A5.6), derivatives of order >= 2,
+   insert_knot for U[count] < t < max_t (unclamped knots: the code leaves a knot vector that is not nondecreasing, see the
+   #guard at the end), rational split AT the cut / the end point, d2 of the generic Bezier class at t = 0, 1. -/
 
 /-! ## 7. bulge -/
 
@@ -858,5 +3641,85 @@ example : nondecreasing [0, 0, 0, 1, 2, 2, 2] = true ∧ nondecreasing [0, 1, 2,
 #guard (Bez4.mk ⟨0, 0, 0⟩ ⟨1, 2, 0⟩ ⟨3, 2, 0⟩ ⟨4, 0, 0⟩).point (1 / 2) == ⟨2, 3 / 2, 0⟩
 #guard bulgeCenter 0 0 2 0 1 == (1, 0) && bulgeRadiusSq 0 0 2 0 1 == 1 && bulgeApex 0 0 2 0 1 == (1, -1)
 #guard (insertKnot [0, 0, 0, 1, 2, 2, 2] [⟨0, 0, 0⟩, ⟨1, 2, 0⟩, ⟨3, 2, 0⟩, ⟨4, 0, 0⟩] 3 (1 / 2)).toOption.isSome
+
+
+/-! ### session 3: knot insertion, refinement, reversal, continuity, Bezier subdivision -/
+-- insert_knot: hypotheses met (t = 1/2 < U[count] = 2), the result is a 5-point spline over the same domain, same point at u = 5/4
+#guard (insertKnot [0, 0, 0, 1, 2, 2, 2] [⟨0, 0, 0⟩, ⟨1, 2, 0⟩, ⟨3, 2, 0⟩, ⟨4, 0, 0⟩] 3 (1 / 2)).toOption.map (fun r =>
+    (r.2, evalPoint r.2 [] r.1 3 (5 / 4)))
+  == some ([0, 0, 0, 1 / 2, 1, 2, 2, 2], some ⟨5 / 2, 15 / 8, 0⟩)
+#guard evalPoint [0, 0, 0, 1, 2, 2, 2] [] [⟨0, 0, 0⟩, ⟨1, 2, 0⟩, ⟨3, 2, 0⟩, ⟨4, 0, 0⟩] 3 (5 / 4) == some ⟨5 / 2, 15 / 8, 0⟩
+-- the hypothesis `t < U[count]` of insert_knot_preserves: outside it (unclamped knots, U[count] = 4 < t = 9/2 < max_t = 6)
+-- `knots.insert(k + 1, t)` leaves a knot vector that is NOT nondecreasing (the code does the same, stream X4)
+#guard (insertKnot [0, 1, 2, 3, 4, 5, 6] [⟨0, 0, 0⟩, ⟨1, 2, 0⟩, ⟨3, 2, 0⟩, ⟨4, 0, 0⟩] 3 (9 / 2)).toOption.map (fun r =>
+    (r.2, nondecreasing r.2)) == some ([0, 1, 2, 3, 9 / 2, 4, 5, 6], false)
+-- knot_refinement with repeated and existing knots
+#guard (knotRefinement [0, 0, 0, 1, 2, 2, 2] [⟨0, 0, 0⟩, ⟨1, 2, 0⟩, ⟨3, 2, 0⟩, ⟨4, 0, 0⟩] 3 [1 / 2, 1, 1 / 2, 3 / 2]).toOption.map
+    (fun r => (r.2, evalPoint r.2 [] r.1 3 (5 / 4)))
+  == some ([0, 0, 0, 1 / 2, 1 / 2, 1, 1, 3 / 2, 2, 2, 2], some ⟨5 / 2, 15 / 8, 0⟩)
+-- split_bezier: left half forwards, right half BACKWARDS (quirk)
+#guard (splitBezier [⟨0, 0, 0⟩, ⟨1, 2, 0⟩, ⟨3, 2, 0⟩, ⟨4, 0, 0⟩] (1 / 4)).toOption.map (fun r =>
+    (r.1.head?, r.2.head?, bernsteinCurve r.1 (1 / 2), bernsteinCurve r.2 (1 / 3)))
+  == some (some ⟨0, 0, 0⟩, some ⟨4, 0, 0⟩, ⟨107 / 256, 21 / 32, 0⟩, ⟨99 / 32, 9 / 8, 0⟩)
+#guard bernsteinCurve [⟨0, 0, 0⟩, ⟨1, 2, 0⟩, ⟨3, 2, 0⟩, ⟨4, 0, 0⟩] (1 / 8) == ⟨107 / 256, 21 / 32, 0⟩
+#guard bernsteinCurve [⟨0, 0, 0⟩, ⟨1, 2, 0⟩, ⟨3, 2, 0⟩, ⟨4, 0, 0⟩] (3 / 4) == ⟨99 / 32, 9 / 8, 0⟩
+-- reverse: multLeDegree holds for ordinary clamped vectors; the reversed spline at the mirrored parameter, ON the knot u = 1
+#guard multLeDegree [0, 0, 0, 1, 2, 2, 2] 3 && multLeDegree [0, 1, 2, 3, 3, 4, 5] 3 && !multLeDegree [0, 0, 0, 1, 1, 1, 2, 2, 2] 3
+#guard (reverseSpline [0, 0, 0, 1, 2, 2, 2] [] []).1 == [0, 0, 0, 1 / 2, 1, 1, 1] && reverseParam [0, 0, 0, 1, 2, 2, 2] 1 == 1 / 2
+#guard evalPoint [0, 0, 0, 1 / 2, 1, 1, 1] [] [⟨4, 0, 0⟩, ⟨3, 2, 0⟩, ⟨1, 2, 0⟩, ⟨0, 0, 0⟩] 3 (1 / 2) == some ⟨2, 2, 0⟩
+#guard evalPoint [0, 0, 0, 1, 2, 2, 2] [] [⟨0, 0, 0⟩, ⟨1, 2, 0⟩, ⟨3, 2, 0⟩, ⟨4, 0, 0⟩] 3 1 == some ⟨2, 2, 0⟩
+-- `multLeDegree` is necessary for bspline_reverse / bspline_continuous_at_knot: interior knot 1 of multiplicity 3 = order,
+-- the curve jumps from (3,2) to (4,0); `point(1)` is the right limit, the reversed spline gives the left limit
+#guard evalPoint [0, 0, 0, 1, 1, 1, 2, 2, 2] [] [⟨0, 0, 0⟩, ⟨1, 2, 0⟩, ⟨3, 2, 0⟩, ⟨4, 0, 0⟩, ⟨5, 1, 0⟩, ⟨6, 0, 0⟩] 3 1 == some ⟨4, 0, 0⟩
+#guard (let r := reverseSpline [0, 0, 0, 1, 1, 1, 2, 2, 2] [] [⟨0, 0, 0⟩, ⟨1, 2, 0⟩, ⟨3, 2, 0⟩, ⟨4, 0, 0⟩, ⟨5, 1, 0⟩, ⟨6, 0, 0⟩]
+        evalPoint r.1 [] r.2.2 3 (reverseParam [0, 0, 0, 1, 1, 1, 2, 2, 2] 1)) == some ⟨3, 2, 0⟩
+-- first derivatives: row 0 = basis functions, row 1 = their derivatives (sum 0); the curve derivative
+#guard basisFuncsDerivatives [0, 0, 0, 1, 2, 2, 2] 3 3 (3 / 2) 1 == some [[1 / 8, 5 / 8, 1 / 4], [-1 / 2, -1 / 2, 1]]
+#guard evalDerivative [0, 0, 0, 1, 2, 2, 2] [] [⟨0, 0, 0⟩, ⟨1, 2, 0⟩, ⟨3, 2, 0⟩, ⟨4, 0, 0⟩] 3 (3 / 2) 1
+  == some [⟨3, 3 / 2, 0⟩, ⟨2, -2, 0⟩]
+-- rational quarter circle: the derivative at the start is tangent to the circle, (0, 2, 0)
+#guard evalDerivative [0, 0, 0, 1, 1, 1] [1, 1, 2] [⟨1, 0, 0⟩, ⟨1, 1, 0⟩, ⟨0, 1, 0⟩] 3 0 1 == some [⟨1, 0, 0⟩, ⟨0, 2, 0⟩]
+-- split: both halves are returned, the second one re-normalised to [0, 1]
+#guard (splitBSpline [0, 0, 0, 1, 2, 3, 3, 3] [⟨0, 0, 0⟩, ⟨1, 2, 0⟩, ⟨3, 2, 0⟩, ⟨4, 0, 0⟩, ⟨5, 1, 0⟩] 3 (3 / 2)).toOption.map
+    (fun r => (r.1.2, r.2.2, evalPoint r.1.2 [] r.1.1 3 (5 / 4), evalPoint r.2.2 [] r.2.1 3 ((2 - 3 / 2) / (3 - 3 / 2))))
+  == some ([0, 0, 0, 1, 3 / 2, 3 / 2, 3 / 2], [0, 0, 0, 1 / 3, 1, 1, 1],
+      evalPoint [0, 0, 0, 1, 2, 3, 3, 3] [] [⟨0, 0, 0⟩, ⟨1, 2, 0⟩, ⟨3, 2, 0⟩, ⟨4, 0, 0⟩, ⟨5, 1, 0⟩] 3 (5 / 4),
+      evalPoint [0, 0, 0, 1, 2, 3, 3, 3] [] [⟨0, 0, 0⟩, ⟨1, 2, 0⟩, ⟨3, 2, 0⟩, ⟨4, 0, 0⟩, ⟨5, 1, 0⟩] 3 2)
+-- bezier_to_bspline: two seamless cubic curves
+#guard seamless [⟨⟨0, 0, 0⟩, ⟨1, 2, 0⟩, ⟨3, 2, 0⟩, ⟨4, 0, 0⟩⟩, ⟨⟨4, 0, 0⟩, ⟨5, -2, 0⟩, ⟨6, 1, 0⟩, ⟨7, 0, 0⟩⟩]
+#guard (bezierToBSpline [⟨⟨0, 0, 0⟩, ⟨1, 2, 0⟩, ⟨3, 2, 0⟩, ⟨4, 0, 0⟩⟩, ⟨⟨4, 0, 0⟩, ⟨5, -2, 0⟩, ⟨6, 1, 0⟩, ⟨7, 0, 0⟩⟩]).map
+    (fun r => (r.2, evalPoint r.2 [] r.1 4 (1 + 1 / 2)))
+  == some ([0, 0, 0, 0, 1, 1, 1, 2, 2, 2, 2], some ((Bez4.mk ⟨4, 0, 0⟩ ⟨5, -2, 0⟩ ⟨6, 1, 0⟩ ⟨7, 0, 0⟩).point (1 / 2)))
+-- rational insertion: the unit quarter circle stays on the circle, weights change
+#guard (insertKnotRational [0, 0, 0, 1, 1, 1] [1, 1, 2] [⟨1, 0, 0⟩, ⟨1, 1, 0⟩, ⟨0, 1, 0⟩] 3 (1 / 2)).toOption.map
+    (fun r => (r.2.1, evalPoint r.2.2 r.2.1 r.1 3 (1 / 4)))
+  == some ([1, 1, 3 / 2, 2], evalPoint [0, 0, 0, 1, 1, 1] [1, 1, 2] [⟨1, 0, 0⟩, ⟨1, 1, 0⟩, ⟨0, 1, 0⟩] 3 (1 / 4))
+-- generic Bezier class (degree 4): all three branches of derivative()
+#guard bezierDerivative [⟨0, 0, 0⟩, ⟨1, 2, 0⟩, ⟨3, 2, 0⟩, ⟨4, 0, 0⟩, ⟨5, 1, 0⟩] 0 ==
+  some (⟨0, 0, 0⟩, ⟨4, 8, 0⟩, ⟨12, -24, 0⟩)
+#guard (bezierDerivative [⟨0, 0, 0⟩, ⟨1, 2, 0⟩, ⟨3, 2, 0⟩, ⟨4, 0, 0⟩, ⟨5, 1, 0⟩] (1 / 2)).map (fun r => (r.1, r.2.1)) ==
+  some (⟨43 / 16, 21 / 16, 0⟩, ⟨11 / 2, -3 / 2, 0⟩)
+#guard (bezierDerivative [⟨0, 0, 0⟩, ⟨1, 2, 0⟩, ⟨3, 2, 0⟩, ⟨4, 0, 0⟩, ⟨5, 1, 0⟩] (1 - 1 / 1000000)).map (fun r => (r.1, r.2.1)) ==
+  some (⟨5, 1, 0⟩, ⟨4, 4, 0⟩)      -- snapped to t = 1
+-- rational transform: quarter circle (weight sum 5/4 ≠ 0 at u = 1/2) moved by a translation + scaling
+#guard (let m : Affine := ⟨2, 0, 0, 0, 2, 0, 0, 0, 1, 5, -1, 0⟩
+        evalPoint [0, 0, 0, 1, 1, 1] [1, 1, 2] ([⟨1, 0, 0⟩, ⟨1, 1, 0⟩, ⟨0, 1, 0⟩].map m.apply) 3 (1 / 2)
+          == (evalPoint [0, 0, 0, 1, 1, 1] [1, 1, 2] [⟨1, 0, 0⟩, ⟨1, 1, 0⟩, ⟨0, 1, 0⟩] 3 (1 / 2)).map m.apply)
+-- default knots: open_uniform_knot_vector(6, 4, normalize=True); count = order: the Bezier curve
+#guard openUniformKnots 6 4 true == [0, 0, 0, 0, 1 / 3, 2 / 3, 1, 1, 1, 1] && openUniformKnots 4 4 false == [0, 0, 0, 0, 1, 1, 1, 1]
+#guard evalPoint (openUniformKnots 4 4 true) [] [⟨0, 0, 0⟩, ⟨1, 2, 0⟩, ⟨3, 2, 0⟩, ⟨4, 0, 0⟩] 4 (1 / 2)
+  == some (bernsteinCurve [⟨0, 0, 0⟩, ⟨1, 2, 0⟩, ⟨3, 2, 0⟩, ⟨4, 0, 0⟩] (1 / 2))
+-- split: the first half AT the cut and the second half at the end point
+#guard (splitBSpline [0, 0, 0, 1, 2, 3, 3, 3] [⟨0, 0, 0⟩, ⟨1, 2, 0⟩, ⟨3, 2, 0⟩, ⟨4, 0, 0⟩, ⟨5, 1, 0⟩] 3 (3 / 2)).toOption.map
+    (fun r => (evalPoint r.1.2 [] r.1.1 3 (3 / 2), evalPoint r.2.2 [] r.2.1 3 1))
+  == some (evalPoint [0, 0, 0, 1, 2, 3, 3, 3] [] [⟨0, 0, 0⟩, ⟨1, 2, 0⟩, ⟨3, 2, 0⟩, ⟨4, 0, 0⟩, ⟨5, 1, 0⟩] 3 (3 / 2),
+      evalPoint [0, 0, 0, 1, 2, 3, 3, 3] [] [⟨0, 0, 0⟩, ⟨1, 2, 0⟩, ⟨3, 2, 0⟩, ⟨4, 0, 0⟩, ⟨5, 1, 0⟩] 3 3)
+-- rational split of the quarter circle at t = 1/2: both halves stay on the unit circle and reproduce the curve
+#guard (splitBSplineRational [0, 0, 0, 1, 1, 1] [1, 1, 2] [⟨1, 0, 0⟩, ⟨1, 1, 0⟩, ⟨0, 1, 0⟩] 3 (1 / 2)).toOption.map
+    (fun r => (evalPoint r.1.2.2 r.1.2.1 r.1.1 3 (1 / 4), evalPoint r.2.2.2 r.2.2.1 r.2.1 3 ((3 / 4 - 1 / 2) / (1 - 1 / 2))))
+  == some (evalPoint [0, 0, 0, 1, 1, 1] [1, 1, 2] [⟨1, 0, 0⟩, ⟨1, 1, 0⟩, ⟨0, 1, 0⟩] 3 (1 / 4),
+      evalPoint [0, 0, 0, 1, 1, 1] [1, 1, 2] [⟨1, 0, 0⟩, ⟨1, 1, 0⟩, ⟨0, 1, 0⟩] 3 (3 / 4))
+-- weight scaling: c = 3
+#guard evalPoint [0, 0, 0, 1, 1, 1] [3, 3, 6] [⟨1, 0, 0⟩, ⟨1, 1, 0⟩, ⟨0, 1, 0⟩] 3 (1 / 2) == some ⟨3 / 5, 4 / 5, 0⟩
 
 end EzdxfVerif.Props.C13
